@@ -13,6 +13,7 @@ def locNames : List String := [
   "Result.Artifacts[]",
   "Result.Diffs[]",
   "[]interface{}[]",
+  "[]plotgroup[]",
   "actionReport.failOk",
   "actor.actionScripts[]",
   "actor.cleanupScript",
@@ -100,24 +101,11 @@ def locNames : List String := [
   "fsmEval.curState",
   "fsmEval.fsm",
   "fsmEval.labelMap",
-  "local Run.extraScript",
-  "local Run.file",
-  "local actor.prepareScript.err",
   "local actor.runActorCommand.outbuf",
   "local actor.runActorCommandWithConsumer.stopRead",
-  "local app.conduct.ctx",
-  "local app.conduct.err",
-  "local app.runForAllActors.err",
-  "local app.subPlots.plotGroups[]",
-  "local audition.audit.ctx",
-  "local audition.audit.err",
-  "local collector.collect.err",
   "local config.parseRole.parserNames[]",
   "local config.preprocReplace.err",
-  "local config.printCfg.undefined[]",
-  "local config.run.err",
-  "local prompter.runScene.err",
-  "local spotMgr.manageSpotlights.err",
+  "map[string]bool[]",
   "observer.hasData",
   "outputFiles.files[]",
   "outputFiles.writers[]",
@@ -206,9 +194,9 @@ def lockNames : List String := ["workerRegistry.Mutex"]
 /-- parents, multi, once, joined, joinBeforeDone, leaks -/
 def roots : List Root := [
   ⟨[], false, false, false, [], []⟩,  -- 0 main (main ) func Run()
-  ⟨[0], false, true, true, [], ["app.runConduct: return errors.Errorf(\"time limit reached, initiating hard shutdown\")"]⟩,  -- 1 app.runConduct#1 (worker run.go:253) runWorker(playCtx, ap.stopper, func(ctx context.Context) {
-  ⟨[0], false, true, false, [], []⟩,  -- 2 app.runConduct#3 (go run.go:337) go func() {
-  ⟨[0], false, false, false, [], []⟩,  -- 3 app.runConduct#2 (go run.go:275) go func() {
+  ⟨[0], false, true, true, [], ["app.runConduct: return errors.Errorf(\"time limit reached, initiating hard shutdown\")"]⟩,  -- 1 app.runConduct#1 (worker run.go:257) runWorker(playCtx, ap.stopper, func(ctx context.Context) {
+  ⟨[0], false, true, false, [], []⟩,  -- 2 app.runConduct#3 (go run.go:341) go func() {
+  ⟨[0], false, false, false, [], []⟩,  -- 3 app.runConduct#2 (go run.go:279) go func() {
   ⟨[0], false, true, false, [], []⟩,  -- 4 app.prepareTerm#1 (go app.go:91) go ap.handleResize(stdout)
   ⟨[1], false, true, true, [1], []⟩,  -- 5 prompter.startPrompter#1 (worker conductor.go:259) runWorker(promptCtx, pr.stopper, func(ctx context.Context) {
   ⟨[1], false, true, true, [1], []⟩,  -- 6 spotMgr.startSpotlights#1 (worker conductor.go:321) runWorker(spotCtx, spm.stopper, func(ctx context.Context) {
@@ -255,494 +243,451 @@ def «Result.Artifacts» : Nat := 2
 def «Result.Artifacts[]» : Nat := 3
 def «Result.Diffs[]» : Nat := 4
 def «[]interface{}[]» : Nat := 5
-def «actionReport.failOk» : Nat := 6
-def «actor.actionScripts[]» : Nat := 7
-def «actor.cleanupScript» : Nat := 8
-def «actor.hasData» : Nat := 9
-def «actor.spotlightScript» : Nat := 10
-def «actor.workDir» : Nat := 11
-def «app.isTerminal» : Nat := 12
-def «app.maxTime» : Nat := 13
-def «app.minTime» : Nat := 14
-def «app.startTime» : Nat := 15
-def «app.stopper» : Nat := 16
-def «app.terminalWidth» : Nat := 17
-def «audMember.auditor» : Nat := 18
-def «audMember.auditor[]» : Nat := 19
-def «audMember.mentioned» : Nat := 20
-def «audMember.observer» : Nat := 21
-def «audMember.observer[]» : Nat := 22
-def «auditionReport.output» : Nat := 23
-def «auditionReport.result» : Nat := 24
-def «auditionResults.actChanges» : Nat := 25
-def «auditionResults.actChanges[]» : Nat := 26
-def «auditionResults.moodPeriods» : Nat := 27
-def «auditionResults.moodPeriods[]» : Nat := 28
-def «auditionResults.numRepeats» : Nat := 29
-def «auditionState.auditorStates[]» : Nat := 30
-def «auditionState.curActivated[]» : Nat := 31
-def «auditionState.curMood» : Nat := 32
-def «auditionState.curMoodStart» : Nat := 33
-def «auditionState.curVals[]» : Nat := 34
-def «auditor.hasData» : Nat := 35
-def «auditor.name» : Nat := 36
-def «auditorState.activated» : Nat := 37
-def «auditorState.auditing» : Nat := 38
-def «collectedSignal.hasData» : Nat := 39
-def «collectorState.badCounts[]» : Nat := 40
-def «collectorState.errors» : Nat := 41
-def «collectorState.errors[]» : Nat := 42
-def «collectorState.goodCounts[]» : Nat := 43
-def «config.asciiOnly» : Nat := 44
-def «config.authors» : Nat := 45
-def «config.authors[]» : Nat := 46
-def «config.dataDir» : Nat := 47
-def «config.defines» : Nat := 48
-def «config.diffs» : Nat := 49
-def «config.diffs[]» : Nat := 50
-def «config.doPrint» : Nat := 51
-def «config.earlyExit» : Nat := 52
-def «config.extraInterpretation» : Nat := 53
-def «config.extraScript» : Nat := 54
-def «config.includePath» : Nat := 55
-def «config.includePath[]» : Nat := 56
-def «config.keepArtifacts» : Nat := 57
-def «config.pVarNames» : Nat := 58
-def «config.pVarNames[]» : Nat := 59
-def «config.pVars[]» : Nat := 60
-def «config.parseOnly» : Nat := 61
-def «config.play» : Nat := 62
-def «config.play[]» : Nat := 63
-def «config.quiet» : Nat := 64
-def «config.removeAll» : Nat := 65
-def «config.roleNames» : Nat := 66
-def «config.roleNames[]» : Nat := 67
-def «config.roles[]» : Nat := 68
-def «config.seeAlso» : Nat := 69
-def «config.seeAlso[]» : Nat := 70
-def «config.skipPlot» : Nat := 71
-def «config.subDir» : Nat := 72
-def «config.titleStrings» : Nat := 73
-def «config.titleStrings[]» : Nat := 74
-def «config.uploadURL» : Nat := 75
-def «config.varNames» : Nat := 76
-def «config.varNames[]» : Nat := 77
-def «config.vars[]» : Nat := 78
-def «errorCollection.errs» : Nat := 79
-def «errorCollection.errs[]» : Nat := 80
-def «exec.Cmd.Dir» : Nat := 81
-def «exec.Cmd.Stdin» : Nat := 82
-def «exec.Cmd.Stdout» : Nat := 83
-def «exec.Cmd.SysProcAttr» : Nat := 84
-def «fsm.edges» : Nat := 85
-def «fsm.labels» : Nat := 86
-def «fsm.name» : Nat := 87
-def «fsm.startState» : Nat := 88
-def «fsm.stateNames» : Nat := 89
-def «fsmEval.curState» : Nat := 90
-def «fsmEval.fsm» : Nat := 91
-def «fsmEval.labelMap» : Nat := 92
-def «local Run.extraScript» : Nat := 93
-def «local Run.file» : Nat := 94
-def «local actor.prepareScript.err» : Nat := 95
-def «local actor.runActorCommand.outbuf» : Nat := 96
-def «local actor.runActorCommandWithConsumer.stopRead» : Nat := 97
-def «local app.conduct.ctx» : Nat := 98
-def «local app.conduct.err» : Nat := 99
-def «local app.runForAllActors.err» : Nat := 100
-def «local app.subPlots.plotGroups[]» : Nat := 101
-def «local audition.audit.ctx» : Nat := 102
-def «local audition.audit.err» : Nat := 103
-def «local collector.collect.err» : Nat := 104
-def «local config.parseRole.parserNames[]» : Nat := 105
-def «local config.preprocReplace.err» : Nat := 106
-def «local config.printCfg.undefined[]» : Nat := 107
-def «local config.run.err» : Nat := 108
-def «local prompter.runScene.err» : Nat := 109
-def «local spotMgr.manageSpotlights.err» : Nat := 110
-def «observer.hasData» : Nat := 111
-def «outputFiles.files[]» : Nat := 112
-def «outputFiles.writers[]» : Nat := 113
-def «parser.curLine» : Nat := 114
-def «pflag.Flag.NoOptDefVal» : Nat := 115
-def «plotgroup.plots[]» : Nat := 116
-def «reader.diffs[]» : Nat := 117
-def «reader.readers» : Nat := 118
-def «reader.readers[]» : Nat := 119
-def «role.actionCmds[]» : Nat := 120
-def «role.actionNames» : Nat := 121
-def «role.actionNames[]» : Nat := 122
-def «role.cleanupCmd» : Nat := 123
-def «role.sigNames» : Nat := 124
-def «role.sigNames[]» : Nat := 125
-def «role.sigParsers» : Nat := 126
-def «role.sigParsers[]» : Nat := 127
-def «role.spotlightCmd» : Nat := 128
-def «scene.concurrentLines» : Nat := 129
-def «scene.concurrentLines[]» : Nat := 130
-def «scene.waitUntil» : Nat := 131
-def «scriptLine.steps» : Nat := 132
-def «scriptLine.steps[]» : Nat := 133
-def «sigEvent.values» : Nat := 134
-def «sigEvent.values[]» : Nat := 135
-def «sink.lastVal» : Nat := 136
-def «subreader.lineno» : Nat := 137
-def «subreader.lines» : Nat := 138
-def «subreader.lines[]» : Nat := 139
-def «subreader.parent» : Nat := 140
-def «timeutil.Timer.Read» : Nat := 141
-def «var actionDefRe» : Nat := 142
-def «var activeRe» : Nat := 143
-def «var actorDefRe» : Nat := 144
-def «var actorsRe» : Nat := 145
-def «var adjList» : Nat := 146
-def «var advList» : Nat := 147
-def «var audienceRe» : Nat := 148
-def «var automata» : Nat := 149
-def «var cleanupDefRe» : Nat := 150
-def «var collectFns» : Nat := 151
-def «var collectsRe» : Nat := 152
-def «var computesRe» : Nat := 153
-def «var editRe» : Nat := 154
-def «var entailsRe» : Nat := 155
-def «var errAuditViolation» : Nat := 156
-def «var errInterrupted» : Nat := 157
-def «var evalFunctions» : Nat := 158
-def «var evalFunctions[]» : Nat := 159
-def «var expectsRe» : Nat := 160
-def «var expectsSameRe» : Nat := 161
-def «var foulRe» : Nat := 162
-def «var identRe» : Nat := 163
-def «var ignoreRe» : Nat := 164
-def «var init$guard» : Nat := 165
-def «var interpretationRe» : Nat := 166
-def «var measuresRe» : Nat := 167
-def «var moodChangeRe» : Nat := 168
-def «var narratorCtx» : Nat := 169
-def «var noPlotRe» : Nat := 170
-def «var nounsList» : Nat := 171
-def «var paramRe» : Nat := 172
-def «var parseDefRe» : Nat := 173
-def «var preprocRe» : Nat := 174
-def «var registry» : Nat := 175
-def «var repeatAlwaysRe» : Nat := 176
-def «var repeatCountRe» : Nat := 177
-def «var repeatRe» : Nat := 178
-def «var repeatTimeoutRe» : Nat := 179
-def «var roleRe» : Nat := 180
-def «var scriptRe» : Nat := 181
-def «var spotlightDefRe» : Nat := 182
-def «var storyLineRe» : Nat := 183
-def «var tempoRe» : Nat := 184
-def «var watchRe» : Nat := 185
-def «var watchVarRe» : Nat := 186
-def «variable.watcherNames» : Nat := 187
-def «variable.watcherNames[]» : Nat := 188
-def «variable.watchers[]» : Nat := 189
-def «workerRegistry.mu.numWorkers» : Nat := 190
-def «workerRegistry.mu.workers[]» : Nat := 191
-def «Artifact.ContentType» : Nat := 192
-def «Artifact.FileName» : Nat := 193
-def «Artifact.Icon» : Nat := 194
-def «Artifact.IsDir» : Nat := 195
-def «Artifact.Path» : Nat := 196
-def «RepeatSection.StartTime» : Nat := 197
-def «Result.Authors» : Nat := 198
-def «Result.Config» : Nat := 199
-def «Result.ConfigHTML» : Nat := 200
-def «Result.ConfigHash» : Nat := 201
-def «Result.ConfigHashHTML» : Nat := 202
-def «Result.Diffs» : Nat := 203
-def «Result.Error» : Nat := 204
-def «Result.Foul» : Nat := 205
-def «Result.MaxTime» : Nat := 206
-def «Result.MinTime» : Nat := 207
-def «Result.PlayDuration» : Nat := 208
-def «Result.PlayDurationVerbose» : Nat := 209
-def «Result.Repeat» : Nat := 210
-def «Result.SeeAlso» : Nat := 211
-def «Result.Steps» : Nat := 212
-def «Result.StepsHTML» : Nat := 213
-def «Result.Timestamp» : Nat := 214
-def «Result.TimestampHTML» : Nat := 215
-def «Result.Title» : Nat := 216
-def «Result.Version» : Nat := 217
-def «[]*logtags.Buffer[]» : Nat := 218
-def «[]func()[]» : Nat := 219
-def «[]reflect.Value[]» : Nat := 220
-def «[]string[]» : Nat := 221
-def «actChange.actNum» : Nat := 222
-def «actChange.ts» : Nat := 223
-def «actionGroup.actions» : Nat := 224
-def «actionGroup.actions[]» : Nat := 225
-def «actionGroup.actor» : Nat := 226
-def «actionReport.action» : Nat := 227
-def «actionReport.actor» : Nat := 228
-def «actionReport.duration» : Nat := 229
-def «actionReport.extOutput» : Nat := 230
-def «actionReport.output» : Nat := 231
-def «actionReport.result» : Nat := 232
-def «actionReport.startTime» : Nat := 233
-def «actor.actionScripts» : Nat := 234
-def «actor.extraEnv» : Nat := 235
-def «actor.name» : Nat := 236
-def «actor.role» : Nat := 237
-def «actor.shellPath» : Nat := 238
-def «actor.sinkNames» : Nat := 239
-def «actor.sinkNames[]» : Nat := 240
-def «actor.sinks» : Nat := 241
-def «actor.sinks[]» : Nat := 242
-def «app.cfg» : Nat := 243
-def «app.endCh» : Nat := 244
-def «app.log» : Nat := 245
-def «assignment.N» : Nat := 246
-def «assignment.assignMode» : Nat := 247
-def «assignment.targetVar» : Nat := 248
-def «audClause.defines» : Nat := 249
-def «audClause.text» : Nat := 250
-def «audClause.uses» : Nat := 251
-def «audClause.uses[]» : Nat := 252
-def «audienceMember.name» : Nat := 253
-def «auditError.auditor» : Nat := 254
-def «auditError.error» : Nat := 255
-def «auditError.ts» : Nat := 256
-def «auditableValue.typ» : Nat := 257
-def «auditableValue.val» : Nat := 258
-def «audition.cfg» : Nat := 259
-def «audition.collCh» : Nat := 260
-def «audition.errCh» : Nat := 261
-def «audition.eventCh» : Nat := 262
-def «audition.logger» : Nat := 263
-def «audition.r» : Nat := 264
-def «audition.res» : Nat := 265
-def «audition.stopper» : Nat := 266
-def «auditionReport.auditor» : Nat := 267
-def «auditionReport.ts» : Nat := 268
-def «auditionState.auditorStates» : Nat := 269
-def «auditionState.curActivated» : Nat := 270
-def «auditionState.curVals» : Nat := 271
-def «auditor.assignments» : Nat := 272
-def «auditor.expectFsm» : Nat := 273
-def «auditor.foulOnBad» : Nat := 274
-def «auditor.foulOnGood» : Nat := 275
-def «collectedSignal.drawEvents» : Nat := 276
-def «collector.cfg» : Nat := 277
-def «collector.errCh» : Nat := 278
-def «collector.eventCh» : Nat := 279
-def «collector.logger» : Nat := 280
-def «collector.r» : Nat := 281
-def «collector.stopper» : Nat := 282
-def «collectorState.badCounts» : Nat := 283
-def «collectorState.goodCounts» : Nat := 284
-def «config.actorNames» : Nat := 285
-def «config.actorNames[]» : Nat := 286
-def «config.actors» : Nat := 287
-def «config.actors[]» : Nat := 288
-def «config.audience» : Nat := 289
-def «config.audienceNames» : Nat := 290
-def «config.audienceNames[]» : Nat := 291
-def «config.audience[]» : Nat := 292
-def «config.avoidTimeProgress» : Nat := 293
-def «config.defines[]» : Nat := 294
-def «config.extraInterpretation[]» : Nat := 295
-def «config.extraScript[]» : Nat := 296
-def «config.gnuplotPath» : Nat := 297
-def «config.narration» : Nat := 298
-def «config.pVars» : Nat := 299
-def «config.repeatActNum» : Nat := 300
-def «config.repeatCount» : Nat := 301
-def «config.repeatFrom» : Nat := 302
-def «config.repeatTimeout» : Nat := 303
-def «config.roles» : Nat := 304
-def «config.sceneSpecChars» : Nat := 305
-def «config.sceneSpecChars[]» : Nat := 306
-def «config.sceneSpecs» : Nat := 307
-def «config.sceneSpecs[]» : Nat := 308
-def «config.shellPath» : Nat := 309
-def «config.skipLoggingInit» : Nat := 310
-def «config.storyLine» : Nat := 311
-def «config.storyLine[]» : Nat := 312
-def «config.tempo» : Nat := 313
-def «config.textPlotHeight» : Nat := 314
-def «config.textPlotTerm» : Nat := 315
-def «config.textPlotWidth» : Nat := 316
-def «config.vars» : Nat := 317
-def «exec.Cmd.Args» : Nat := 318
-def «exec.Cmd.Process» : Nat := 319
-def «exec.Cmd.ProcessState» : Nat := 320
-def «exec.Cmd.Stderr» : Nat := 321
-def «expr.compiled» : Nat := 322
-def «expr.deps» : Nat := 323
-def «expr.deps[]» : Nat := 324
-def «expr.src» : Nat := 325
-def «fsm.edges[]» : Nat := 326
-def «fsm.edges[][]» : Nat := 327
-def «fsm.labels[]» : Nat := 328
-def «fsm.stateNames[]» : Nat := 329
-def «fsmEval.labelMap[]» : Nat := 330
-def «govaluate.EvaluableExpression» : Nat := 331
-def «local Run.cfg» : Nat := 332
-def «local Run.collectDiffs» : Nat := 333
-def «local Run.ctx» : Nat := 334
-def «local actor.prepareScript.f» : Nat := 335
-def «local actor.runActorCommandWithConsumer.cmd» : Nat := 336
-def «local actor.runActorCommandWithConsumer.consumer» : Nat := 337
-def «local actor.runActorCommandWithConsumer.ctx» : Nat := 338
-def «local actor.runActorCommandWithConsumer.interrupt» : Nat := 339
-def «local actor.runActorCommandWithConsumer.killCmd» : Nat := 340
-def «local actor.runActorCommandWithConsumer.lines» : Nat := 341
-def «local actor.runActorCommandWithConsumer.readerDone» : Nat := 342
-def «local actor.runActorCommandWithConsumer.stopRequested» : Nat := 343
-def «local actor.runActorCommandWithConsumer.termCh» : Nat := 344
-def «local actor.runActorCommandWithConsumer.waitDone» : Nat := 345
-def «local app.collectArtifactsRec.ap» : Nat := 346
-def «local app.collectArtifactsRec.dir» : Nat := 347
-def «local app.conduct.ap» : Nat := 348
-def «local app.plot.ap» : Nat := 349
-def «local app.plot.numPlots» : Nat := 350
-def «local app.plot.result» : Nat := 351
-def «local app.removeNonUploadableFiles.ap» : Nat := 352
-def «local app.runConduct.ap» : Nat := 353
-def «local app.runConduct.ctx» : Nat := 354
-def «local app.runConduct.errChan» : Nat := 355
-def «local app.runConduct.infoCh» : Nat := 356
-def «local app.runConduct.shutdownCtx» : Nat := 357
-def «local app.runForAllActors$3.ctx» : Nat := 358
-def «local app.runForAllActors.a» : Nat := 359
-def «local app.runForAllActors.ap» : Nat := 360
-def «local app.runForAllActors.ctx» : Nat := 361
-def «local app.runForAllActors.errCh» : Nat := 362
-def «local app.runForAllActors.pScript» : Nat := 363
-def «local app.runForAllActors.prefix» : Nat := 364
-def «local app.subPlots.ap» : Nat := 365
-def «local app.subPlots.maxTime» : Nat := 366
-def «local app.subPlots.minTime» : Nat := 367
-def «local app.subPlots.outGpFileName» : Nat := 368
-def «local app.subPlots.plotGroups» : Nat := 369
-def «local audition.audit.au» : Nat := 370
-def «local audition.startAudition$1.ctx» : Nat := 371
-def «local audition.startAudition.au» : Nat := 372
-def «local collector.collect.col» : Nat := 373
-def «local collector.collect.ctx» : Nat := 374
-def «local collector.collect.of» : Nat := 375
-def «local collector.startCollector$1.ctx» : Nat := 376
-def «local collector.startCollector.col» : Nat := 377
-def «local config.parseRole.parserNames» : Nat := 378
-def «local config.parseRole.thisRole» : Nat := 379
-def «local config.preprocReplace.cfg» : Nat := 380
-def «local config.printCfg.undefined» : Nat := 381
-def «local config.printCfg.w» : Nat := 382
-def «local config.run.ap» : Nat := 383
-def «local config.run.cfg» : Nat := 384
-def «local config.run.ctx» : Nat := 385
-def «local config.run.result» : Nat := 386
-def «local fw.cat» : Nat := 387
-def «local prompter.runScene.a» : Nat := 388
-def «local prompter.runScene.ctx» : Nat := 389
-def «local prompter.runScene.errCh» : Nat := 390
-def «local prompter.runScene.pr» : Nat := 391
-def «local prompter.runScene.steps» : Nat := 392
-def «local prompter.runScene.stopOnError» : Nat := 393
-def «local prompter.startPrompter$1.ctx» : Nat := 394
-def «local prompter.startPrompter.pr» : Nat := 395
-def «local runAsyncTask.w» : Nat := 396
-def «local runReaderAsync.lines» : Nat := 397
-def «local runReaderAsync.rd» : Nat := 398
-def «local runReaderAsync.readCtx» : Nat := 399
-def «local runReaderAsync.readerDone» : Nat := 400
-def «local runWorker.fullName» : Nat := 401
-def «local runWorker.w» : Nat := 402
-def «local spotMgr.manageSpotlights.a» : Nat := 403
-def «local spotMgr.manageSpotlights.ctx» : Nat := 404
-def «local spotMgr.manageSpotlights.errCh» : Nat := 405
-def «local spotMgr.manageSpotlights.spm» : Nat := 406
-def «local spotMgr.manageSpotlights.spotCtx» : Nat := 407
-def «local spotMgr.spotlight.a» : Nat := 408
-def «local spotMgr.spotlight.ctx» : Nat := 409
-def «local spotMgr.spotlight.spm» : Nat := 410
-def «local spotMgr.startSpotlights$1.ctx» : Nat := 411
-def «local spotMgr.startSpotlights.spm» : Nat := 412
-def «map[string]string[]» : Nat := 413
-def «moodChange.newMood» : Nat := 414
-def «moodChange.ts» : Nat := 415
-def «moodPeriod.endTime» : Nat := 416
-def «moodPeriod.mood» : Nat := 417
-def «moodPeriod.startTime» : Nat := 418
-def «observation.ts» : Nat := 419
-def «observation.typ» : Nat := 420
-def «observation.val» : Nat := 421
-def «observer.disablePlot» : Nat := 422
-def «observer.obsVarNames» : Nat := 423
-def «observer.obsVars» : Nat := 424
-def «observer.obsVars[]» : Nat := 425
-def «observer.ylabel» : Nat := 426
-def «os.Process.Pid» : Nat := 427
-def «outputFiles.files» : Nat := 428
-def «outputFiles.writers» : Nat := 429
-def «parser.re» : Nat := 430
-def «pflag.Flag.Changed» : Nat := 431
-def «pflag.Flag.Value» : Nat := 432
-def «plot.fName» : Nat := 433
-def «plot.opts» : Nat := 434
-def «plot.title» : Nat := 435
-def «plotgroup.numEvents» : Nat := 436
-def «plotgroup.plots» : Nat := 437
-def «plotgroup.title» : Nat := 438
-def «plotgroup.ylabel» : Nat := 439
-def «pos.lineno» : Nat := 440
-def «pos.r» : Nat := 441
-def «prompter.auditCh» : Nat := 442
-def «prompter.cfg» : Nat := 443
-def «prompter.collCh» : Nat := 444
-def «prompter.errCh» : Nat := 445
-def «prompter.numRepeats» : Nat := 446
-def «prompter.r» : Nat := 447
-def «prompter.stopper» : Nat := 448
-def «prompter.termCh» : Nat := 449
-def «reader.diffs» : Nat := 450
-def «reader.includePath» : Nat := 451
-def «reader.includePath[]» : Nat := 452
-def «role.actionCmds» : Nat := 453
-def «role.name» : Nat := 454
-def «sceneSpec.entails» : Nat := 455
-def «sceneSpec.moodEnd» : Nat := 456
-def «sceneSpec.moodStart» : Nat := 457
-def «sceneSpec.name» : Nat := 458
-def «scriptLine.actor» : Nat := 459
-def «sigEvent.ts» : Nat := 460
-def «sigParser.name» : Nat := 461
-def «sigParser.re» : Nat := 462
-def «sigParser.reGroup» : Nat := 463
-def «sigParser.timeLayout» : Nat := 464
-def «sigParser.typ» : Nat := 465
-def «sink.observers» : Nat := 466
-def «spotMgr.auditCh» : Nat := 467
-def «spotMgr.cfg» : Nat := 468
-def «spotMgr.errCh» : Nat := 469
-def «spotMgr.logger» : Nat := 470
-def «spotMgr.r» : Nat := 471
-def «spotMgr.stopper» : Nat := 472
-def «spotMgr.termCh» : Nat := 473
-def «step.action» : Nat := 474
-def «step.failOk» : Nat := 475
-def «step.typ» : Nat := 476
-def «struct{*os.PathError}.Err» : Nat := 477
-def «subreader.f» : Nat := 478
-def «subreader.file» : Nat := 479
-def «subreader.rd» : Nat := 480
-def «theater.auErrCh» : Nat := 481
-def «theater.colErrCh» : Nat := 482
-def «theater.prErrCh» : Nat := 483
-def «theater.spotErrCh» : Nat := 484
-def «time.Ticker.C» : Nat := 485
-def «timeutil.Timer.C» : Nat := 486
-def «ttycolor.Profile[]» : Nat := 487
-def «var collectFns[]» : Nat := 488
-def «varName.actorName» : Nat := 489
-def «varName.sigName» : Nat := 490
-def «variable.isArray» : Nat := 491
-def «variable.watchers» : Nat := 492
-def «workerRegistry.mu.workers» : Nat := 493
+def «[]plotgroup[]» : Nat := 6
+def «actionReport.failOk» : Nat := 7
+def «actor.actionScripts[]» : Nat := 8
+def «actor.cleanupScript» : Nat := 9
+def «actor.hasData» : Nat := 10
+def «actor.spotlightScript» : Nat := 11
+def «actor.workDir» : Nat := 12
+def «app.isTerminal» : Nat := 13
+def «app.maxTime» : Nat := 14
+def «app.minTime» : Nat := 15
+def «app.startTime» : Nat := 16
+def «app.stopper» : Nat := 17
+def «app.terminalWidth» : Nat := 18
+def «audMember.auditor» : Nat := 19
+def «audMember.auditor[]» : Nat := 20
+def «audMember.mentioned» : Nat := 21
+def «audMember.observer» : Nat := 22
+def «audMember.observer[]» : Nat := 23
+def «auditionReport.output» : Nat := 24
+def «auditionReport.result» : Nat := 25
+def «auditionResults.actChanges» : Nat := 26
+def «auditionResults.actChanges[]» : Nat := 27
+def «auditionResults.moodPeriods» : Nat := 28
+def «auditionResults.moodPeriods[]» : Nat := 29
+def «auditionResults.numRepeats» : Nat := 30
+def «auditionState.auditorStates[]» : Nat := 31
+def «auditionState.curActivated[]» : Nat := 32
+def «auditionState.curMood» : Nat := 33
+def «auditionState.curMoodStart» : Nat := 34
+def «auditionState.curVals[]» : Nat := 35
+def «auditor.hasData» : Nat := 36
+def «auditor.name» : Nat := 37
+def «auditorState.activated» : Nat := 38
+def «auditorState.auditing» : Nat := 39
+def «collectedSignal.hasData» : Nat := 40
+def «collectorState.badCounts[]» : Nat := 41
+def «collectorState.errors» : Nat := 42
+def «collectorState.errors[]» : Nat := 43
+def «collectorState.goodCounts[]» : Nat := 44
+def «config.asciiOnly» : Nat := 45
+def «config.authors» : Nat := 46
+def «config.authors[]» : Nat := 47
+def «config.dataDir» : Nat := 48
+def «config.defines» : Nat := 49
+def «config.diffs» : Nat := 50
+def «config.diffs[]» : Nat := 51
+def «config.doPrint» : Nat := 52
+def «config.earlyExit» : Nat := 53
+def «config.extraInterpretation» : Nat := 54
+def «config.extraScript» : Nat := 55
+def «config.includePath» : Nat := 56
+def «config.includePath[]» : Nat := 57
+def «config.keepArtifacts» : Nat := 58
+def «config.pVarNames» : Nat := 59
+def «config.pVarNames[]» : Nat := 60
+def «config.pVars[]» : Nat := 61
+def «config.parseOnly» : Nat := 62
+def «config.play» : Nat := 63
+def «config.play[]» : Nat := 64
+def «config.quiet» : Nat := 65
+def «config.removeAll» : Nat := 66
+def «config.roleNames» : Nat := 67
+def «config.roleNames[]» : Nat := 68
+def «config.roles[]» : Nat := 69
+def «config.seeAlso» : Nat := 70
+def «config.seeAlso[]» : Nat := 71
+def «config.skipPlot» : Nat := 72
+def «config.subDir» : Nat := 73
+def «config.titleStrings» : Nat := 74
+def «config.titleStrings[]» : Nat := 75
+def «config.uploadURL» : Nat := 76
+def «config.varNames» : Nat := 77
+def «config.varNames[]» : Nat := 78
+def «config.vars[]» : Nat := 79
+def «errorCollection.errs» : Nat := 80
+def «errorCollection.errs[]» : Nat := 81
+def «exec.Cmd.Dir» : Nat := 82
+def «exec.Cmd.Stdin» : Nat := 83
+def «exec.Cmd.Stdout» : Nat := 84
+def «exec.Cmd.SysProcAttr» : Nat := 85
+def «fsm.edges» : Nat := 86
+def «fsm.labels» : Nat := 87
+def «fsm.name» : Nat := 88
+def «fsm.startState» : Nat := 89
+def «fsm.stateNames» : Nat := 90
+def «fsmEval.curState» : Nat := 91
+def «fsmEval.fsm» : Nat := 92
+def «fsmEval.labelMap» : Nat := 93
+def «local actor.runActorCommand.outbuf» : Nat := 94
+def «local actor.runActorCommandWithConsumer.stopRead» : Nat := 95
+def «local config.parseRole.parserNames[]» : Nat := 96
+def «local config.preprocReplace.err» : Nat := 97
+def «map[string]bool[]» : Nat := 98
+def «observer.hasData» : Nat := 99
+def «outputFiles.files[]» : Nat := 100
+def «outputFiles.writers[]» : Nat := 101
+def «parser.curLine» : Nat := 102
+def «pflag.Flag.NoOptDefVal» : Nat := 103
+def «plotgroup.plots[]» : Nat := 104
+def «reader.diffs[]» : Nat := 105
+def «reader.readers» : Nat := 106
+def «reader.readers[]» : Nat := 107
+def «role.actionCmds[]» : Nat := 108
+def «role.actionNames» : Nat := 109
+def «role.actionNames[]» : Nat := 110
+def «role.cleanupCmd» : Nat := 111
+def «role.sigNames» : Nat := 112
+def «role.sigNames[]» : Nat := 113
+def «role.sigParsers» : Nat := 114
+def «role.sigParsers[]» : Nat := 115
+def «role.spotlightCmd» : Nat := 116
+def «scene.concurrentLines» : Nat := 117
+def «scene.concurrentLines[]» : Nat := 118
+def «scene.waitUntil» : Nat := 119
+def «scriptLine.steps» : Nat := 120
+def «scriptLine.steps[]» : Nat := 121
+def «sigEvent.values» : Nat := 122
+def «sigEvent.values[]» : Nat := 123
+def «sink.lastVal» : Nat := 124
+def «subreader.lineno» : Nat := 125
+def «subreader.lines» : Nat := 126
+def «subreader.lines[]» : Nat := 127
+def «subreader.parent» : Nat := 128
+def «timeutil.Timer.Read» : Nat := 129
+def «var actionDefRe» : Nat := 130
+def «var activeRe» : Nat := 131
+def «var actorDefRe» : Nat := 132
+def «var actorsRe» : Nat := 133
+def «var adjList» : Nat := 134
+def «var advList» : Nat := 135
+def «var audienceRe» : Nat := 136
+def «var automata» : Nat := 137
+def «var cleanupDefRe» : Nat := 138
+def «var collectFns» : Nat := 139
+def «var collectsRe» : Nat := 140
+def «var computesRe» : Nat := 141
+def «var editRe» : Nat := 142
+def «var entailsRe» : Nat := 143
+def «var errAuditViolation» : Nat := 144
+def «var errInterrupted» : Nat := 145
+def «var evalFunctions» : Nat := 146
+def «var evalFunctions[]» : Nat := 147
+def «var expectsRe» : Nat := 148
+def «var expectsSameRe» : Nat := 149
+def «var foulRe» : Nat := 150
+def «var identRe» : Nat := 151
+def «var ignoreRe» : Nat := 152
+def «var init$guard» : Nat := 153
+def «var interpretationRe» : Nat := 154
+def «var measuresRe» : Nat := 155
+def «var moodChangeRe» : Nat := 156
+def «var narratorCtx» : Nat := 157
+def «var noPlotRe» : Nat := 158
+def «var nounsList» : Nat := 159
+def «var paramRe» : Nat := 160
+def «var parseDefRe» : Nat := 161
+def «var preprocRe» : Nat := 162
+def «var registry» : Nat := 163
+def «var repeatAlwaysRe» : Nat := 164
+def «var repeatCountRe» : Nat := 165
+def «var repeatRe» : Nat := 166
+def «var repeatTimeoutRe» : Nat := 167
+def «var roleRe» : Nat := 168
+def «var scriptRe» : Nat := 169
+def «var spotlightDefRe» : Nat := 170
+def «var storyLineRe» : Nat := 171
+def «var tempoRe» : Nat := 172
+def «var watchRe» : Nat := 173
+def «var watchVarRe» : Nat := 174
+def «variable.watcherNames» : Nat := 175
+def «variable.watcherNames[]» : Nat := 176
+def «variable.watchers[]» : Nat := 177
+def «workerRegistry.mu.numWorkers» : Nat := 178
+def «workerRegistry.mu.workers[]» : Nat := 179
+def «Artifact.ContentType» : Nat := 180
+def «Artifact.FileName» : Nat := 181
+def «Artifact.Icon» : Nat := 182
+def «Artifact.IsDir» : Nat := 183
+def «Artifact.Path» : Nat := 184
+def «RepeatSection.StartTime» : Nat := 185
+def «Result.Authors» : Nat := 186
+def «Result.Config» : Nat := 187
+def «Result.ConfigHTML» : Nat := 188
+def «Result.ConfigHash» : Nat := 189
+def «Result.ConfigHashHTML» : Nat := 190
+def «Result.Diffs» : Nat := 191
+def «Result.Error» : Nat := 192
+def «Result.Foul» : Nat := 193
+def «Result.MaxTime» : Nat := 194
+def «Result.MinTime» : Nat := 195
+def «Result.PlayDuration» : Nat := 196
+def «Result.PlayDurationVerbose» : Nat := 197
+def «Result.Repeat» : Nat := 198
+def «Result.SeeAlso» : Nat := 199
+def «Result.Steps» : Nat := 200
+def «Result.StepsHTML» : Nat := 201
+def «Result.Timestamp» : Nat := 202
+def «Result.TimestampHTML» : Nat := 203
+def «Result.Title» : Nat := 204
+def «Result.Version» : Nat := 205
+def «[]*logtags.Buffer[]» : Nat := 206
+def «[]func()[]» : Nat := 207
+def «[]reflect.Value[]» : Nat := 208
+def «[]string[]» : Nat := 209
+def «actChange.actNum» : Nat := 210
+def «actChange.ts» : Nat := 211
+def «actionGroup.actions» : Nat := 212
+def «actionGroup.actions[]» : Nat := 213
+def «actionGroup.actor» : Nat := 214
+def «actionReport.action» : Nat := 215
+def «actionReport.actor» : Nat := 216
+def «actionReport.duration» : Nat := 217
+def «actionReport.extOutput» : Nat := 218
+def «actionReport.output» : Nat := 219
+def «actionReport.result» : Nat := 220
+def «actionReport.startTime» : Nat := 221
+def «actor.actionScripts» : Nat := 222
+def «actor.extraEnv» : Nat := 223
+def «actor.name» : Nat := 224
+def «actor.role» : Nat := 225
+def «actor.shellPath» : Nat := 226
+def «actor.sinkNames» : Nat := 227
+def «actor.sinkNames[]» : Nat := 228
+def «actor.sinks» : Nat := 229
+def «actor.sinks[]» : Nat := 230
+def «app.cfg» : Nat := 231
+def «app.endCh» : Nat := 232
+def «app.log» : Nat := 233
+def «assignment.N» : Nat := 234
+def «assignment.assignMode» : Nat := 235
+def «assignment.targetVar» : Nat := 236
+def «audClause.defines» : Nat := 237
+def «audClause.text» : Nat := 238
+def «audClause.uses» : Nat := 239
+def «audClause.uses[]» : Nat := 240
+def «audienceMember.name» : Nat := 241
+def «auditError.auditor» : Nat := 242
+def «auditError.error» : Nat := 243
+def «auditError.ts» : Nat := 244
+def «auditableValue.typ» : Nat := 245
+def «auditableValue.val» : Nat := 246
+def «audition.cfg» : Nat := 247
+def «audition.collCh» : Nat := 248
+def «audition.errCh» : Nat := 249
+def «audition.eventCh» : Nat := 250
+def «audition.logger» : Nat := 251
+def «audition.r» : Nat := 252
+def «audition.res» : Nat := 253
+def «audition.stopper» : Nat := 254
+def «auditionReport.auditor» : Nat := 255
+def «auditionReport.ts» : Nat := 256
+def «auditionState.auditorStates» : Nat := 257
+def «auditionState.curActivated» : Nat := 258
+def «auditionState.curVals» : Nat := 259
+def «auditor.assignments» : Nat := 260
+def «auditor.expectFsm» : Nat := 261
+def «auditor.foulOnBad» : Nat := 262
+def «auditor.foulOnGood» : Nat := 263
+def «collectedSignal.drawEvents» : Nat := 264
+def «collector.cfg» : Nat := 265
+def «collector.errCh» : Nat := 266
+def «collector.eventCh» : Nat := 267
+def «collector.logger» : Nat := 268
+def «collector.r» : Nat := 269
+def «collector.stopper» : Nat := 270
+def «collectorState.badCounts» : Nat := 271
+def «collectorState.goodCounts» : Nat := 272
+def «config.actorNames» : Nat := 273
+def «config.actorNames[]» : Nat := 274
+def «config.actors» : Nat := 275
+def «config.actors[]» : Nat := 276
+def «config.audience» : Nat := 277
+def «config.audienceNames» : Nat := 278
+def «config.audienceNames[]» : Nat := 279
+def «config.audience[]» : Nat := 280
+def «config.avoidTimeProgress» : Nat := 281
+def «config.defines[]» : Nat := 282
+def «config.extraInterpretation[]» : Nat := 283
+def «config.extraScript[]» : Nat := 284
+def «config.gnuplotPath» : Nat := 285
+def «config.narration» : Nat := 286
+def «config.pVars» : Nat := 287
+def «config.repeatActNum» : Nat := 288
+def «config.repeatCount» : Nat := 289
+def «config.repeatFrom» : Nat := 290
+def «config.repeatTimeout» : Nat := 291
+def «config.roles» : Nat := 292
+def «config.sceneSpecChars» : Nat := 293
+def «config.sceneSpecChars[]» : Nat := 294
+def «config.sceneSpecs» : Nat := 295
+def «config.sceneSpecs[]» : Nat := 296
+def «config.shellPath» : Nat := 297
+def «config.skipLoggingInit» : Nat := 298
+def «config.storyLine» : Nat := 299
+def «config.storyLine[]» : Nat := 300
+def «config.tempo» : Nat := 301
+def «config.textPlotHeight» : Nat := 302
+def «config.textPlotTerm» : Nat := 303
+def «config.textPlotWidth» : Nat := 304
+def «config.vars» : Nat := 305
+def «exec.Cmd.Args» : Nat := 306
+def «exec.Cmd.Process» : Nat := 307
+def «exec.Cmd.ProcessState» : Nat := 308
+def «exec.Cmd.Stderr» : Nat := 309
+def «expr.compiled» : Nat := 310
+def «expr.deps» : Nat := 311
+def «expr.deps[]» : Nat := 312
+def «expr.src» : Nat := 313
+def «fsm.edges[]» : Nat := 314
+def «fsm.edges[][]» : Nat := 315
+def «fsm.labels[]» : Nat := 316
+def «fsm.stateNames[]» : Nat := 317
+def «fsmEval.labelMap[]» : Nat := 318
+def «govaluate.EvaluableExpression» : Nat := 319
+def «local Run.cfg» : Nat := 320
+def «local actor.runActorCommandWithConsumer.cmd» : Nat := 321
+def «local actor.runActorCommandWithConsumer.consumer» : Nat := 322
+def «local actor.runActorCommandWithConsumer.ctx» : Nat := 323
+def «local actor.runActorCommandWithConsumer.interrupt» : Nat := 324
+def «local actor.runActorCommandWithConsumer.killCmd» : Nat := 325
+def «local actor.runActorCommandWithConsumer.lines» : Nat := 326
+def «local actor.runActorCommandWithConsumer.readerDone» : Nat := 327
+def «local actor.runActorCommandWithConsumer.stopRequested» : Nat := 328
+def «local actor.runActorCommandWithConsumer.termCh» : Nat := 329
+def «local actor.runActorCommandWithConsumer.waitDone» : Nat := 330
+def «local app.collectArtifactsRec.ap» : Nat := 331
+def «local app.collectArtifactsRec.dir» : Nat := 332
+def «local app.removeNonUploadableFiles.ap» : Nat := 333
+def «local app.runConduct.ap» : Nat := 334
+def «local app.runConduct.ctx» : Nat := 335
+def «local app.runConduct.errChan» : Nat := 336
+def «local app.runConduct.infoCh» : Nat := 337
+def «local app.runConduct.shutdownCtx» : Nat := 338
+def «local app.runForAllActors.a» : Nat := 339
+def «local app.runForAllActors.ap» : Nat := 340
+def «local app.runForAllActors.errCh» : Nat := 341
+def «local app.runForAllActors.pScript» : Nat := 342
+def «local audition.startAudition.au» : Nat := 343
+def «local collector.startCollector.col» : Nat := 344
+def «local config.parseRole.parserNames» : Nat := 345
+def «local config.parseRole.thisRole» : Nat := 346
+def «local config.preprocReplace.cfg» : Nat := 347
+def «local fw.cat» : Nat := 348
+def «local prompter.runScene.a» : Nat := 349
+def «local prompter.runScene.errCh» : Nat := 350
+def «local prompter.runScene.pr» : Nat := 351
+def «local prompter.runScene.steps» : Nat := 352
+def «local prompter.runScene.stopOnError» : Nat := 353
+def «local prompter.startPrompter.pr» : Nat := 354
+def «local runAsyncTask.w» : Nat := 355
+def «local runReaderAsync.lines» : Nat := 356
+def «local runReaderAsync.rd» : Nat := 357
+def «local runReaderAsync.readCtx» : Nat := 358
+def «local runReaderAsync.readerDone» : Nat := 359
+def «local runWorker.fullName» : Nat := 360
+def «local runWorker.w» : Nat := 361
+def «local spotMgr.manageSpotlights.a» : Nat := 362
+def «local spotMgr.manageSpotlights.errCh» : Nat := 363
+def «local spotMgr.manageSpotlights.spm» : Nat := 364
+def «local spotMgr.manageSpotlights.spotCtx» : Nat := 365
+def «local spotMgr.spotlight.a» : Nat := 366
+def «local spotMgr.spotlight.ctx» : Nat := 367
+def «local spotMgr.spotlight.spm» : Nat := 368
+def «local spotMgr.startSpotlights.spm» : Nat := 369
+def «map[string]string[]» : Nat := 370
+def «moodChange.newMood» : Nat := 371
+def «moodChange.ts» : Nat := 372
+def «moodPeriod.endTime» : Nat := 373
+def «moodPeriod.mood» : Nat := 374
+def «moodPeriod.startTime» : Nat := 375
+def «observation.ts» : Nat := 376
+def «observation.typ» : Nat := 377
+def «observation.val» : Nat := 378
+def «observer.disablePlot» : Nat := 379
+def «observer.obsVarNames» : Nat := 380
+def «observer.obsVars» : Nat := 381
+def «observer.obsVars[]» : Nat := 382
+def «observer.ylabel» : Nat := 383
+def «os.Process.Pid» : Nat := 384
+def «outputFiles.files» : Nat := 385
+def «outputFiles.writers» : Nat := 386
+def «parser.re» : Nat := 387
+def «pflag.Flag.Changed» : Nat := 388
+def «pflag.Flag.Value» : Nat := 389
+def «plot.fName» : Nat := 390
+def «plot.opts» : Nat := 391
+def «plot.title» : Nat := 392
+def «plotgroup.numEvents» : Nat := 393
+def «plotgroup.plots» : Nat := 394
+def «plotgroup.title» : Nat := 395
+def «plotgroup.ylabel» : Nat := 396
+def «pos.lineno» : Nat := 397
+def «pos.r» : Nat := 398
+def «prompter.auditCh» : Nat := 399
+def «prompter.cfg» : Nat := 400
+def «prompter.collCh» : Nat := 401
+def «prompter.errCh» : Nat := 402
+def «prompter.numRepeats» : Nat := 403
+def «prompter.r» : Nat := 404
+def «prompter.stopper» : Nat := 405
+def «prompter.termCh» : Nat := 406
+def «reader.diffs» : Nat := 407
+def «reader.includePath» : Nat := 408
+def «reader.includePath[]» : Nat := 409
+def «role.actionCmds» : Nat := 410
+def «role.name» : Nat := 411
+def «sceneSpec.entails» : Nat := 412
+def «sceneSpec.moodEnd» : Nat := 413
+def «sceneSpec.moodStart» : Nat := 414
+def «sceneSpec.name» : Nat := 415
+def «scriptLine.actor» : Nat := 416
+def «sigEvent.ts» : Nat := 417
+def «sigParser.name» : Nat := 418
+def «sigParser.re» : Nat := 419
+def «sigParser.reGroup» : Nat := 420
+def «sigParser.timeLayout» : Nat := 421
+def «sigParser.typ» : Nat := 422
+def «sink.observers» : Nat := 423
+def «spotMgr.auditCh» : Nat := 424
+def «spotMgr.cfg» : Nat := 425
+def «spotMgr.errCh» : Nat := 426
+def «spotMgr.logger» : Nat := 427
+def «spotMgr.r» : Nat := 428
+def «spotMgr.stopper» : Nat := 429
+def «spotMgr.termCh» : Nat := 430
+def «step.action» : Nat := 431
+def «step.failOk» : Nat := 432
+def «step.typ» : Nat := 433
+def «struct{*os.PathError}.Err» : Nat := 434
+def «subreader.f» : Nat := 435
+def «subreader.file» : Nat := 436
+def «subreader.rd» : Nat := 437
+def «theater.auErrCh» : Nat := 438
+def «theater.colErrCh» : Nat := 439
+def «theater.prErrCh» : Nat := 440
+def «theater.spotErrCh» : Nat := 441
+def «time.Ticker.C» : Nat := 442
+def «timeutil.Timer.C» : Nat := 443
+def «ttycolor.Profile[]» : Nat := 444
+def «var collectFns[]» : Nat := 445
+def «varName.actorName» : Nat := 446
+def «varName.sigName» : Nat := 447
+def «variable.isArray» : Nat := 448
+def «variable.watchers» : Nat := 449
+def «workerRegistry.mu.workers» : Nat := 450
 end L
 
 private def A (r l : Nat) (w a : Bool) (ls : List Nat) (p : Bool) (rel : List (Nat × Rel)) : Access :=
@@ -782,1328 +727,1246 @@ def g5 : List Access := [
   A 8 5 false false [] true []  -- init$19 functions.go:306 
 ]
 
-/-- actionReport.failOk -/
+/-- []plotgroup[] -/
 def g6 : List Access := [
-  A 7 6 false false [] true [],  -- collector.collectActionReport ? reflect
-  A 10 6 true false [] true [(13, .mid), (14, .mid)]  -- prompter.runLine prompt.go:263 
+  A 0 6 true false [] false [(1, .post), (2, .mid), (3, .mid), (4, .mid)]  -- app.subPlots plot.go:180 
+]
+
+/-- actionReport.failOk -/
+def g7 : List Access := [
+  A 7 7 false false [] true [],  -- collector.collectActionReport ? reflect
+  A 10 7 true false [] true [(13, .mid), (14, .mid)]  -- prompter.runLine prompt.go:263 
 ]
 
 /-- actor.actionScripts[] -/
-def g7 : List Access := [
-  A 0 7 true false [] false [(1, .pre), (2, .pre), (3, .pre), (4, .pre)],  -- actor.prepareActionCommands commands.go:283 
-  A 10 7 false false [] true [(13, .mid), (14, .mid)]  -- actor.runAction prompt.go:338 
+def g8 : List Access := [
+  A 0 8 true false [] false [(1, .pre), (2, .pre), (3, .pre), (4, .pre)],  -- actor.prepareActionCommands commands.go:283 
+  A 10 8 false false [] true [(13, .mid), (14, .mid)]  -- actor.runAction prompt.go:338 
 ]
 
 /-- actor.cleanupScript -/
-def g8 : List Access := [
-  A 1 8 false false [] true [(9, .mid)],  -- app.runCleanup$1 conductor.go:343 
-  A 0 8 true false [] false [(1, .pre), (2, .pre), (3, .pre), (4, .pre)],  -- actor.prepareActionCommands commands.go:296 
-  A 0 8 false false [] false [(1, .pre), (2, .pre), (3, .pre), (4, .pre)]  -- actor.prepareActionCommands commands.go:297 
+def g9 : List Access := [
+  A 1 9 false false [] true [(9, .mid)],  -- app.runCleanup$1 conductor.go:343 
+  A 0 9 true false [] false [(1, .pre), (2, .pre), (3, .pre), (4, .pre)],  -- actor.prepareActionCommands commands.go:296 
+  A 0 9 false false [] false [(1, .pre), (2, .pre), (3, .pre), (4, .pre)]  -- actor.prepareActionCommands commands.go:297 
 ]
 
 /-- actor.hasData -/
-def g9 : List Access := [
-  A 7 9 true false [] true [],  -- collector.collectActionReport collector.go:432 
-  A 0 9 false false [] false [(1, .post), (2, .mid), (3, .mid), (4, .mid)]  -- app.subPlots$1 plot.go:240 
+def g10 : List Access := [
+  A 7 10 true false [] true [],  -- collector.collectActionReport collector.go:432 
+  A 0 10 false false [] false [(1, .post), (2, .mid), (3, .mid), (4, .mid)]  -- app.subPlots$1 plot.go:240 
 ]
 
 /-- actor.spotlightScript -/
-def g10 : List Access := [
-  A 0 10 true false [] false [(1, .pre), (2, .pre), (3, .pre), (4, .pre)],  -- actor.prepareActionCommands commands.go:289 
-  A 0 10 false false [] false [(1, .pre), (2, .pre), (3, .pre), (4, .pre)],  -- actor.prepareActionCommands commands.go:290 
-  A 11 10 false false [] true [(14, .pre), (15, .pre), (16, .pre)]  -- spotMgr.spotlight spotlight.go:136 
+def g11 : List Access := [
+  A 0 11 true false [] false [(1, .pre), (2, .pre), (3, .pre), (4, .pre)],  -- actor.prepareActionCommands commands.go:289 
+  A 0 11 false false [] false [(1, .pre), (2, .pre), (3, .pre), (4, .pre)],  -- actor.prepareActionCommands commands.go:290 
+  A 11 11 false false [] true [(14, .pre), (15, .pre), (16, .pre)]  -- spotMgr.spotlight spotlight.go:136 
 ]
 
 /-- actor.workDir -/
-def g11 : List Access := [
-  A 9 11 false false [] true [(12, .pre), (13, .pre), (14, .pre)],  -- actor.makeShCmd commands.go:357 
-  A 0 11 false false [] false [(1, .pre), (2, .pre), (3, .pre), (4, .pre)],  -- actor.prepareActionCommands commands.go:277 
-  A 0 11 true false [] false [(1, .pre), (2, .pre), (3, .pre), (4, .pre)],  -- config.prepareDirs config.go:209 
-  A 10 11 false false [] true [(13, .mid), (14, .mid)],  -- actor.makeShCmd commands.go:357 
-  A 11 11 false false [] true [(14, .pre), (15, .pre), (16, .pre)]  -- actor.makeShCmd commands.go:357 
+def g12 : List Access := [
+  A 9 12 false false [] true [(12, .pre), (13, .pre), (14, .pre)],  -- actor.makeShCmd commands.go:357 
+  A 0 12 false false [] false [(1, .pre), (2, .pre), (3, .pre), (4, .pre)],  -- actor.prepareActionCommands commands.go:277 
+  A 0 12 true false [] false [(1, .pre), (2, .pre), (3, .pre), (4, .pre)],  -- config.prepareDirs config.go:209 
+  A 10 12 false false [] true [(13, .mid), (14, .mid)],  -- actor.makeShCmd commands.go:357 
+  A 11 12 false false [] true [(14, .pre), (15, .pre), (16, .pre)]  -- actor.makeShCmd commands.go:357 
 ]
 
 /-- app.isTerminal -/
-def g12 : List Access := [
-  A 15 12 false false [] true [],  -- app.witness app.go:174 
-  A 8 12 false false [] true [],  -- app.judge app.go:194 
-  A 7 12 false false [] true [],  -- app.narrate app.go:157 
-  A 0 12 false false [] false [(1, .mid), (2, .mid), (3, .mid), (4, .mid)],  -- app.narrate app.go:157 
-  A 0 12 true false [] false [(1, .pre), (2, .pre), (3, .pre), (4, .pre)],  -- app.prepareTerm app.go:88 
-  A 0 12 false false [] false [(1, .pre), (2, .pre), (3, .pre), (4, .pre)],  -- app.prepareTerm app.go:90 
-  A 10 12 false false [] true [(13, .mid), (14, .mid)],  -- app.narrate app.go:157 
-  A 5 12 false false [] true [(10, .mid)],  -- app.narrate app.go:157 
-  A 11 12 false false [] true [(14, .mid), (15, .post), (16, .mid)],  -- app.narrate app.go:157 
-  A 11 12 false false [] true [(14, .mid), (15, .pre), (16, .pre)]  -- app.witness app.go:174 
+def g13 : List Access := [
+  A 15 13 false false [] true [],  -- app.witness app.go:174 
+  A 8 13 false false [] true [],  -- app.judge app.go:194 
+  A 7 13 false false [] true [],  -- app.narrate app.go:157 
+  A 0 13 false false [] false [(1, .mid), (2, .mid), (3, .mid), (4, .mid)],  -- app.narrate app.go:157 
+  A 0 13 true false [] false [(1, .pre), (2, .pre), (3, .pre), (4, .pre)],  -- app.prepareTerm app.go:88 
+  A 0 13 false false [] false [(1, .pre), (2, .pre), (3, .pre), (4, .pre)],  -- app.prepareTerm app.go:90 
+  A 10 13 false false [] true [(13, .mid), (14, .mid)],  -- app.narrate app.go:157 
+  A 5 13 false false [] true [(10, .mid)],  -- app.narrate app.go:157 
+  A 11 13 false false [] true [(14, .mid), (15, .post), (16, .mid)],  -- app.narrate app.go:157 
+  A 11 13 false false [] true [(14, .mid), (15, .pre), (16, .pre)]  -- app.witness app.go:174 
 ]
 
 /-- app.maxTime -/
-def g13 : List Access := [
-  A 7 13 false false [] true [],  -- app.expandTimeRange app.go:122 
-  A 7 13 true false [] true [],  -- app.expandTimeRange app.go:123 
-  A 0 13 false false [] false [(1, .post), (2, .mid), (3, .mid), (4, .mid)],  -- app.assemble result.go:104 
-  A 0 13 true false [] false [(1, .post), (2, .mid), (3, .mid), (4, .mid)]  -- app.assemble result.go:109 
-]
-
-/-- app.minTime -/
 def g14 : List Access := [
-  A 7 14 false false [] true [],  -- app.expandTimeRange app.go:125 
-  A 7 14 true false [] true [],  -- app.expandTimeRange app.go:126 
-  A 0 14 false false [] false [(1, .post), (2, .mid), (3, .mid), (4, .mid)],  -- app.assemble result.go:108 
+  A 7 14 false false [] true [],  -- app.expandTimeRange app.go:122 
+  A 7 14 true false [] true [],  -- app.expandTimeRange app.go:123 
+  A 0 14 false false [] false [(1, .post), (2, .mid), (3, .mid), (4, .mid)],  -- app.assemble result.go:104 
   A 0 14 true false [] false [(1, .post), (2, .mid), (3, .mid), (4, .mid)]  -- app.assemble result.go:109 
 ]
 
-/-- app.startTime -/
+/-- app.minTime -/
 def g15 : List Access := [
-  A 15 15 false false [] true [],  -- app.epoch app.go:76 
-  A 1 15 true false [] true [(5, .pre), (6, .pre), (7, .pre), (8, .pre)],  -- app.openDoors app.go:79 
-  A 8 15 false false [] true [],  -- app.epoch app.go:76 
-  A 0 15 false false [] false [(1, .post), (2, .mid), (3, .mid), (4, .mid)],  -- app.epoch app.go:76 
-  A 10 15 false false [] true [(13, .mid), (14, .mid)],  -- app.epoch app.go:76 
-  A 5 15 false false [] true [(10, .mid)],  -- app.epoch app.go:76 
-  A 11 15 false false [] true [(14, .mid), (15, .pre), (16, .pre)]  -- app.epoch app.go:76 
+  A 7 15 false false [] true [],  -- app.expandTimeRange app.go:125 
+  A 7 15 true false [] true [],  -- app.expandTimeRange app.go:126 
+  A 0 15 false false [] false [(1, .post), (2, .mid), (3, .mid), (4, .mid)],  -- app.assemble result.go:108 
+  A 0 15 true false [] false [(1, .post), (2, .mid), (3, .mid), (4, .mid)]  -- app.assemble result.go:109 
+]
+
+/-- app.startTime -/
+def g16 : List Access := [
+  A 15 16 false false [] true [],  -- app.epoch app.go:76 
+  A 1 16 true false [] true [(5, .pre), (6, .pre), (7, .pre), (8, .pre)],  -- app.openDoors app.go:79 
+  A 8 16 false false [] true [],  -- app.epoch app.go:76 
+  A 0 16 false false [] false [(1, .post), (2, .mid), (3, .mid), (4, .mid)],  -- app.epoch app.go:76 
+  A 10 16 false false [] true [(13, .mid), (14, .mid)],  -- app.epoch app.go:76 
+  A 5 16 false false [] true [(10, .mid)],  -- app.epoch app.go:76 
+  A 11 16 false false [] true [(14, .mid), (15, .pre), (16, .pre)]  -- app.epoch app.go:76 
 ]
 
 /-- app.stopper -/
-def g16 : List Access := [
-  A 1 16 false false [] true [(5, .pre), (6, .pre), (7, .pre), (8, .pre)],  -- app.makeTheater conductor.go:203 
-  A 1 16 false false [] true [(9, .mid)],  -- app.runForAllActors conductor.go:376 
-  A 3 16 false false [] false [],  -- app.runConduct$2$1 run.go:277 
-  A 2 16 false false [] false [],  -- app.runConduct$3 run.go:351 
-  A 9 16 false false [] true [(12, .pre), (13, .pre), (14, .pre)],  -- app.runForAllActors$3 conductor.go:383 
-  A 0 16 true false [] false [(1, .pre), (2, .pre), (3, .pre), (4, .mid)],  -- app.runConduct run.go:250 
-  A 0 16 false false [] false [(1, .pre), (2, .pre), (3, .pre), (4, .mid)],  -- app.runConduct run.go:253 
-  A 0 16 false false [] false [(1, .mid), (2, .pre), (3, .mid), (4, .mid)],  -- app.runConduct run.go:301 
-  A 0 16 false false [] false [(1, .mid), (2, .mid), (3, .mid), (4, .mid)]  -- app.runConduct run.go:377 
+def g17 : List Access := [
+  A 1 17 false false [] true [(5, .pre), (6, .pre), (7, .pre), (8, .pre)],  -- app.makeTheater conductor.go:203 
+  A 1 17 false false [] true [(9, .mid)],  -- app.runForAllActors conductor.go:376 
+  A 3 17 false false [] false [],  -- app.runConduct$2$1 run.go:281 
+  A 2 17 false false [] false [],  -- app.runConduct$3 run.go:355 
+  A 9 17 false false [] true [(12, .pre), (13, .pre), (14, .pre)],  -- app.runForAllActors$3 conductor.go:383 
+  A 0 17 true false [] false [(1, .pre), (2, .pre), (3, .pre), (4, .mid)],  -- app.runConduct run.go:254 
+  A 0 17 false false [] false [(1, .pre), (2, .pre), (3, .pre), (4, .mid)],  -- app.runConduct run.go:257 
+  A 0 17 false false [] false [(1, .mid), (2, .pre), (3, .mid), (4, .mid)],  -- app.runConduct run.go:305 
+  A 0 17 false false [] false [(1, .mid), (2, .mid), (3, .mid), (4, .mid)]  -- app.runConduct run.go:381 
 ]
 
 /-- app.terminalWidth -/
-def g17 : List Access := [
-  A 15 17 false true [] true [],  -- app.witness app.go:173 
-  A 4 17 true true [] false [],  -- app.setTerminalSize app.go:112 
-  A 8 17 false true [] true [],  -- app.judge app.go:193 
-  A 0 17 true true [] false [(1, .pre), (2, .pre), (3, .pre), (4, .pre)],  -- app.setTerminalSize app.go:112 
-  A 11 17 false true [] true [(14, .mid), (15, .pre), (16, .pre)]  -- app.witness app.go:173 
+def g18 : List Access := [
+  A 15 18 false true [] true [],  -- app.witness app.go:173 
+  A 4 18 true true [] false [],  -- app.setTerminalSize app.go:112 
+  A 8 18 false true [] true [],  -- app.judge app.go:193 
+  A 0 18 true true [] false [(1, .pre), (2, .pre), (3, .pre), (4, .pre)],  -- app.setTerminalSize app.go:112 
+  A 11 18 false true [] true [(14, .mid), (15, .pre), (16, .pre)]  -- app.witness app.go:173 
 ]
 
 /-- audMember.auditor -/
-def g18 : List Access := [
-  A 0 18 false false [] false [(2, .mid), (3, .mid), (4, .mid)],  -- config.printCfg config.go:553 
-  A 0 18 true false [] false [(2, .mid), (3, .mid), (4, .mid)]  -- config.printCfg config.go:554 
+def g19 : List Access := [
+  A 0 19 false false [] false [(2, .mid), (3, .mid), (4, .mid)],  -- config.printCfg config.go:553 
+  A 0 19 true false [] false [(2, .mid), (3, .mid), (4, .mid)]  -- config.printCfg config.go:554 
 ]
 
 /-- audMember.auditor[] -/
-def g19 : List Access := [
-  A 0 19 true false [] false [(2, .mid), (3, .mid), (4, .mid)]  -- config.printCfg config.go:501 
+def g20 : List Access := [
+  A 0 20 true false [] false [(2, .mid), (3, .mid), (4, .mid)]  -- config.printCfg config.go:501 
 ]
 
 /-- audMember.mentioned -/
-def g20 : List Access := [
-  A 0 20 true false [] false [(2, .mid), (3, .mid), (4, .mid)],  -- config.printCfg config.go:569 
-  A 0 20 false false [] false [(2, .mid), (3, .mid), (4, .mid)]  -- config.printCfg config.go:571 
+def g21 : List Access := [
+  A 0 21 true false [] false [(2, .mid), (3, .mid), (4, .mid)],  -- config.printCfg config.go:569 
+  A 0 21 false false [] false [(2, .mid), (3, .mid), (4, .mid)]  -- config.printCfg config.go:571 
 ]
 
 /-- audMember.observer -/
-def g21 : List Access := [
-  A 0 21 false false [] false [(2, .mid), (3, .mid), (4, .mid)],  -- config.printCfg config.go:558 
-  A 0 21 true false [] false [(2, .mid), (3, .mid), (4, .mid)]  -- config.printCfg config.go:566 
+def g22 : List Access := [
+  A 0 22 false false [] false [(2, .mid), (3, .mid), (4, .mid)],  -- config.printCfg config.go:558 
+  A 0 22 true false [] false [(2, .mid), (3, .mid), (4, .mid)]  -- config.printCfg config.go:566 
 ]
 
 /-- audMember.observer[] -/
-def g22 : List Access := [
-  A 0 22 true false [] false [(2, .mid), (3, .mid), (4, .mid)],  -- config.printCfg config.go:519 
-  A 0 22 false false [] false [(2, .mid), (3, .mid), (4, .mid)]  -- config.printCfg config.go:581 
+def g23 : List Access := [
+  A 0 23 true false [] false [(2, .mid), (3, .mid), (4, .mid)],  -- config.printCfg config.go:519 
+  A 0 23 false false [] false [(2, .mid), (3, .mid), (4, .mid)]  -- config.printCfg config.go:581 
 ]
 
 /-- auditionReport.output -/
-def g23 : List Access := [
-  A 8 23 true false [] true [],  -- audition.processFsmStateChange audit.go:576 
-  A 7 23 false false [] true []  -- collector.collectAuditionReport ? reflect
-]
-
-/-- auditionReport.result -/
 def g24 : List Access := [
-  A 8 24 true false [] true [],  -- audition.processFsmStateChange audit.go:579 
+  A 8 24 true false [] true [],  -- audition.processFsmStateChange audit.go:576 
   A 7 24 false false [] true []  -- collector.collectAuditionReport ? reflect
 ]
 
-/-- auditionResults.actChanges -/
+/-- auditionReport.result -/
 def g25 : List Access := [
-  A 8 25 false false [] true [],  -- audition.collectAndAuditActChange audit.go:269 
-  A 8 25 true false [] true [],  -- audition.collectAndAuditActChange audit.go:269 
-  A 0 25 false false [] false [(1, .post), (2, .mid), (3, .mid), (4, .mid)]  -- app.assemble result.go:178 
+  A 8 25 true false [] true [],  -- audition.processFsmStateChange audit.go:579 
+  A 7 25 false false [] true []  -- collector.collectAuditionReport ? reflect
+]
+
+/-- auditionResults.actChanges -/
+def g26 : List Access := [
+  A 8 26 false false [] true [],  -- audition.collectAndAuditActChange audit.go:269 
+  A 8 26 true false [] true [],  -- audition.collectAndAuditActChange audit.go:269 
+  A 0 26 false false [] false [(1, .post), (2, .mid), (3, .mid), (4, .mid)]  -- app.assemble result.go:178 
 ]
 
 /-- auditionResults.actChanges[] -/
-def g26 : List Access := [
-  A 8 26 true false [] true [],  -- audition.collectAndAuditActChange audit.go:269 
-  A 0 26 false false [] false [(1, .post), (2, .mid), (3, .mid), (4, .mid)]  -- app.assemble ? 
+def g27 : List Access := [
+  A 8 27 true false [] true [],  -- audition.collectAndAuditActChange audit.go:269 
+  A 0 27 false false [] false [(1, .post), (2, .mid), (3, .mid), (4, .mid)]  -- app.assemble ? 
 ]
 
 /-- auditionResults.moodPeriods -/
-def g27 : List Access := [
-  A 8 27 false false [] true [],  -- audition.checkFinal audit.go:258 
-  A 8 27 true false [] true [],  -- audition.checkFinal audit.go:258 
-  A 0 27 false false [] false [(1, .post), (2, .mid), (3, .mid), (4, .mid)]  -- app.subPlots$1 plot.go:285 
+def g28 : List Access := [
+  A 8 28 false false [] true [],  -- audition.checkFinal audit.go:258 
+  A 8 28 true false [] true [],  -- audition.checkFinal audit.go:258 
+  A 0 28 false false [] false [(1, .post), (2, .mid), (3, .mid), (4, .mid)]  -- app.subPlots$1 plot.go:285 
 ]
 
 /-- auditionResults.moodPeriods[] -/
-def g28 : List Access := [
-  A 8 28 true false [] true []  -- audition.checkFinal audit.go:258 
+def g29 : List Access := [
+  A 8 29 true false [] true []  -- audition.checkFinal audit.go:258 
 ]
 
 /-- auditionResults.numRepeats -/
-def g29 : List Access := [
-  A 0 29 false false [] false [(1, .post), (2, .mid), (3, .mid), (4, .mid)],  -- app.assemble result.go:197 
-  A 5 29 true false [] true [(10, .pre)],  -- prompter.prompt prompt.go:49 
-  A 5 29 false false [] true [],  -- prompter.prompt prompt.go:135 
-  A 5 29 true false [] true []  -- prompter.prompt prompt.go:155 
+def g30 : List Access := [
+  A 0 30 false false [] false [(1, .post), (2, .mid), (3, .mid), (4, .mid)],  -- app.assemble result.go:197 
+  A 5 30 true false [] true [(10, .pre)],  -- prompter.prompt prompt.go:49 
+  A 5 30 false false [] true [],  -- prompter.prompt prompt.go:135 
+  A 5 30 true false [] true []  -- prompter.prompt prompt.go:155 
 ]
 
 /-- auditionState.auditorStates[] -/
-def g30 : List Access := [
-  A 1 30 true false [] true [(5, .pre), (6, .pre), (7, .pre), (8, .pre)],  -- makeAuditionState audit.go:151 
-  A 8 30 false false [] true []  -- audition.checkEvent audit.go:354 
+def g31 : List Access := [
+  A 1 31 true false [] true [(5, .pre), (6, .pre), (7, .pre), (8, .pre)],  -- makeAuditionState audit.go:151 
+  A 8 31 false false [] true []  -- audition.checkEvent audit.go:354 
 ]
 
 /-- auditionState.curActivated[] -/
-def g31 : List Access := [
-  A 1 31 true false [] true [(5, .pre), (6, .pre), (7, .pre), (8, .pre)],  -- makeAuditionState audit.go:155 
-  A 8 31 false false [] true [],  -- audition.hasDeps expr.go:113 
-  A 8 31 true false [] true []  -- audition.resetSigVars audit.go:173 
+def g32 : List Access := [
+  A 1 32 true false [] true [(5, .pre), (6, .pre), (7, .pre), (8, .pre)],  -- makeAuditionState audit.go:155 
+  A 8 32 false false [] true [],  -- audition.hasDeps expr.go:113 
+  A 8 32 true false [] true []  -- audition.resetSigVars audit.go:173 
 ]
 
 /-- auditionState.curMood -/
-def g32 : List Access := [
-  A 8 32 false false [] true [],  -- audition.checkEvent audit.go:322 
-  A 8 32 true false [] true []  -- audition.processMoodChange audit.go:304 
+def g33 : List Access := [
+  A 8 33 false false [] true [],  -- audition.checkEvent audit.go:322 
+  A 8 33 true false [] true []  -- audition.processMoodChange audit.go:304 
 ]
 
 /-- auditionState.curMoodStart -/
-def g33 : List Access := [
-  A 8 33 false false [] true [],  -- audition.checkEvent audit.go:328 
-  A 8 33 true false [] true []  -- audition.processMoodChange audit.go:303 
+def g34 : List Access := [
+  A 8 34 false false [] true [],  -- audition.checkEvent audit.go:328 
+  A 8 34 true false [] true []  -- audition.processMoodChange audit.go:303 
 ]
 
 /-- auditionState.curVals[] -/
-def g34 : List Access := [
-  A 1 34 false false [] true [(5, .pre), (6, .pre), (7, .pre), (8, .pre)],  -- makeAuditionState audit.go:157 
-  A 1 34 true false [] true [(5, .pre), (6, .pre), (7, .pre), (8, .pre)],  -- makeAuditionState audit.go:162 
-  A 8 34 false false [] true [],  -- audition.processAssignments audit.go:498 
-  A 8 34 true false [] true []  -- audition.setAndActivateVar audit.go:637 
+def g35 : List Access := [
+  A 1 35 false false [] true [(5, .pre), (6, .pre), (7, .pre), (8, .pre)],  -- makeAuditionState audit.go:157 
+  A 1 35 true false [] true [(5, .pre), (6, .pre), (7, .pre), (8, .pre)],  -- makeAuditionState audit.go:162 
+  A 8 35 false false [] true [],  -- audition.processAssignments audit.go:498 
+  A 8 35 true false [] true []  -- audition.setAndActivateVar audit.go:637 
 ]
 
 /-- auditor.hasData -/
-def g35 : List Access := [
-  A 1 35 false false [] true [(5, .post), (6, .post), (7, .post), (8, .post)],  -- collector.checkAuditViolations collector.go:225 
-  A 7 35 false false [] true [],  -- collector.checkAuditViolations collector.go:225 
-  A 7 35 true false [] true [],  -- collector.collectAuditionReport collector.go:345 
-  A 0 35 false false [] false [(1, .post), (2, .mid), (3, .mid), (4, .mid)]  -- app.subPlots plot.go:169 
+def g36 : List Access := [
+  A 1 36 false false [] true [(5, .post), (6, .post), (7, .post), (8, .post)],  -- collector.checkAuditViolations collector.go:225 
+  A 7 36 false false [] true [],  -- collector.checkAuditViolations collector.go:225 
+  A 7 36 true false [] true [],  -- collector.collectAuditionReport collector.go:345 
+  A 0 36 false false [] false [(1, .post), (2, .mid), (3, .mid), (4, .mid)]  -- app.subPlots plot.go:169 
 ]
 
 /-- auditor.name -/
-def g36 : List Access := [
-  A 1 36 false false [] true [(5, .post), (6, .post), (7, .post), (8, .post)],  -- collector.isPlayFouledByDisappointment collector.go:399 
-  A 1 36 true false [] true [(5, .pre), (6, .pre), (7, .pre), (8, .pre)],  -- makeAuditionState audit.go:149 
-  A 8 36 false false [] true [],  -- audition.processAssignments audit.go:488 
-  A 7 36 false false [] true [],  -- collector.isPlayFouledByDisappointment collector.go:399 
-  A 0 36 false false [] false [(2, .mid), (3, .mid), (4, .mid)]  -- auditor.fmtFoul config.go:818 
+def g37 : List Access := [
+  A 1 37 false false [] true [(5, .post), (6, .post), (7, .post), (8, .post)],  -- collector.isPlayFouledByDisappointment collector.go:399 
+  A 1 37 true false [] true [(5, .pre), (6, .pre), (7, .pre), (8, .pre)],  -- makeAuditionState audit.go:149 
+  A 8 37 false false [] true [],  -- audition.processAssignments audit.go:488 
+  A 7 37 false false [] true [],  -- collector.isPlayFouledByDisappointment collector.go:399 
+  A 0 37 false false [] false [(2, .mid), (3, .mid), (4, .mid)]  -- auditor.fmtFoul config.go:818 
 ]
 
 /-- auditorState.activated -/
-def g37 : List Access := [
-  A 8 37 false false [] true [],  -- audition.checkEvent audit.go:355 
-  A 8 37 true false [] true []  -- audition.resetAuditors audit.go:180 
+def g38 : List Access := [
+  A 8 38 false false [] true [],  -- audition.checkEvent audit.go:355 
+  A 8 38 true false [] true []  -- audition.resetAuditors audit.go:180 
 ]
 
 /-- auditorState.auditing -/
-def g38 : List Access := [
-  A 8 38 false false [] true [],  -- audition.checkEvent audit.go:355 
-  A 8 38 true false [] true []  -- audition.checkEventForAuditor audit.go:460 
+def g39 : List Access := [
+  A 8 39 false false [] true [],  -- audition.checkEvent audit.go:355 
+  A 8 39 true false [] true []  -- audition.checkEventForAuditor audit.go:460 
 ]
 
 /-- collectedSignal.hasData -/
-def g39 : List Access := [
-  A 7 39 true false [] true [],  -- collector.collectObservation collector.go:306 
-  A 0 39 false false [] false [(1, .post), (2, .mid), (3, .mid), (4, .mid)]  -- app.subPlots plot.go:141 
+def g40 : List Access := [
+  A 7 40 true false [] true [],  -- collector.collectObservation collector.go:306 
+  A 0 40 false false [] false [(1, .post), (2, .mid), (3, .mid), (4, .mid)]  -- app.subPlots plot.go:141 
 ]
 
 /-- collectorState.badCounts[] -/
-def g40 : List Access := [
-  A 1 40 false false [] true [(5, .post), (6, .post), (7, .post), (8, .post)],  -- collector.isPlayFouledByDisappointment collector.go:399 
-  A 7 40 false false [] true [],  -- collector.isPlayFouledByDisappointment collector.go:399 
-  A 7 40 true false [] true []  -- collector.processAuditResult collector.go:382 
+def g41 : List Access := [
+  A 1 41 false false [] true [(5, .post), (6, .post), (7, .post), (8, .post)],  -- collector.isPlayFouledByDisappointment collector.go:399 
+  A 7 41 false false [] true [],  -- collector.isPlayFouledByDisappointment collector.go:399 
+  A 7 41 true false [] true []  -- collector.processAuditResult collector.go:382 
 ]
 
 /-- collectorState.errors -/
-def g41 : List Access := [
-  A 1 41 false false [] true [(5, .post), (6, .post), (7, .post), (8, .post)],  -- collector.checkAuditViolations collector.go:216 
-  A 7 41 false false [] true [],  -- collector.checkAuditViolations collector.go:216 
-  A 7 41 true false [] true []  -- collector.processAuditResult collector.go:374 
-]
-
-/-- collectorState.errors[] -/
 def g42 : List Access := [
+  A 1 42 false false [] true [(5, .post), (6, .post), (7, .post), (8, .post)],  -- collector.checkAuditViolations collector.go:216 
+  A 7 42 false false [] true [],  -- collector.checkAuditViolations collector.go:216 
   A 7 42 true false [] true []  -- collector.processAuditResult collector.go:374 
 ]
 
-/-- collectorState.goodCounts[] -/
+/-- collectorState.errors[] -/
 def g43 : List Access := [
-  A 1 43 false false [] true [(5, .post), (6, .post), (7, .post), (8, .post)],  -- collector.isPlayFouledBySatisfaction collector.go:412 
-  A 7 43 false false [] true [],  -- collector.isPlayFouledBySatisfaction collector.go:412 
-  A 7 43 true false [] true []  -- collector.processAuditResult collector.go:380 
+  A 7 43 true false [] true []  -- collector.processAuditResult collector.go:374 
+]
+
+/-- collectorState.goodCounts[] -/
+def g44 : List Access := [
+  A 1 44 false false [] true [(5, .post), (6, .post), (7, .post), (8, .post)],  -- collector.isPlayFouledBySatisfaction collector.go:412 
+  A 7 44 false false [] true [],  -- collector.isPlayFouledBySatisfaction collector.go:412 
+  A 7 44 true false [] true []  -- collector.processAuditResult collector.go:380 
 ]
 
 /-- config.asciiOnly -/
-def g44 : List Access := [
-  A 15 44 false false [] true [],  -- app.witness app.go:170 
-  A 8 44 false false [] true [],  -- app.judge app.go:190 
-  A 7 44 false false [] true [],  -- app.narrate app.go:151 
-  A 0 44 false false [] false [(1, .mid), (2, .mid), (3, .mid), (4, .mid)],  -- app.narrate app.go:151 
-  A 0 44 false false [] false [(1, .post), (2, .mid), (3, .mid), (4, .mid)],  -- app.showArtifactDirRec app.go:251 
-  A 0 44 true false [] false [(1, .pre), (2, .pre), (3, .pre), (4, .pre)],  -- config.initArgs config.go:138 ext:spf13/pflag.BoolVar
-  A 10 44 false false [] true [(13, .mid), (14, .mid)],  -- app.narrate app.go:151 
-  A 5 44 false false [] true [(10, .mid)],  -- app.narrate app.go:151 
-  A 11 44 false false [] true [(14, .mid), (15, .post), (16, .mid)],  -- app.narrate app.go:151 
-  A 11 44 false false [] true [(14, .mid), (15, .pre), (16, .pre)]  -- app.witness app.go:170 
+def g45 : List Access := [
+  A 15 45 false false [] true [],  -- app.witness app.go:170 
+  A 8 45 false false [] true [],  -- app.judge app.go:190 
+  A 7 45 false false [] true [],  -- app.narrate app.go:151 
+  A 0 45 false false [] false [(1, .mid), (2, .mid), (3, .mid), (4, .mid)],  -- app.narrate app.go:151 
+  A 0 45 false false [] false [(1, .post), (2, .mid), (3, .mid), (4, .mid)],  -- app.showArtifactDirRec app.go:251 
+  A 0 45 true false [] false [(1, .pre), (2, .pre), (3, .pre), (4, .pre)],  -- config.initArgs config.go:138 ext:spf13/pflag.BoolVar
+  A 10 45 false false [] true [(13, .mid), (14, .mid)],  -- app.narrate app.go:151 
+  A 5 45 false false [] true [(10, .mid)],  -- app.narrate app.go:151 
+  A 11 45 false false [] true [(14, .mid), (15, .post), (16, .mid)],  -- app.narrate app.go:151 
+  A 11 45 false false [] true [(14, .mid), (15, .pre), (16, .pre)]  -- app.witness app.go:170 
 ]
 
 /-- config.authors -/
-def g45 : List Access := [
-  A 0 45 false false [] false [(1, .post), (2, .mid), (3, .mid), (4, .mid)],  -- app.assemble result.go:138 
-  A 0 45 false false [] false [(1, .pre), (2, .pre), (3, .pre), (4, .mid)],  -- app.intro app.go:211 
-  A 0 45 false false [] false [(1, .pre), (2, .pre), (3, .pre), (4, .pre)],  -- config.parseCfg parsecfg.go:52 
-  A 0 45 true false [] false [(1, .pre), (2, .pre), (3, .pre), (4, .pre)],  -- config.parseCfg parsecfg.go:52 
-  A 0 45 false false [] false [(2, .mid), (3, .mid), (4, .mid)]  -- config.printCfg config.go:330 
+def g46 : List Access := [
+  A 0 46 false false [] false [(1, .post), (2, .mid), (3, .mid), (4, .mid)],  -- app.assemble result.go:138 
+  A 0 46 false false [] false [(1, .pre), (2, .pre), (3, .pre), (4, .mid)],  -- app.intro app.go:211 
+  A 0 46 false false [] false [(1, .pre), (2, .pre), (3, .pre), (4, .pre)],  -- config.parseCfg parsecfg.go:52 
+  A 0 46 true false [] false [(1, .pre), (2, .pre), (3, .pre), (4, .pre)],  -- config.parseCfg parsecfg.go:52 
+  A 0 46 false false [] false [(2, .mid), (3, .mid), (4, .mid)]  -- config.printCfg config.go:330 
 ]
 
 /-- config.authors[] -/
-def g46 : List Access := [
-  A 0 46 true false [] false [(1, .pre), (2, .pre), (3, .pre), (4, .pre)],  -- config.parseCfg parsecfg.go:52 
-  A 0 46 false false [] false [(2, .mid), (3, .mid), (4, .mid)]  -- config.printCfg ? 
+def g47 : List Access := [
+  A 0 47 true false [] false [(1, .pre), (2, .pre), (3, .pre), (4, .pre)],  -- config.parseCfg parsecfg.go:52 
+  A 0 47 false false [] false [(2, .mid), (3, .mid), (4, .mid)]  -- config.printCfg ? 
 ]
 
 /-- config.dataDir -/
-def g47 : List Access := [
-  A 7 47 false false [] true [],  -- collector.collect collector.go:153 
-  A 0 47 false false [] false [(1, .post), (2, .mid), (3, .mid), (4, .mid)],  -- app.collectArtifacts result.go:211 
-  A 0 47 false false [] false [(2, .mid), (3, .mid), (4, .mid)],  -- config.artifactsDir config.go:242 
-  A 0 47 true false [] false [(1, .pre), (2, .pre), (3, .pre), (4, .pre)],  -- config.initArgs config.go:129 ext:spf13/pflag.StringVarP
-  A 0 47 false false [] false [(1, .pre), (2, .pre), (3, .pre), (4, .pre)]  -- config.prepareDirs config.go:185 
+def g48 : List Access := [
+  A 7 48 false false [] true [],  -- collector.collect collector.go:153 
+  A 0 48 false false [] false [(1, .post), (2, .mid), (3, .mid), (4, .mid)],  -- app.collectArtifacts result.go:211 
+  A 0 48 false false [] false [(2, .mid), (3, .mid), (4, .mid)],  -- config.artifactsDir config.go:242 
+  A 0 48 true false [] false [(1, .pre), (2, .pre), (3, .pre), (4, .pre)],  -- config.initArgs config.go:129 ext:spf13/pflag.StringVarP
+  A 0 48 false false [] false [(1, .pre), (2, .pre), (3, .pre), (4, .pre)]  -- config.prepareDirs config.go:185 
 ]
 
 /-- config.defines -/
-def g48 : List Access := [
-  A 0 48 true false [] false [(1, .pre), (2, .pre), (3, .pre), (4, .pre)],  -- config.initArgs config.go:144 ext:spf13/pflag.StringSliceVarP
-  A 0 48 false false [] false [(1, .pre), (2, .pre), (3, .pre), (4, .pre)]  -- config.parseDefines config.go:250 
+def g49 : List Access := [
+  A 0 49 true false [] false [(1, .pre), (2, .pre), (3, .pre), (4, .pre)],  -- config.initArgs config.go:144 ext:spf13/pflag.StringSliceVarP
+  A 0 49 false false [] false [(1, .pre), (2, .pre), (3, .pre), (4, .pre)]  -- config.parseDefines config.go:250 
 ]
 
 /-- config.diffs -/
-def g49 : List Access := [
-  A 0 49 false false [] false [(1, .pre), (2, .pre), (3, .pre), (4, .pre)],  -- Run$1 run.go:51 
-  A 0 49 true false [] false [(1, .pre), (2, .pre), (3, .pre), (4, .pre)],  -- Run$1 run.go:52 
-  A 0 49 false false [] false [(1, .post), (2, .mid), (3, .mid), (4, .mid)]  -- app.assemble result.go:147 
+def g50 : List Access := [
+  A 0 50 false false [] false [(1, .pre), (2, .pre), (3, .pre), (4, .pre)],  -- Run$1 run.go:51 
+  A 0 50 true false [] false [(1, .pre), (2, .pre), (3, .pre), (4, .pre)],  -- Run$1 run.go:52 
+  A 0 50 false false [] false [(1, .post), (2, .mid), (3, .mid), (4, .mid)]  -- app.assemble result.go:147 
 ]
 
 /-- config.diffs[] -/
-def g50 : List Access := [
-  A 0 50 true false [] false [(1, .pre), (2, .pre), (3, .pre), (4, .pre)],  -- Run$1 run.go:55 
-  A 0 50 false false [] false [(1, .post), (2, .mid), (3, .mid), (4, .mid)]  -- app.assemble result.go:203 
+def g51 : List Access := [
+  A 0 51 true false [] false [(1, .pre), (2, .pre), (3, .pre), (4, .pre)],  -- Run$1 run.go:55 
+  A 0 51 false false [] false [(1, .post), (2, .mid), (3, .mid), (4, .mid)]  -- app.assemble result.go:203 
 ]
 
 /-- config.doPrint -/
-def g51 : List Access := [
-  A 0 51 false false [] false [(1, .pre), (2, .pre), (3, .pre), (4, .pre)],  -- Run run.go:112 
-  A 0 51 true false [] false [(1, .pre), (2, .pre), (3, .pre), (4, .pre)]  -- config.initArgs config.go:133 ext:spf13/pflag.BoolVarP
+def g52 : List Access := [
+  A 0 52 false false [] false [(1, .pre), (2, .pre), (3, .pre), (4, .pre)],  -- Run run.go:112 
+  A 0 52 true false [] false [(1, .pre), (2, .pre), (3, .pre), (4, .pre)]  -- config.initArgs config.go:133 ext:spf13/pflag.BoolVarP
 ]
 
 /-- config.earlyExit -/
-def g52 : List Access := [
-  A 7 52 false false [] true [],  -- collector.processAuditResult collector.go:384 
-  A 0 52 true false [] false [(1, .pre), (2, .pre), (3, .pre), (4, .pre)]  -- config.initArgs config.go:136 ext:spf13/pflag.BoolVarP
+def g53 : List Access := [
+  A 7 53 false false [] true [],  -- collector.processAuditResult collector.go:384 
+  A 0 53 true false [] false [(1, .pre), (2, .pre), (3, .pre), (4, .pre)]  -- config.initArgs config.go:136 ext:spf13/pflag.BoolVarP
 ]
 
 /-- config.extraInterpretation -/
-def g53 : List Access := [
-  A 0 53 false false [] false [(1, .pre), (2, .pre), (3, .pre), (4, .pre)],  -- Run run.go:98 
-  A 0 53 true false [] false [(1, .pre), (2, .pre), (3, .pre), (4, .pre)]  -- config.initArgs config.go:143 ext:spf13/pflag.StringSliceVarP
+def g54 : List Access := [
+  A 0 54 false false [] false [(1, .pre), (2, .pre), (3, .pre), (4, .pre)],  -- Run run.go:98 
+  A 0 54 true false [] false [(1, .pre), (2, .pre), (3, .pre), (4, .pre)]  -- config.initArgs config.go:143 ext:spf13/pflag.StringSliceVarP
 ]
 
 /-- config.extraScript -/
-def g54 : List Access := [
-  A 0 54 false false [] false [(1, .pre), (2, .pre), (3, .pre), (4, .pre)],  -- Run run.go:79 
-  A 0 54 true false [] false [(1, .pre), (2, .pre), (3, .pre), (4, .pre)]  -- config.initArgs config.go:142 ext:spf13/pflag.StringSliceVarP
+def g55 : List Access := [
+  A 0 55 false false [] false [(1, .pre), (2, .pre), (3, .pre), (4, .pre)],  -- Run run.go:79 
+  A 0 55 true false [] false [(1, .pre), (2, .pre), (3, .pre), (4, .pre)]  -- config.initArgs config.go:142 ext:spf13/pflag.StringSliceVarP
 ]
 
 /-- config.includePath -/
-def g55 : List Access := [
-  A 0 55 false false [] false [(1, .pre), (2, .pre), (3, .pre), (4, .pre)],  -- Run$2 run.go:63 
-  A 0 55 true false [] false [(1, .pre), (2, .pre), (3, .pre), (4, .pre)]  -- config.initArgs config.go:137 ext:spf13/pflag.StringSliceVarP
+def g56 : List Access := [
+  A 0 56 false false [] false [(1, .pre), (2, .pre), (3, .pre), (4, .pre)],  -- Run$2 run.go:63 
+  A 0 56 true false [] false [(1, .pre), (2, .pre), (3, .pre), (4, .pre)]  -- config.initArgs config.go:137 ext:spf13/pflag.StringSliceVarP
 ]
 
 /-- config.includePath[] -/
-def g56 : List Access := [
-  A 0 56 true false [] false [(1, .pre), (2, .pre), (3, .pre), (4, .pre)]  -- config.initArgs config.go:168 
+def g57 : List Access := [
+  A 0 57 true false [] false [(1, .pre), (2, .pre), (3, .pre), (4, .pre)]  -- config.initArgs config.go:168 
 ]
 
 /-- config.keepArtifacts -/
-def g57 : List Access := [
-  A 0 57 true false [] false [(1, .pre), (2, .pre), (3, .pre), (4, .pre)],  -- config.initArgs config.go:132 ext:spf13/pflag.BoolVarP
-  A 0 57 false false [] false [(1, .post), (2, .mid), (3, .mid), (4, .mid)]  -- config.run$4 run.go:201 
+def g58 : List Access := [
+  A 0 58 true false [] false [(1, .pre), (2, .pre), (3, .pre), (4, .pre)],  -- config.initArgs config.go:132 ext:spf13/pflag.BoolVarP
+  A 0 58 false false [] false [(1, .post), (2, .mid), (3, .mid), (4, .mid)]  -- config.run$4 run.go:201 
 ]
 
 /-- config.pVarNames -/
-def g58 : List Access := [
-  A 0 58 false false [] false [(1, .pre), (2, .pre), (3, .pre), (4, .pre)],  -- config.parseCfg parsecfg.go:61 
-  A 0 58 true false [] false [(1, .pre), (2, .pre), (3, .pre), (4, .pre)]  -- config.parseCfg parsecfg.go:61 
-]
-
-/-- config.pVarNames[] -/
 def g59 : List Access := [
+  A 0 59 false false [] false [(1, .pre), (2, .pre), (3, .pre), (4, .pre)],  -- config.parseCfg parsecfg.go:61 
   A 0 59 true false [] false [(1, .pre), (2, .pre), (3, .pre), (4, .pre)]  -- config.parseCfg parsecfg.go:61 
 ]
 
-/-- config.pVars[] -/
+/-- config.pVarNames[] -/
 def g60 : List Access := [
-  A 0 60 false false [] false [(1, .pre), (2, .pre), (3, .pre), (4, .pre)],  -- config.parseCfg parsecfg.go:59 
-  A 0 60 true false [] false [(1, .pre), (2, .pre), (3, .pre), (4, .pre)]  -- config.parseCfg parsecfg.go:60 
+  A 0 60 true false [] false [(1, .pre), (2, .pre), (3, .pre), (4, .pre)]  -- config.parseCfg parsecfg.go:61 
+]
+
+/-- config.pVars[] -/
+def g61 : List Access := [
+  A 0 61 false false [] false [(1, .pre), (2, .pre), (3, .pre), (4, .pre)],  -- config.parseCfg parsecfg.go:59 
+  A 0 61 true false [] false [(1, .pre), (2, .pre), (3, .pre), (4, .pre)]  -- config.parseCfg parsecfg.go:60 
 ]
 
 /-- config.parseOnly -/
-def g61 : List Access := [
-  A 0 61 false false [] false [(1, .pre), (2, .pre), (3, .pre), (4, .pre)],  -- Run run.go:127 
-  A 0 61 true false [] false [(1, .pre), (2, .pre), (3, .pre), (4, .pre)]  -- config.initArgs config.go:134 ext:spf13/pflag.BoolVarP
+def g62 : List Access := [
+  A 0 62 false false [] false [(1, .pre), (2, .pre), (3, .pre), (4, .pre)],  -- Run run.go:127 
+  A 0 62 true false [] false [(1, .pre), (2, .pre), (3, .pre), (4, .pre)]  -- config.initArgs config.go:134 ext:spf13/pflag.BoolVarP
 ]
 
 /-- config.play -/
-def g62 : List Access := [
-  A 0 62 false false [] false [(1, .post), (2, .mid), (3, .mid), (4, .mid)],  -- app.assemble result.go:196 
-  A 0 62 false false [] false [(1, .pre), (2, .pre), (3, .pre), (4, .mid)],  -- app.intro app.go:228 
-  A 0 62 true false [] false [(1, .pre), (2, .pre), (3, .pre), (4, .pre)],  -- config.compileV2 compile.go:30 
-  A 0 62 false false [] false [(1, .pre), (2, .pre), (3, .pre), (4, .pre)],  -- config.compileV2 compile.go:119 
-  A 0 62 false false [] false [(2, .mid), (3, .mid), (4, .mid)],  -- config.printSteps compile.go:133 
-  A 5 62 false false [] true []  -- prompter.prompt prompt.go:53 
-]
-
-/-- config.play[] -/
 def g63 : List Access := [
-  A 0 63 true false [] false [(1, .pre), (2, .pre), (3, .pre), (4, .pre)],  -- config.compileV2 compile.go:119 
-  A 0 63 false false [] false [(2, .mid), (3, .mid), (4, .mid)],  -- config.printSteps ? 
+  A 0 63 false false [] false [(1, .post), (2, .mid), (3, .mid), (4, .mid)],  -- app.assemble result.go:196 
+  A 0 63 false false [] false [(1, .pre), (2, .pre), (3, .pre), (4, .mid)],  -- app.intro app.go:228 
+  A 0 63 true false [] false [(1, .pre), (2, .pre), (3, .pre), (4, .pre)],  -- config.compileV2 compile.go:30 
+  A 0 63 false false [] false [(1, .pre), (2, .pre), (3, .pre), (4, .pre)],  -- config.compileV2 compile.go:119 
+  A 0 63 false false [] false [(2, .mid), (3, .mid), (4, .mid)],  -- config.printSteps compile.go:133 
   A 5 63 false false [] true []  -- prompter.prompt prompt.go:53 
 ]
 
-/-- config.quiet -/
+/-- config.play[] -/
 def g64 : List Access := [
-  A 15 64 false false [] true [],  -- app.witness app.go:166 
-  A 8 64 false false [] true [],  -- app.judge app.go:186 
-  A 7 64 false false [] true [],  -- app.narrate app.go:147 
-  A 0 64 false false [] false [(1, .pre), (2, .pre), (3, .pre), (4, .pre)],  -- Run run.go:39 
-  A 0 64 false false [] false [(1, .mid), (2, .mid), (3, .mid), (4, .mid)],  -- app.narrate app.go:147 
-  A 0 64 true false [] false [(1, .pre), (2, .pre), (3, .pre), (4, .pre)],  -- config.initArgs config.go:135 ext:spf13/pflag.BoolVarP
-  A 10 64 false false [] true [(13, .mid), (14, .mid)],  -- app.narrate app.go:147 
-  A 5 64 false false [] true [(10, .mid)],  -- app.narrate app.go:147 
-  A 11 64 false false [] true [(14, .mid), (15, .post), (16, .mid)],  -- app.narrate app.go:147 
-  A 11 64 false false [] true [(14, .mid), (15, .pre), (16, .pre)]  -- app.witness app.go:166 
+  A 0 64 true false [] false [(1, .pre), (2, .pre), (3, .pre), (4, .pre)],  -- config.compileV2 compile.go:119 
+  A 0 64 false false [] false [(2, .mid), (3, .mid), (4, .mid)],  -- config.printSteps ? 
+  A 5 64 false false [] true []  -- prompter.prompt prompt.go:53 
+]
+
+/-- config.quiet -/
+def g65 : List Access := [
+  A 15 65 false false [] true [],  -- app.witness app.go:166 
+  A 8 65 false false [] true [],  -- app.judge app.go:186 
+  A 7 65 false false [] true [],  -- app.narrate app.go:147 
+  A 0 65 false false [] false [(1, .pre), (2, .pre), (3, .pre), (4, .pre)],  -- Run run.go:39 
+  A 0 65 false false [] false [(1, .mid), (2, .mid), (3, .mid), (4, .mid)],  -- app.narrate app.go:147 
+  A 0 65 true false [] false [(1, .pre), (2, .pre), (3, .pre), (4, .pre)],  -- config.initArgs config.go:135 ext:spf13/pflag.BoolVarP
+  A 10 65 false false [] true [(13, .mid), (14, .mid)],  -- app.narrate app.go:147 
+  A 5 65 false false [] true [(10, .mid)],  -- app.narrate app.go:147 
+  A 11 65 false false [] true [(14, .mid), (15, .post), (16, .mid)],  -- app.narrate app.go:147 
+  A 11 65 false false [] true [(14, .mid), (15, .pre), (16, .pre)]  -- app.witness app.go:166 
 ]
 
 /-- config.removeAll -/
-def g65 : List Access := [
-  A 0 65 true false [] false [(1, .pre), (2, .pre), (3, .pre), (4, .pre)],  -- config.initArgs config.go:131 ext:spf13/pflag.BoolVar
-  A 0 65 false false [] false [(1, .post), (2, .mid), (3, .mid), (4, .mid)]  -- config.run$2 run.go:167 
+def g66 : List Access := [
+  A 0 66 true false [] false [(1, .pre), (2, .pre), (3, .pre), (4, .pre)],  -- config.initArgs config.go:131 ext:spf13/pflag.BoolVar
+  A 0 66 false false [] false [(1, .post), (2, .mid), (3, .mid), (4, .mid)]  -- config.run$2 run.go:167 
 ]
 
 /-- config.roleNames -/
-def g66 : List Access := [
-  A 0 66 false false [] false [(1, .pre), (2, .pre), (3, .pre), (4, .pre)],  -- config.parseRole parsecfg.go:586 
-  A 0 66 true false [] false [(1, .pre), (2, .pre), (3, .pre), (4, .pre)],  -- config.parseRole parsecfg.go:586 
-  A 0 66 false false [] false [(2, .mid), (3, .mid), (4, .mid)]  -- config.printCfg config.go:344 
+def g67 : List Access := [
+  A 0 67 false false [] false [(1, .pre), (2, .pre), (3, .pre), (4, .pre)],  -- config.parseRole parsecfg.go:586 
+  A 0 67 true false [] false [(1, .pre), (2, .pre), (3, .pre), (4, .pre)],  -- config.parseRole parsecfg.go:586 
+  A 0 67 false false [] false [(2, .mid), (3, .mid), (4, .mid)]  -- config.printCfg config.go:344 
 ]
 
 /-- config.roleNames[] -/
-def g67 : List Access := [
-  A 0 67 true false [] false [(1, .pre), (2, .pre), (3, .pre), (4, .pre)],  -- config.parseRole parsecfg.go:586 
-  A 0 67 false false [] false [(2, .mid), (3, .mid), (4, .mid)]  -- config.printCfg ? 
+def g68 : List Access := [
+  A 0 68 true false [] false [(1, .pre), (2, .pre), (3, .pre), (4, .pre)],  -- config.parseRole parsecfg.go:586 
+  A 0 68 false false [] false [(2, .mid), (3, .mid), (4, .mid)]  -- config.printCfg ? 
 ]
 
 /-- config.roles[] -/
-def g68 : List Access := [
-  A 0 68 false false [] false [(1, .pre), (2, .pre), (3, .pre), (4, .pre)],  -- config.parseRole parsecfg.go:563 
-  A 0 68 true false [] false [(1, .pre), (2, .pre), (3, .pre), (4, .pre)],  -- config.parseRole parsecfg.go:585 
-  A 0 68 false false [] false [(2, .mid), (3, .mid), (4, .mid)]  -- config.printCfg config.go:345 
+def g69 : List Access := [
+  A 0 69 false false [] false [(1, .pre), (2, .pre), (3, .pre), (4, .pre)],  -- config.parseRole parsecfg.go:563 
+  A 0 69 true false [] false [(1, .pre), (2, .pre), (3, .pre), (4, .pre)],  -- config.parseRole parsecfg.go:585 
+  A 0 69 false false [] false [(2, .mid), (3, .mid), (4, .mid)]  -- config.printCfg config.go:345 
 ]
 
 /-- config.seeAlso -/
-def g69 : List Access := [
-  A 0 69 false false [] false [(1, .post), (2, .mid), (3, .mid), (4, .mid)],  -- app.assemble result.go:139 
-  A 0 69 false false [] false [(1, .pre), (2, .pre), (3, .pre), (4, .mid)],  -- app.intro app.go:214 
-  A 0 69 false false [] false [(1, .pre), (2, .pre), (3, .pre), (4, .pre)],  -- config.parseCfg parsecfg.go:49 
-  A 0 69 true false [] false [(1, .pre), (2, .pre), (3, .pre), (4, .pre)],  -- config.parseCfg parsecfg.go:49 
-  A 0 69 false false [] false [(2, .mid), (3, .mid), (4, .mid)]  -- config.printCfg config.go:333 
+def g70 : List Access := [
+  A 0 70 false false [] false [(1, .post), (2, .mid), (3, .mid), (4, .mid)],  -- app.assemble result.go:139 
+  A 0 70 false false [] false [(1, .pre), (2, .pre), (3, .pre), (4, .mid)],  -- app.intro app.go:214 
+  A 0 70 false false [] false [(1, .pre), (2, .pre), (3, .pre), (4, .pre)],  -- config.parseCfg parsecfg.go:49 
+  A 0 70 true false [] false [(1, .pre), (2, .pre), (3, .pre), (4, .pre)],  -- config.parseCfg parsecfg.go:49 
+  A 0 70 false false [] false [(2, .mid), (3, .mid), (4, .mid)]  -- config.printCfg config.go:333 
 ]
 
 /-- config.seeAlso[] -/
-def g70 : List Access := [
-  A 0 70 false false [] false [(1, .pre), (2, .pre), (3, .pre), (4, .mid)],  -- app.intro ? 
-  A 0 70 true false [] false [(1, .pre), (2, .pre), (3, .pre), (4, .pre)],  -- config.parseCfg parsecfg.go:49 
-  A 0 70 false false [] false [(2, .mid), (3, .mid), (4, .mid)]  -- config.printCfg ? 
+def g71 : List Access := [
+  A 0 71 false false [] false [(1, .pre), (2, .pre), (3, .pre), (4, .mid)],  -- app.intro ? 
+  A 0 71 true false [] false [(1, .pre), (2, .pre), (3, .pre), (4, .pre)],  -- config.parseCfg parsecfg.go:49 
+  A 0 71 false false [] false [(2, .mid), (3, .mid), (4, .mid)]  -- config.printCfg ? 
 ]
 
 /-- config.skipPlot -/
-def g71 : List Access := [
-  A 0 71 true false [] false [(1, .pre), (2, .pre), (3, .pre), (4, .pre)],  -- config.initArgs config.go:139 ext:spf13/pflag.BoolVar
-  A 0 71 false false [] false [(1, .post), (2, .mid), (3, .mid), (4, .mid)]  -- config.run run.go:226 
+def g72 : List Access := [
+  A 0 72 true false [] false [(1, .pre), (2, .pre), (3, .pre), (4, .pre)],  -- config.initArgs config.go:139 ext:spf13/pflag.BoolVar
+  A 0 72 false false [] false [(1, .post), (2, .mid), (3, .mid), (4, .mid)]  -- config.run run.go:226 
 ]
 
 /-- config.subDir -/
-def g72 : List Access := [
-  A 0 72 true false [] false [(1, .pre), (2, .pre), (3, .pre), (4, .pre)],  -- config.initArgs config.go:173 
-  A 0 72 false false [] false [(1, .pre), (2, .pre), (3, .pre), (4, .pre)]  -- config.prepareDirs config.go:197 
+def g73 : List Access := [
+  A 0 73 true false [] false [(1, .pre), (2, .pre), (3, .pre), (4, .pre)],  -- config.initArgs config.go:173 
+  A 0 73 false false [] false [(1, .pre), (2, .pre), (3, .pre), (4, .pre)]  -- config.prepareDirs config.go:197 
 ]
 
 /-- config.titleStrings -/
-def g73 : List Access := [
-  A 0 73 false false [] false [(1, .post), (2, .mid), (3, .mid), (4, .mid)],  -- app.assemble result.go:137 
-  A 0 73 false false [] false [(1, .pre), (2, .pre), (3, .pre), (4, .mid)],  -- app.intro app.go:208 
-  A 0 73 false false [] false [(1, .pre), (2, .pre), (3, .pre), (4, .pre)],  -- config.parseCfg parsecfg.go:43 
-  A 0 73 true false [] false [(1, .pre), (2, .pre), (3, .pre), (4, .pre)],  -- config.parseCfg parsecfg.go:43 
-  A 0 73 false false [] false [(2, .mid), (3, .mid), (4, .mid)]  -- config.printCfg config.go:323 
+def g74 : List Access := [
+  A 0 74 false false [] false [(1, .post), (2, .mid), (3, .mid), (4, .mid)],  -- app.assemble result.go:137 
+  A 0 74 false false [] false [(1, .pre), (2, .pre), (3, .pre), (4, .mid)],  -- app.intro app.go:208 
+  A 0 74 false false [] false [(1, .pre), (2, .pre), (3, .pre), (4, .pre)],  -- config.parseCfg parsecfg.go:43 
+  A 0 74 true false [] false [(1, .pre), (2, .pre), (3, .pre), (4, .pre)],  -- config.parseCfg parsecfg.go:43 
+  A 0 74 false false [] false [(2, .mid), (3, .mid), (4, .mid)]  -- config.printCfg config.go:323 
 ]
 
 /-- config.titleStrings[] -/
-def g74 : List Access := [
-  A 0 74 true false [] false [(1, .pre), (2, .pre), (3, .pre), (4, .pre)],  -- config.parseCfg parsecfg.go:43 
-  A 0 74 false false [] false [(2, .mid), (3, .mid), (4, .mid)]  -- config.printCfg ? 
+def g75 : List Access := [
+  A 0 75 true false [] false [(1, .pre), (2, .pre), (3, .pre), (4, .pre)],  -- config.parseCfg parsecfg.go:43 
+  A 0 75 false false [] false [(2, .mid), (3, .mid), (4, .mid)]  -- config.printCfg ? 
 ]
 
 /-- config.uploadURL -/
-def g75 : List Access := [
-  A 0 75 false false [] false [(1, .post), (2, .mid), (3, .mid), (4, .mid)],  -- app.tryUpload upload.go:15 
-  A 0 75 true false [] false [(1, .pre), (2, .pre), (3, .pre), (4, .pre)]  -- config.initArgs config.go:130 ext:spf13/pflag.StringVar
+def g76 : List Access := [
+  A 0 76 false false [] false [(1, .post), (2, .mid), (3, .mid), (4, .mid)],  -- app.tryUpload upload.go:15 
+  A 0 76 true false [] false [(1, .pre), (2, .pre), (3, .pre), (4, .pre)]  -- config.initArgs config.go:130 ext:spf13/pflag.StringVar
 ]
 
 /-- config.varNames -/
-def g76 : List Access := [
-  A 0 76 false false [] false [(1, .pre), (2, .pre), (3, .pre), (4, .pre)],  -- config.maybeAddVar config.go:1050 
-  A 0 76 true false [] false [(1, .pre), (2, .pre), (3, .pre), (4, .pre)],  -- config.maybeAddVar config.go:1050 
-  A 0 76 false false [] false [(2, .mid), (3, .mid), (4, .mid)]  -- config.printCfg config.go:456 
+def g77 : List Access := [
+  A 0 77 false false [] false [(1, .pre), (2, .pre), (3, .pre), (4, .pre)],  -- config.maybeAddVar config.go:1050 
+  A 0 77 true false [] false [(1, .pre), (2, .pre), (3, .pre), (4, .pre)],  -- config.maybeAddVar config.go:1050 
+  A 0 77 false false [] false [(2, .mid), (3, .mid), (4, .mid)]  -- config.printCfg config.go:456 
 ]
 
 /-- config.varNames[] -/
-def g77 : List Access := [
-  A 0 77 true false [] false [(1, .pre), (2, .pre), (3, .pre), (4, .pre)]  -- config.maybeAddVar config.go:1050 
+def g78 : List Access := [
+  A 0 78 true false [] false [(1, .pre), (2, .pre), (3, .pre), (4, .pre)]  -- config.maybeAddVar config.go:1050 
 ]
 
 /-- config.vars[] -/
-def g78 : List Access := [
-  A 1 78 false false [] true [(5, .pre), (6, .pre), (7, .pre), (8, .pre)],  -- makeAuditionState audit.go:154 
-  A 8 78 false false [] true [],  -- audition.resetSigVars audit.go:171 
-  A 7 78 false false [] true [],  -- collector.collectObservation collector.go:297 
-  A 0 78 false false [] false [(1, .pre), (2, .pre), (3, .pre), (4, .pre)],  -- config.maybeAddVar config.go:1043 
-  A 0 78 true false [] false [(1, .pre), (2, .pre), (3, .pre), (4, .pre)],  -- config.maybeAddVar config.go:1049 
-  A 0 78 false false [] false [(2, .mid), (3, .mid), (4, .mid)]  -- config.printCfg config.go:457 
+def g79 : List Access := [
+  A 1 79 false false [] true [(5, .pre), (6, .pre), (7, .pre), (8, .pre)],  -- makeAuditionState audit.go:154 
+  A 8 79 false false [] true [],  -- audition.resetSigVars audit.go:171 
+  A 7 79 false false [] true [],  -- collector.collectObservation collector.go:297 
+  A 0 79 false false [] false [(1, .pre), (2, .pre), (3, .pre), (4, .pre)],  -- config.maybeAddVar config.go:1043 
+  A 0 79 true false [] false [(1, .pre), (2, .pre), (3, .pre), (4, .pre)],  -- config.maybeAddVar config.go:1049 
+  A 0 79 false false [] false [(2, .mid), (3, .mid), (4, .mid)]  -- config.printCfg config.go:457 
 ]
 
 /-- errorCollection.errs -/
-def g79 : List Access := [
-  A 12 79 false false [] true [],  -- actor.runActorCommandWithConsumer$1 commands.go:203 
-  A 12 79 true false [] true [],  -- actor.runActorCommandWithConsumer$1 commands.go:203 
-  A 15 79 false false [] true [],  -- actor.runActorCommandWithConsumer$1 commands.go:203 
-  A 15 79 true false [] true [],  -- actor.runActorCommandWithConsumer$1 commands.go:203 
-  A 1 79 false false [] true [(5, .mid), (6, .mid), (7, .mid), (8, .mid)],  -- combineErrors errors.go:49 
-  A 9 79 false false [] true [(12, .post), (13, .mid), (14, .mid)],  -- actor.runActorCommandWithConsumer commands.go:264 
-  A 8 79 false false [] true [],  -- combineErrors errors.go:49 
-  A 7 79 false false [] true [],  -- combineErrors errors.go:49 
-  A 0 79 false false [] false [(1, .mid), (2, .mid), (3, .mid), (4, .mid)],  -- combineErrors errors.go:49 
-  A 0 79 false false [] false [(1, .post), (2, .mid), (3, .mid), (4, .mid)],  -- isError errors.go:29 
-  A 10 79 false false [] true [(13, .mid), (14, .mid)],  -- actor.runActorCommandWithConsumer commands.go:264 
-  A 5 79 false false [] true [],  -- combineErrors errors.go:49 
-  A 11 79 false false [] true [(14, .mid), (15, .post), (16, .mid)],  -- actor.runActorCommandWithConsumer commands.go:264 
-  A 6 79 false false [] true []  -- combineErrors errors.go:49 
-]
-
-/-- errorCollection.errs[] -/
 def g80 : List Access := [
+  A 12 80 false false [] true [],  -- actor.runActorCommandWithConsumer$1 commands.go:203 
   A 12 80 true false [] true [],  -- actor.runActorCommandWithConsumer$1 commands.go:203 
+  A 15 80 false false [] true [],  -- actor.runActorCommandWithConsumer$1 commands.go:203 
   A 15 80 true false [] true [],  -- actor.runActorCommandWithConsumer$1 commands.go:203 
   A 1 80 false false [] true [(5, .mid), (6, .mid), (7, .mid), (8, .mid)],  -- combineErrors errors.go:49 
-  A 9 80 true false [] true [(12, .pre), (13, .pre), (14, .mid)],  -- actor.runActorCommandWithConsumer commands.go:117 
-  A 9 80 false false [] true [(12, .post), (13, .mid), (14, .mid)],  -- actor.runActorCommandWithConsumer commands.go:271 
+  A 9 80 false false [] true [(12, .post), (13, .mid), (14, .mid)],  -- actor.runActorCommandWithConsumer commands.go:264 
   A 8 80 false false [] true [],  -- combineErrors errors.go:49 
   A 7 80 false false [] true [],  -- combineErrors errors.go:49 
   A 0 80 false false [] false [(1, .mid), (2, .mid), (3, .mid), (4, .mid)],  -- combineErrors errors.go:49 
-  A 0 80 false false [] false [(1, .post), (2, .mid), (3, .mid), (4, .mid)],  -- isError ? 
-  A 10 80 true false [] true [(13, .mid), (14, .mid)],  -- actor.runActorCommandWithConsumer commands.go:117 
-  A 10 80 false false [] true [(13, .mid), (14, .mid)],  -- actor.runActorCommandWithConsumer commands.go:271 
+  A 0 80 false false [] false [(1, .post), (2, .mid), (3, .mid), (4, .mid)],  -- isError errors.go:29 
+  A 10 80 false false [] true [(13, .mid), (14, .mid)],  -- actor.runActorCommandWithConsumer commands.go:264 
   A 5 80 false false [] true [],  -- combineErrors errors.go:49 
-  A 11 80 true false [] true [(14, .mid), (15, .pre), (16, .pre)],  -- actor.runActorCommandWithConsumer commands.go:117 
-  A 11 80 false false [] true [(14, .mid), (15, .post), (16, .mid)],  -- actor.runActorCommandWithConsumer commands.go:271 
+  A 11 80 false false [] true [(14, .mid), (15, .post), (16, .mid)],  -- actor.runActorCommandWithConsumer commands.go:264 
   A 6 80 false false [] true []  -- combineErrors errors.go:49 
 ]
 
-/-- exec.Cmd.Dir -/
+/-- errorCollection.errs[] -/
 def g81 : List Access := [
-  A 9 81 true false [] true [(12, .pre), (13, .pre), (14, .pre)],  -- actor.makeShCmd commands.go:357 
-  A 9 81 false false [] true [(12, .pre), (13, .pre), (14, .pre)],  -- actor.runActorCommandWithConsumer commands.go:73 
-  A 0 81 true false [] false [(1, .post), (2, .mid), (3, .mid), (4, .mid)],  -- app.maybeRunGnuplot plot.go:340 
-  A 10 81 true false [] true [(13, .mid), (14, .mid)],  -- actor.makeShCmd commands.go:357 
-  A 10 81 false false [] true [(13, .mid), (14, .mid)],  -- actor.runActorCommandWithConsumer commands.go:73 
-  A 11 81 true false [] true [(14, .pre), (15, .pre), (16, .pre)],  -- actor.makeShCmd commands.go:357 
-  A 11 81 false false [] true [(14, .pre), (15, .pre), (16, .pre)]  -- actor.runActorCommandWithConsumer commands.go:73 
+  A 12 81 true false [] true [],  -- actor.runActorCommandWithConsumer$1 commands.go:203 
+  A 15 81 true false [] true [],  -- actor.runActorCommandWithConsumer$1 commands.go:203 
+  A 1 81 false false [] true [(5, .mid), (6, .mid), (7, .mid), (8, .mid)],  -- combineErrors errors.go:49 
+  A 9 81 true false [] true [(12, .pre), (13, .pre), (14, .mid)],  -- actor.runActorCommandWithConsumer commands.go:117 
+  A 9 81 false false [] true [(12, .post), (13, .mid), (14, .mid)],  -- actor.runActorCommandWithConsumer commands.go:271 
+  A 8 81 false false [] true [],  -- combineErrors errors.go:49 
+  A 7 81 false false [] true [],  -- combineErrors errors.go:49 
+  A 0 81 false false [] false [(1, .mid), (2, .mid), (3, .mid), (4, .mid)],  -- combineErrors errors.go:49 
+  A 0 81 false false [] false [(1, .post), (2, .mid), (3, .mid), (4, .mid)],  -- isError ? 
+  A 10 81 true false [] true [(13, .mid), (14, .mid)],  -- actor.runActorCommandWithConsumer commands.go:117 
+  A 10 81 false false [] true [(13, .mid), (14, .mid)],  -- actor.runActorCommandWithConsumer commands.go:271 
+  A 5 81 false false [] true [],  -- combineErrors errors.go:49 
+  A 11 81 true false [] true [(14, .mid), (15, .pre), (16, .pre)],  -- actor.runActorCommandWithConsumer commands.go:117 
+  A 11 81 false false [] true [(14, .mid), (15, .post), (16, .mid)],  -- actor.runActorCommandWithConsumer commands.go:271 
+  A 6 81 false false [] true []  -- combineErrors errors.go:49 
+]
+
+/-- exec.Cmd.Dir -/
+def g82 : List Access := [
+  A 9 82 true false [] true [(12, .pre), (13, .pre), (14, .pre)],  -- actor.makeShCmd commands.go:357 
+  A 9 82 false false [] true [(12, .pre), (13, .pre), (14, .pre)],  -- actor.runActorCommandWithConsumer commands.go:73 
+  A 0 82 true false [] false [(1, .post), (2, .mid), (3, .mid), (4, .mid)],  -- app.maybeRunGnuplot plot.go:340 
+  A 10 82 true false [] true [(13, .mid), (14, .mid)],  -- actor.makeShCmd commands.go:357 
+  A 10 82 false false [] true [(13, .mid), (14, .mid)],  -- actor.runActorCommandWithConsumer commands.go:73 
+  A 11 82 true false [] true [(14, .pre), (15, .pre), (16, .pre)],  -- actor.makeShCmd commands.go:357 
+  A 11 82 false false [] true [(14, .pre), (15, .pre), (16, .pre)]  -- actor.runActorCommandWithConsumer commands.go:73 
 ]
 
 /-- exec.Cmd.Stdin -/
-def g82 : List Access := [
-  A 9 82 true false [] true [(12, .pre), (13, .pre), (14, .pre)],  -- actor.makeShCmd commands.go:356 
-  A 10 82 true false [] true [(13, .mid), (14, .mid)],  -- actor.makeShCmd commands.go:356 
-  A 11 82 true false [] true [(14, .pre), (15, .pre), (16, .pre)]  -- actor.makeShCmd commands.go:356 
+def g83 : List Access := [
+  A 9 83 true false [] true [(12, .pre), (13, .pre), (14, .pre)],  -- actor.makeShCmd commands.go:356 
+  A 10 83 true false [] true [(13, .mid), (14, .mid)],  -- actor.makeShCmd commands.go:356 
+  A 11 83 true false [] true [(14, .pre), (15, .pre), (16, .pre)]  -- actor.makeShCmd commands.go:356 
 ]
 
 /-- exec.Cmd.Stdout -/
-def g83 : List Access := [
-  A 9 83 true false [] true [(12, .pre), (13, .pre), (14, .pre)],  -- actor.runActorCommandWithConsumer commands.go:79 
-  A 10 83 true false [] true [(13, .mid), (14, .mid)],  -- actor.runActorCommandWithConsumer commands.go:79 
-  A 11 83 true false [] true [(14, .pre), (15, .pre), (16, .pre)]  -- actor.runActorCommandWithConsumer commands.go:79 
+def g84 : List Access := [
+  A 9 84 true false [] true [(12, .pre), (13, .pre), (14, .pre)],  -- actor.runActorCommandWithConsumer commands.go:79 
+  A 10 84 true false [] true [(13, .mid), (14, .mid)],  -- actor.runActorCommandWithConsumer commands.go:79 
+  A 11 84 true false [] true [(14, .pre), (15, .pre), (16, .pre)]  -- actor.runActorCommandWithConsumer commands.go:79 
 ]
 
 /-- exec.Cmd.SysProcAttr -/
-def g84 : List Access := [
-  A 9 84 true false [] true [(12, .pre), (13, .pre), (14, .pre)],  -- actor.makeShCmd commands.go:354 
-  A 10 84 true false [] true [(13, .mid), (14, .mid)],  -- actor.makeShCmd commands.go:354 
-  A 11 84 true false [] true [(14, .pre), (15, .pre), (16, .pre)]  -- actor.makeShCmd commands.go:354 
+def g85 : List Access := [
+  A 9 85 true false [] true [(12, .pre), (13, .pre), (14, .pre)],  -- actor.makeShCmd commands.go:354 
+  A 10 85 true false [] true [(13, .mid), (14, .mid)],  -- actor.makeShCmd commands.go:354 
+  A 11 85 true false [] true [(14, .pre), (15, .pre), (16, .pre)]  -- actor.makeShCmd commands.go:354 
 ]
 
 /-- fsm.edges -/
-def g85 : List Access := [
-  A 8 85 false false [] true [],  -- fsmEval.advance pred_fsm.go:45 
-  A 0 85 true false [] false [(1, .pre), (2, .pre), (3, .pre), (4, .pre)]  -- init pred_fsm.go:72 
+def g86 : List Access := [
+  A 8 86 false false [] true [],  -- fsmEval.advance pred_fsm.go:45 
+  A 0 86 true false [] false [(1, .pre), (2, .pre), (3, .pre), (4, .pre)]  -- init pred_fsm.go:72 
 ]
 
 /-- fsm.labels -/
-def g86 : List Access := [
-  A 8 86 false false [] true [],  -- fsmEval.advance pred_fsm.go:43 
-  A 0 86 true false [] false [(1, .pre), (2, .pre), (3, .pre), (4, .pre)]  -- init pred_fsm.go:71 
+def g87 : List Access := [
+  A 8 87 false false [] true [],  -- fsmEval.advance pred_fsm.go:43 
+  A 0 87 true false [] false [(1, .pre), (2, .pre), (3, .pre), (4, .pre)]  -- init pred_fsm.go:71 
 ]
 
 /-- fsm.name -/
-def g87 : List Access := [
-  A 0 87 false false [] false [(1, .post), (2, .mid), (3, .mid), (4, .mid)],  -- app.subPlots plot.go:133 
-  A 0 87 false false [] false [(2, .mid), (3, .mid), (4, .mid)],  -- config.printCfg config.go:513 
-  A 0 87 true false [] false [(1, .pre), (2, .pre), (3, .pre), (4, .pre)],  -- init pred_fsm.go:68 
-  A 0 87 false false [] false [(1, .pre), (2, .pre), (3, .pre), (4, .pre)]  -- init$21 pred_fsm.go:62 
+def g88 : List Access := [
+  A 0 88 false false [] false [(1, .post), (2, .mid), (3, .mid), (4, .mid)],  -- app.subPlots plot.go:133 
+  A 0 88 false false [] false [(2, .mid), (3, .mid), (4, .mid)],  -- config.printCfg config.go:513 
+  A 0 88 true false [] false [(1, .pre), (2, .pre), (3, .pre), (4, .pre)],  -- init pred_fsm.go:68 
+  A 0 88 false false [] false [(1, .pre), (2, .pre), (3, .pre), (4, .pre)]  -- init$21 pred_fsm.go:62 
 ]
 
 /-- fsm.startState -/
-def g88 : List Access := [
-  A 8 88 false false [] true [],  -- makeFsmEval pred_fsm.go:31 
-  A 0 88 true false [] false [(1, .pre), (2, .pre), (3, .pre), (4, .pre)]  -- init pred_fsm.go:69 
+def g89 : List Access := [
+  A 8 89 false false [] true [],  -- makeFsmEval pred_fsm.go:31 
+  A 0 89 true false [] false [(1, .pre), (2, .pre), (3, .pre), (4, .pre)]  -- init pred_fsm.go:69 
 ]
 
 /-- fsm.stateNames -/
-def g89 : List Access := [
-  A 8 89 false false [] true [],  -- fsmEval.state pred_fsm.go:35 
-  A 0 89 true false [] false [(1, .pre), (2, .pre), (3, .pre), (4, .pre)]  -- init pred_fsm.go:70 
+def g90 : List Access := [
+  A 8 90 false false [] true [],  -- fsmEval.state pred_fsm.go:35 
+  A 0 90 true false [] false [(1, .pre), (2, .pre), (3, .pre), (4, .pre)]  -- init pred_fsm.go:70 
 ]
 
 /-- fsmEval.curState -/
-def g90 : List Access := [
-  A 8 90 true false [] true [],  -- audition.startOfAuditPeriod audit.go:471 
-  A 8 90 false false [] true []  -- fsmEval.advance pred_fsm.go:45 
+def g91 : List Access := [
+  A 8 91 true false [] true [],  -- audition.startOfAuditPeriod audit.go:471 
+  A 8 91 false false [] true []  -- fsmEval.advance pred_fsm.go:45 
 ]
 
 /-- fsmEval.fsm -/
-def g91 : List Access := [
-  A 8 91 true false [] true [],  -- audition.startOfAuditPeriod audit.go:471 
-  A 8 91 false false [] true []  -- fsmEval.advance pred_fsm.go:43 
+def g92 : List Access := [
+  A 8 92 true false [] true [],  -- audition.startOfAuditPeriod audit.go:471 
+  A 8 92 false false [] true []  -- fsmEval.advance pred_fsm.go:43 
 ]
 
 /-- fsmEval.labelMap -/
-def g92 : List Access := [
-  A 8 92 true false [] true [],  -- audition.startOfAuditPeriod audit.go:471 
-  A 8 92 false false [] true []  -- fsmEval.advance pred_fsm.go:39 
-]
-
-/-- local Run.extraScript -/
 def g93 : List Access := [
-  A 0 93 true false [] false [(1, .pre), (2, .pre), (3, .pre), (4, .pre)]  -- Run$3 run.go:87 ext:(*bytes.Buffer).String
-]
-
-/-- local Run.file -/
-def g94 : List Access := [
-  A 0 94 true false [] false [(1, .pre), (2, .pre), (3, .pre), (4, .pre)],  -- Run run.go:60 
-  A 0 94 false false [] false [(1, .pre), (2, .pre), (3, .pre), (4, .pre)]  -- Run$2 run.go:63 
-]
-
-/-- local actor.prepareScript.err -/
-def g95 : List Access := [
-  A 0 95 true false [] false [(1, .pre), (2, .pre), (3, .pre), (4, .pre)],  -- actor.prepareScript commands.go:341 
-  A 0 95 false false [] false [(1, .pre), (2, .pre), (3, .pre), (4, .pre)]  -- actor.prepareScript ? 
+  A 8 93 true false [] true [],  -- audition.startOfAuditPeriod audit.go:471 
+  A 8 93 false false [] true []  -- fsmEval.advance pred_fsm.go:39 
 ]
 
 /-- local actor.runActorCommand.outbuf -/
-def g96 : List Access := [
-  A 12 96 true false [] true [],  -- actor.runActorCommand$1 commands.go:48 ext:(*bytes.Buffer).WriteString
-  A 9 96 true false [] true [(12, .post), (13, .mid), (14, .mid)],  -- actor.runActorCommand commands.go:51 ext:(*bytes.Buffer).String
-  A 9 96 true false [] true [(12, .pre), (13, .pre), (14, .mid)],  -- actor.runActorCommand$1 commands.go:48 ext:(*bytes.Buffer).WriteString
-  A 10 96 true false [] true [(13, .mid), (14, .mid)]  -- actor.runActorCommand commands.go:51 ext:(*bytes.Buffer).String
+def g94 : List Access := [
+  A 12 94 true false [] true [],  -- actor.runActorCommand$1 commands.go:48 ext:(*bytes.Buffer).WriteString
+  A 9 94 true false [] true [(12, .post), (13, .mid), (14, .mid)],  -- actor.runActorCommand commands.go:51 ext:(*bytes.Buffer).String
+  A 9 94 true false [] true [(12, .pre), (13, .pre), (14, .mid)],  -- actor.runActorCommand$1 commands.go:48 ext:(*bytes.Buffer).WriteString
+  A 10 94 true false [] true [(13, .mid), (14, .mid)]  -- actor.runActorCommand commands.go:51 ext:(*bytes.Buffer).String
 ]
 
 /-- local actor.runActorCommandWithConsumer.stopRead -/
-def g97 : List Access := [
-  A 12 97 true false [] true [],  -- actor.runActorCommandWithConsumer$1 commands.go:175 
-  A 12 97 false false [] true [],  -- actor.runActorCommandWithConsumer$1 commands.go:176 
-  A 15 97 true false [] true [],  -- actor.runActorCommandWithConsumer$1 commands.go:175 
-  A 15 97 false false [] true []  -- actor.runActorCommandWithConsumer$1 commands.go:176 
-]
-
-/-- local app.conduct.ctx -/
-def g98 : List Access := [
-  A 1 98 false false [] true [(5, .pre), (6, .pre), (7, .pre), (8, .pre)],  -- app.conduct conductor.go:39 
-  A 1 98 false false [] true [(5, .pre), (6, .pre), (7, .pre), (8, .mid)],  -- app.conduct conductor.go:47 
-  A 1 98 false false [] true [(5, .pre), (6, .pre), (7, .mid), (8, .mid)],  -- app.conduct conductor.go:63 
-  A 1 98 false false [] true [(5, .pre), (6, .mid), (7, .mid), (8, .mid)],  -- app.conduct conductor.go:67 
-  A 1 98 false false [] true [(5, .mid), (6, .mid), (7, .mid), (8, .mid)],  -- app.conduct conductor.go:90 
-  A 1 98 false false [] true [(5, .post), (6, .mid), (7, .mid), (8, .mid)],  -- app.conduct conductor.go:108 
-  A 1 98 false false [] true [(5, .post), (6, .post), (7, .mid), (8, .mid)],  -- app.conduct conductor.go:124 
-  A 1 98 false false [] true [(5, .post), (6, .post), (7, .post), (8, .post)],  -- app.conduct$1 conductor.go:27 
-  A 1 98 true false [] true [(5, .post), (6, .post), (7, .post), (8, .post)]  -- app.conduct$1 conductor.go:27 
-]
-
-/-- local app.conduct.err -/
-def g99 : List Access := [
-  A 1 99 true false [] true [(5, .post), (6, .post), (7, .post), (8, .post)],  -- app.conduct conductor.go:140 
-  A 1 99 false false [] true [(5, .post), (6, .post), (7, .post), (8, .post)]  -- app.conduct ? 
-]
-
-/-- local app.runForAllActors.err -/
-def g100 : List Access := [
-  A 1 100 true false [] true [(9, .mid)],  -- app.runForAllActors conductor.go:400 
-  A 1 100 false false [] true [(9, .mid)],  -- app.runForAllActors ? 
-  A 1 100 true false [] true []  -- app.runForAllActors$1 conductor.go:358 
-]
-
-/-- local app.subPlots.plotGroups[] -/
-def g101 : List Access := [
-  A 0 101 true false [] false [(1, .post), (2, .mid), (3, .mid), (4, .mid)]  -- app.subPlots plot.go:180 
-]
-
-/-- local audition.audit.ctx -/
-def g102 : List Access := [
-  A 8 102 false false [] true [],  -- audition.audit audit.go:209 
-  A 8 102 true false [] true []  -- audition.audit$1 audit.go:194 
-]
-
-/-- local audition.audit.err -/
-def g103 : List Access := [
-  A 8 103 true false [] true [],  -- audition.audit audit.go:207 
-  A 8 103 false false [] true []  -- audition.audit ? 
-]
-
-/-- local collector.collect.err -/
-def g104 : List Access := [
-  A 7 104 true false [] true [],  -- collector.collect collector.go:154 
-  A 7 104 false false [] true []  -- collector.collect ? 
+def g95 : List Access := [
+  A 12 95 true false [] true [],  -- actor.runActorCommandWithConsumer$1 commands.go:175 
+  A 12 95 false false [] true [],  -- actor.runActorCommandWithConsumer$1 commands.go:176 
+  A 15 95 true false [] true [],  -- actor.runActorCommandWithConsumer$1 commands.go:175 
+  A 15 95 false false [] true []  -- actor.runActorCommandWithConsumer$1 commands.go:176 
 ]
 
 /-- local config.parseRole.parserNames[] -/
-def g105 : List Access := [
-  A 0 105 true false [] false [(1, .pre), (2, .pre), (3, .pre), (4, .pre)],  -- config.parseRole parsecfg.go:583 
-  A 0 105 false false [] false [(1, .pre), (2, .pre), (3, .pre), (4, .pre)]  -- config.parseRole$1 parsecfg.go:624 
+def g96 : List Access := [
+  A 0 96 true false [] false [(1, .pre), (2, .pre), (3, .pre), (4, .pre)],  -- config.parseRole parsecfg.go:583 
+  A 0 96 false false [] false [(1, .pre), (2, .pre), (3, .pre), (4, .pre)]  -- config.parseRole$1 parsecfg.go:624 
 ]
 
 /-- local config.preprocReplace.err -/
-def g106 : List Access := [
-  A 0 106 false false [] false [(1, .pre), (2, .pre), (3, .pre), (4, .pre)],  -- config.preprocReplace parsecfg.go:1153 
-  A 0 106 true false [] false [(1, .pre), (2, .pre), (3, .pre), (4, .pre)]  -- config.preprocReplace$1 parsecfg.go:1149 
+def g97 : List Access := [
+  A 0 97 false false [] false [(1, .pre), (2, .pre), (3, .pre), (4, .pre)],  -- config.preprocReplace parsecfg.go:1153 
+  A 0 97 true false [] false [(1, .pre), (2, .pre), (3, .pre), (4, .pre)]  -- config.preprocReplace$1 parsecfg.go:1149 
 ]
 
-/-- local config.printCfg.undefined[] -/
-def g107 : List Access := [
-  A 0 107 true false [] false [(2, .mid), (3, .mid), (4, .mid)],  -- config.printCfg config.go:509 
-  A 0 107 false false [] false [(2, .mid), (3, .mid), (4, .mid)]  -- config.printCfg$3 config.go:538 
-]
-
-/-- local config.run.err -/
-def g108 : List Access := [
-  A 0 108 true false [] false [(1, .post), (2, .mid), (3, .mid), (4, .mid)],  -- config.run run.go:191 
-  A 0 108 false false [] false [(1, .post), (2, .mid), (3, .mid), (4, .mid)]  -- config.run run.go:192 
-]
-
-/-- local prompter.runScene.err -/
-def g109 : List Access := [
-  A 5 109 true false [] true [(10, .mid)],  -- prompter.runScene prompt.go:193 
-  A 5 109 false false [] true [(10, .mid)],  -- prompter.runScene ? 
-  A 5 109 true false [] true []  -- prompter.runScene$1 prompt.go:178 
-]
-
-/-- local spotMgr.manageSpotlights.err -/
-def g110 : List Access := [
-  A 6 110 true false [] true [(11, .mid)],  -- spotMgr.manageSpotlights spotlight.go:103 
-  A 6 110 false false [] true [(11, .mid)],  -- spotMgr.manageSpotlights ? 
-  A 6 110 true false [] true [],  -- spotMgr.manageSpotlights$1 spotlight.go:54 
-  A 6 110 false false [] true []  -- spotMgr.manageSpotlights$1 spotlight.go:56 
+/-- map[string]bool[] -/
+def g98 : List Access := [
+  A 0 98 true false [] false [(2, .mid), (3, .mid), (4, .mid)],  -- config.printCfg config.go:509 
+  A 0 98 false false [] false [(2, .mid), (3, .mid), (4, .mid)]  -- config.printCfg$3 config.go:538 
 ]
 
 /-- observer.hasData -/
-def g111 : List Access := [
-  A 7 111 true false [] true [],  -- collector.collectAuditionReport collector.go:344 
-  A 0 111 false false [] false [(1, .post), (2, .mid), (3, .mid), (4, .mid)]  -- app.subPlots plot.go:116 
+def g99 : List Access := [
+  A 7 99 true false [] true [],  -- collector.collectAuditionReport collector.go:344 
+  A 0 99 false false [] false [(1, .post), (2, .mid), (3, .mid), (4, .mid)]  -- app.subPlots plot.go:116 
 ]
 
 /-- outputFiles.files[] -/
-def g112 : List Access := [
-  A 7 112 false false [] true [],  -- outputFiles.CloseAll output_files.go:23 
-  A 7 112 true false [] true []  -- outputFiles.getWriter output_files.go:42 
+def g100 : List Access := [
+  A 7 100 false false [] true [],  -- outputFiles.CloseAll output_files.go:23 
+  A 7 100 true false [] true []  -- outputFiles.getWriter output_files.go:42 
 ]
 
 /-- outputFiles.writers[] -/
-def g113 : List Access := [
-  A 7 113 false false [] true [],  -- outputFiles.CloseAll output_files.go:24 
-  A 7 113 true false [] true []  -- outputFiles.getWriter output_files.go:44 
+def g101 : List Access := [
+  A 7 101 false false [] true [],  -- outputFiles.CloseAll output_files.go:24 
+  A 7 101 true false [] true []  -- outputFiles.getWriter output_files.go:44 
 ]
 
 /-- parser.curLine -/
-def g114 : List Access := [
-  A 0 114 false false [] false [(1, .pre), (2, .pre), (3, .pre), (4, .pre)],  -- parser.get parsecfg.go:1109 
-  A 0 114 true false [] false [(1, .pre), (2, .pre), (3, .pre), (4, .pre)]  -- parser.m parsecfg.go:1104 
+def g102 : List Access := [
+  A 0 102 false false [] false [(1, .pre), (2, .pre), (3, .pre), (4, .pre)],  -- parser.get parsecfg.go:1109 
+  A 0 102 true false [] false [(1, .pre), (2, .pre), (3, .pre), (4, .pre)]  -- parser.m parsecfg.go:1104 
 ]
 
 /-- pflag.Flag.NoOptDefVal -/
-def g115 : List Access := [
-  A 0 115 true false [] false [(1, .pre), (2, .pre), (3, .pre), (4, .pre)]  -- config.initArgs config.go:150 
+def g103 : List Access := [
+  A 0 103 true false [] false [(1, .pre), (2, .pre), (3, .pre), (4, .pre)]  -- config.initArgs config.go:150 
 ]
 
 /-- plotgroup.plots[] -/
-def g116 : List Access := [
-  A 0 116 true false [] false [(1, .post), (2, .mid), (3, .mid), (4, .mid)]  -- app.subPlots plot.go:165 
+def g104 : List Access := [
+  A 0 104 true false [] false [(1, .post), (2, .mid), (3, .mid), (4, .mid)]  -- app.subPlots plot.go:165 
 ]
 
 /-- reader.diffs[] -/
-def g117 : List Access := [
-  A 0 117 true false [] false [(1, .pre), (2, .pre), (3, .pre), (4, .pre)]  -- newReader reader.go:53 
+def g105 : List Access := [
+  A 0 105 true false [] false [(1, .pre), (2, .pre), (3, .pre), (4, .pre)]  -- newReader reader.go:53 
 ]
 
 /-- reader.readers -/
-def g118 : List Access := [
-  A 0 118 false false [] false [(1, .pre), (2, .pre), (3, .pre), (4, .pre)],  -- reader.close reader.go:120 
-  A 0 118 true false [] false [(1, .pre), (2, .pre), (3, .pre), (4, .pre)]  -- subreader.readLine reader.go:223 
+def g106 : List Access := [
+  A 0 106 false false [] false [(1, .pre), (2, .pre), (3, .pre), (4, .pre)],  -- reader.close reader.go:120 
+  A 0 106 true false [] false [(1, .pre), (2, .pre), (3, .pre), (4, .pre)]  -- subreader.readLine reader.go:223 
 ]
 
 /-- reader.readers[] -/
-def g119 : List Access := [
-  A 0 119 false false [] false [(1, .pre), (2, .pre), (3, .pre), (4, .pre)],  -- reader.close reader.go:121 
-  A 0 119 true false [] false [(1, .pre), (2, .pre), (3, .pre), (4, .pre)]  -- subreader.readLine reader.go:259 
+def g107 : List Access := [
+  A 0 107 false false [] false [(1, .pre), (2, .pre), (3, .pre), (4, .pre)],  -- reader.close reader.go:121 
+  A 0 107 true false [] false [(1, .pre), (2, .pre), (3, .pre), (4, .pre)]  -- subreader.readLine reader.go:259 
 ]
 
 /-- role.actionCmds[] -/
-def g120 : List Access := [
-  A 0 120 false false [] false [(1, .pre), (2, .pre), (3, .pre), (4, .pre)],  -- actor.prepareActionCommands commands.go:281 
-  A 0 120 true false [] false [(1, .pre), (2, .pre), (3, .pre), (4, .pre)],  -- config.parseRole$1 parsecfg.go:600 
-  A 0 120 false false [] false [(2, .mid), (3, .mid), (4, .mid)]  -- config.printCfg config.go:357 
+def g108 : List Access := [
+  A 0 108 false false [] false [(1, .pre), (2, .pre), (3, .pre), (4, .pre)],  -- actor.prepareActionCommands commands.go:281 
+  A 0 108 true false [] false [(1, .pre), (2, .pre), (3, .pre), (4, .pre)],  -- config.parseRole$1 parsecfg.go:600 
+  A 0 108 false false [] false [(2, .mid), (3, .mid), (4, .mid)]  -- config.printCfg config.go:357 
 ]
 
 /-- role.actionNames -/
-def g121 : List Access := [
-  A 0 121 false false [] false [(1, .pre), (2, .pre), (3, .pre), (4, .pre)],  -- config.parseRole$1 parsecfg.go:598 
-  A 0 121 true false [] false [(1, .pre), (2, .pre), (3, .pre), (4, .pre)],  -- config.parseRole$1 parsecfg.go:598 
-  A 0 121 false false [] false [(2, .mid), (3, .mid), (4, .mid)]  -- config.printCfg config.go:356 
+def g109 : List Access := [
+  A 0 109 false false [] false [(1, .pre), (2, .pre), (3, .pre), (4, .pre)],  -- config.parseRole$1 parsecfg.go:598 
+  A 0 109 true false [] false [(1, .pre), (2, .pre), (3, .pre), (4, .pre)],  -- config.parseRole$1 parsecfg.go:598 
+  A 0 109 false false [] false [(2, .mid), (3, .mid), (4, .mid)]  -- config.printCfg config.go:356 
 ]
 
 /-- role.actionNames[] -/
-def g122 : List Access := [
-  A 0 122 true false [] false [(1, .pre), (2, .pre), (3, .pre), (4, .pre)],  -- config.parseRole$1 parsecfg.go:598 
-  A 0 122 false false [] false [(2, .mid), (3, .mid), (4, .mid)],  -- config.printCfg ? 
-  A 0 122 false false [] false [(1, .pre), (2, .pre), (3, .pre), (4, .pre)]  -- role.clone config.go:619 
+def g110 : List Access := [
+  A 0 110 true false [] false [(1, .pre), (2, .pre), (3, .pre), (4, .pre)],  -- config.parseRole$1 parsecfg.go:598 
+  A 0 110 false false [] false [(2, .mid), (3, .mid), (4, .mid)],  -- config.printCfg ? 
+  A 0 110 false false [] false [(1, .pre), (2, .pre), (3, .pre), (4, .pre)]  -- role.clone config.go:619 
 ]
 
 /-- role.cleanupCmd -/
-def g123 : List Access := [
-  A 0 123 false false [] false [(1, .pre), (2, .pre), (3, .pre), (4, .pre)],  -- actor.prepareActionCommands commands.go:295 
-  A 0 123 true false [] false [(1, .pre), (2, .pre), (3, .pre), (4, .pre)],  -- config.parseRole$1 parsecfg.go:604 
-  A 0 123 false false [] false [(2, .mid), (3, .mid), (4, .mid)]  -- config.printCfg config.go:347 
+def g111 : List Access := [
+  A 0 111 false false [] false [(1, .pre), (2, .pre), (3, .pre), (4, .pre)],  -- actor.prepareActionCommands commands.go:295 
+  A 0 111 true false [] false [(1, .pre), (2, .pre), (3, .pre), (4, .pre)],  -- config.parseRole$1 parsecfg.go:604 
+  A 0 111 false false [] false [(2, .mid), (3, .mid), (4, .mid)]  -- config.printCfg config.go:347 
 ]
 
 /-- role.sigNames -/
-def g124 : List Access := [
-  A 0 124 false false [] false [(1, .pre), (2, .pre), (3, .pre), (4, .pre)],  -- config.parseRole parsecfg.go:582 
-  A 0 124 true false [] false [(1, .pre), (2, .pre), (3, .pre), (4, .pre)]  -- config.parseRole$1 parsecfg.go:672 
+def g112 : List Access := [
+  A 0 112 false false [] false [(1, .pre), (2, .pre), (3, .pre), (4, .pre)],  -- config.parseRole parsecfg.go:582 
+  A 0 112 true false [] false [(1, .pre), (2, .pre), (3, .pre), (4, .pre)]  -- config.parseRole$1 parsecfg.go:672 
 ]
 
 /-- role.sigNames[] -/
-def g125 : List Access := [
-  A 0 125 false false [] false [(1, .pre), (2, .pre), (3, .pre), (4, .pre)],  -- config.parseRole ? 
-  A 0 125 true false [] false [(1, .pre), (2, .pre), (3, .pre), (4, .pre)]  -- config.parseRole$1 parsecfg.go:672 
+def g113 : List Access := [
+  A 0 113 false false [] false [(1, .pre), (2, .pre), (3, .pre), (4, .pre)],  -- config.parseRole ? 
+  A 0 113 true false [] false [(1, .pre), (2, .pre), (3, .pre), (4, .pre)]  -- config.parseRole$1 parsecfg.go:672 
 ]
 
 /-- role.sigParsers -/
-def g126 : List Access := [
-  A 15 126 false false [] true [],  -- spotMgr.detectSignals spotlight.go:184 
-  A 0 126 false false [] false [(1, .pre), (2, .pre), (3, .pre), (4, .pre)],  -- config.parseRole$1 parsecfg.go:671 
-  A 0 126 true false [] false [(1, .pre), (2, .pre), (3, .pre), (4, .pre)],  -- config.parseRole$1 parsecfg.go:671 
-  A 0 126 false false [] false [(2, .mid), (3, .mid), (4, .mid)],  -- config.printCfg config.go:353 
-  A 11 126 false false [] true [(14, .mid), (15, .pre), (16, .pre)]  -- spotMgr.detectSignals spotlight.go:184 
+def g114 : List Access := [
+  A 15 114 false false [] true [],  -- spotMgr.detectSignals spotlight.go:184 
+  A 0 114 false false [] false [(1, .pre), (2, .pre), (3, .pre), (4, .pre)],  -- config.parseRole$1 parsecfg.go:671 
+  A 0 114 true false [] false [(1, .pre), (2, .pre), (3, .pre), (4, .pre)],  -- config.parseRole$1 parsecfg.go:671 
+  A 0 114 false false [] false [(2, .mid), (3, .mid), (4, .mid)],  -- config.printCfg config.go:353 
+  A 11 114 false false [] true [(14, .mid), (15, .pre), (16, .pre)]  -- spotMgr.detectSignals spotlight.go:184 
 ]
 
 /-- role.sigParsers[] -/
-def g127 : List Access := [
-  A 15 127 false false [] true [],  -- spotMgr.detectSignals ? 
-  A 0 127 true false [] false [(1, .pre), (2, .pre), (3, .pre), (4, .pre)],  -- config.parseRole$1 parsecfg.go:671 
-  A 0 127 false false [] false [(2, .mid), (3, .mid), (4, .mid)],  -- config.printCfg ? 
-  A 0 127 false false [] false [(1, .pre), (2, .pre), (3, .pre), (4, .pre)],  -- role.clone config.go:620 
-  A 11 127 false false [] true [(14, .mid), (15, .pre), (16, .pre)]  -- spotMgr.detectSignals ? 
+def g115 : List Access := [
+  A 15 115 false false [] true [],  -- spotMgr.detectSignals ? 
+  A 0 115 true false [] false [(1, .pre), (2, .pre), (3, .pre), (4, .pre)],  -- config.parseRole$1 parsecfg.go:671 
+  A 0 115 false false [] false [(2, .mid), (3, .mid), (4, .mid)],  -- config.printCfg ? 
+  A 0 115 false false [] false [(1, .pre), (2, .pre), (3, .pre), (4, .pre)],  -- role.clone config.go:620 
+  A 11 115 false false [] true [(14, .mid), (15, .pre), (16, .pre)]  -- spotMgr.detectSignals ? 
 ]
 
 /-- role.spotlightCmd -/
-def g128 : List Access := [
-  A 0 128 false false [] false [(1, .pre), (2, .pre), (3, .pre), (4, .pre)],  -- actor.prepareActionCommands commands.go:288 
-  A 0 128 true false [] false [(1, .pre), (2, .pre), (3, .pre), (4, .pre)],  -- config.parseRole$1 parsecfg.go:602 
-  A 0 128 false false [] false [(2, .mid), (3, .mid), (4, .mid)],  -- config.printCfg config.go:350 
-  A 6 128 false false [] true [(11, .mid)]  -- spotMgr.manageSpotlights spotlight.go:65 
+def g116 : List Access := [
+  A 0 116 false false [] false [(1, .pre), (2, .pre), (3, .pre), (4, .pre)],  -- actor.prepareActionCommands commands.go:288 
+  A 0 116 true false [] false [(1, .pre), (2, .pre), (3, .pre), (4, .pre)],  -- config.parseRole$1 parsecfg.go:602 
+  A 0 116 false false [] false [(2, .mid), (3, .mid), (4, .mid)],  -- config.printCfg config.go:350 
+  A 6 116 false false [] true [(11, .mid)]  -- spotMgr.manageSpotlights spotlight.go:65 
 ]
 
 /-- scene.concurrentLines -/
-def g129 : List Access := [
-  A 0 129 false false [] false [(1, .pre), (2, .pre), (3, .pre), (4, .pre)],  -- config.compileV2 compile.go:60 
-  A 0 129 true false [] false [(1, .pre), (2, .pre), (3, .pre), (4, .pre)],  -- config.compileV2 compile.go:60 
-  A 0 129 false false [] false [(2, .mid), (3, .mid), (4, .mid)],  -- config.printSteps ? 
-  A 5 129 false false [] true []  -- prompter.prompt ? 
+def g117 : List Access := [
+  A 0 117 false false [] false [(1, .pre), (2, .pre), (3, .pre), (4, .pre)],  -- config.compileV2 compile.go:60 
+  A 0 117 true false [] false [(1, .pre), (2, .pre), (3, .pre), (4, .pre)],  -- config.compileV2 compile.go:60 
+  A 0 117 false false [] false [(2, .mid), (3, .mid), (4, .mid)],  -- config.printSteps ? 
+  A 5 117 false false [] true []  -- prompter.prompt ? 
 ]
 
 /-- scene.concurrentLines[] -/
-def g130 : List Access := [
-  A 0 130 true false [] false [(1, .pre), (2, .pre), (3, .pre), (4, .pre)]  -- config.compileV2 compile.go:60 
+def g118 : List Access := [
+  A 0 118 true false [] false [(1, .pre), (2, .pre), (3, .pre), (4, .pre)]  -- config.compileV2 compile.go:60 
 ]
 
 /-- scene.waitUntil -/
-def g131 : List Access := [
-  A 0 131 true false [] false [(1, .pre), (2, .pre), (3, .pre), (4, .pre)],  -- config.compileV2 compile.go:97 
-  A 0 131 false false [] false [(1, .pre), (2, .pre), (3, .pre), (4, .pre)],  -- config.compileV2 compile.go:106 
-  A 0 131 false false [] false [(2, .mid), (3, .mid), (4, .mid)],  -- config.printSteps ? 
-  A 5 131 false false [] true []  -- prompter.prompt ? 
+def g119 : List Access := [
+  A 0 119 true false [] false [(1, .pre), (2, .pre), (3, .pre), (4, .pre)],  -- config.compileV2 compile.go:97 
+  A 0 119 false false [] false [(1, .pre), (2, .pre), (3, .pre), (4, .pre)],  -- config.compileV2 compile.go:106 
+  A 0 119 false false [] false [(2, .mid), (3, .mid), (4, .mid)],  -- config.printSteps ? 
+  A 5 119 false false [] true []  -- prompter.prompt ? 
 ]
 
 /-- scriptLine.steps -/
-def g132 : List Access := [
-  A 0 132 false false [] false [(1, .pre), (2, .pre), (3, .pre), (4, .pre)],  -- config.compileV2 compile.go:72 
-  A 0 132 true false [] false [(1, .pre), (2, .pre), (3, .pre), (4, .pre)],  -- config.compileV2 compile.go:69 
-  A 0 132 false false [] false [(2, .mid), (3, .mid), (4, .mid)],  -- config.printSteps ? 
-  A 5 132 false false [] true [(10, .mid)]  -- prompter.runScene ? 
+def g120 : List Access := [
+  A 0 120 false false [] false [(1, .pre), (2, .pre), (3, .pre), (4, .pre)],  -- config.compileV2 compile.go:72 
+  A 0 120 true false [] false [(1, .pre), (2, .pre), (3, .pre), (4, .pre)],  -- config.compileV2 compile.go:69 
+  A 0 120 false false [] false [(2, .mid), (3, .mid), (4, .mid)],  -- config.printSteps ? 
+  A 5 120 false false [] true [(10, .mid)]  -- prompter.runScene ? 
 ]
 
 /-- scriptLine.steps[] -/
-def g133 : List Access := [
-  A 0 133 true false [] false [(1, .pre), (2, .pre), (3, .pre), (4, .pre)]  -- config.compileV2 compile.go:69 
+def g121 : List Access := [
+  A 0 121 true false [] false [(1, .pre), (2, .pre), (3, .pre), (4, .pre)]  -- config.compileV2 compile.go:69 
 ]
 
 /-- sigEvent.values -/
-def g134 : List Access := [
-  A 15 134 false false [] true [],  -- spotMgr.detectSignals spotlight.go:261 
-  A 15 134 true false [] true [],  -- spotMgr.detectSignals spotlight.go:261 
-  A 8 134 false false [] true [],  -- audition.audit audit.go:230 
-  A 11 134 false false [] true [(14, .mid), (15, .pre), (16, .pre)],  -- spotMgr.detectSignals spotlight.go:261 
-  A 11 134 true false [] true [(14, .mid), (15, .pre), (16, .pre)]  -- spotMgr.detectSignals spotlight.go:261 
+def g122 : List Access := [
+  A 15 122 false false [] true [],  -- spotMgr.detectSignals spotlight.go:261 
+  A 15 122 true false [] true [],  -- spotMgr.detectSignals spotlight.go:261 
+  A 8 122 false false [] true [],  -- audition.audit audit.go:230 
+  A 11 122 false false [] true [(14, .mid), (15, .pre), (16, .pre)],  -- spotMgr.detectSignals spotlight.go:261 
+  A 11 122 true false [] true [(14, .mid), (15, .pre), (16, .pre)]  -- spotMgr.detectSignals spotlight.go:261 
 ]
 
 /-- sigEvent.values[] -/
-def g135 : List Access := [
-  A 15 135 true false [] true [],  -- spotMgr.detectSignals spotlight.go:261 
-  A 11 135 true false [] true [(14, .mid), (15, .pre), (16, .pre)]  -- spotMgr.detectSignals spotlight.go:261 
+def g123 : List Access := [
+  A 15 123 true false [] true [],  -- spotMgr.detectSignals spotlight.go:261 
+  A 11 123 true false [] true [(14, .mid), (15, .pre), (16, .pre)]  -- spotMgr.detectSignals spotlight.go:261 
 ]
 
 /-- sink.lastVal -/
-def g136 : List Access := [
-  A 15 136 false false [] true [],  -- spotMgr.detectSignals spotlight.go:256 
-  A 15 136 true false [] true [],  -- spotMgr.detectSignals spotlight.go:257 
-  A 11 136 false false [] true [(14, .mid), (15, .pre), (16, .pre)],  -- spotMgr.detectSignals spotlight.go:256 
-  A 11 136 true false [] true [(14, .mid), (15, .pre), (16, .pre)]  -- spotMgr.detectSignals spotlight.go:257 
+def g124 : List Access := [
+  A 15 124 false false [] true [],  -- spotMgr.detectSignals spotlight.go:256 
+  A 15 124 true false [] true [],  -- spotMgr.detectSignals spotlight.go:257 
+  A 11 124 false false [] true [(14, .mid), (15, .pre), (16, .pre)],  -- spotMgr.detectSignals spotlight.go:256 
+  A 11 124 true false [] true [(14, .mid), (15, .pre), (16, .pre)]  -- spotMgr.detectSignals spotlight.go:257 
 ]
 
 /-- subreader.lineno -/
-def g137 : List Access := [
-  A 0 137 false false [] false [(1, .pre), (2, .pre), (3, .pre), (4, .pre)],  -- pos.wrapErr reader.go:175 
-  A 0 137 true false [] false [(1, .pre), (2, .pre), (3, .pre), (4, .pre)]  -- subreader.readLine reader.go:205 
+def g125 : List Access := [
+  A 0 125 false false [] false [(1, .pre), (2, .pre), (3, .pre), (4, .pre)],  -- pos.wrapErr reader.go:175 
+  A 0 125 true false [] false [(1, .pre), (2, .pre), (3, .pre), (4, .pre)]  -- subreader.readLine reader.go:205 
 ]
 
 /-- subreader.lines -/
-def g138 : List Access := [
-  A 0 138 false false [] false [(1, .pre), (2, .pre), (3, .pre), (4, .pre)],  -- pos.wrapErr reader.go:150 
-  A 0 138 true false [] false [(1, .pre), (2, .pre), (3, .pre), (4, .pre)]  -- subreader.readLine reader.go:201 
+def g126 : List Access := [
+  A 0 126 false false [] false [(1, .pre), (2, .pre), (3, .pre), (4, .pre)],  -- pos.wrapErr reader.go:150 
+  A 0 126 true false [] false [(1, .pre), (2, .pre), (3, .pre), (4, .pre)]  -- subreader.readLine reader.go:201 
 ]
 
 /-- subreader.lines[] -/
-def g139 : List Access := [
-  A 0 139 false false [] false [(1, .pre), (2, .pre), (3, .pre), (4, .pre)],  -- pos.wrapErr reader.go:154 
-  A 0 139 true false [] false [(1, .pre), (2, .pre), (3, .pre), (4, .pre)]  -- subreader.readLine reader.go:201 
+def g127 : List Access := [
+  A 0 127 false false [] false [(1, .pre), (2, .pre), (3, .pre), (4, .pre)],  -- pos.wrapErr reader.go:154 
+  A 0 127 true false [] false [(1, .pre), (2, .pre), (3, .pre), (4, .pre)]  -- subreader.readLine reader.go:201 
 ]
 
 /-- subreader.parent -/
-def g140 : List Access := [
-  A 0 140 false false [] false [(1, .pre), (2, .pre), (3, .pre), (4, .pre)],  -- pos.wrapErr reader.go:170 
-  A 0 140 true false [] false [(1, .pre), (2, .pre), (3, .pre), (4, .pre)]  -- subreader.readLine reader.go:258 
+def g128 : List Access := [
+  A 0 128 false false [] false [(1, .pre), (2, .pre), (3, .pre), (4, .pre)],  -- pos.wrapErr reader.go:170 
+  A 0 128 true false [] false [(1, .pre), (2, .pre), (3, .pre), (4, .pre)]  -- subreader.readLine reader.go:258 
 ]
 
 /-- timeutil.Timer.Read -/
-def g141 : List Access := [
-  A 7 141 true false [] true []  -- collector.collect collector.go:177 
+def g129 : List Access := [
+  A 7 129 true false [] true []  -- collector.collect collector.go:177 
 ]
 
 /-- var actionDefRe -/
-def g142 : List Access := [
-  A 0 142 false false [] false [(1, .pre), (2, .pre), (3, .pre), (4, .pre)],  -- config.parseRole$1 parsecfg.go:589 
-  A 0 142 true false [] false [(1, .pre), (2, .pre), (3, .pre), (4, .pre)]  -- init parsecfg.go:555 
+def g130 : List Access := [
+  A 0 130 false false [] false [(1, .pre), (2, .pre), (3, .pre), (4, .pre)],  -- config.parseRole$1 parsecfg.go:589 
+  A 0 130 true false [] false [(1, .pre), (2, .pre), (3, .pre), (4, .pre)]  -- init parsecfg.go:555 
 ]
 
 /-- var activeRe -/
-def g143 : List Access := [
-  A 0 143 true false [] false [(1, .pre), (2, .pre), (3, .pre), (4, .pre)]  -- init parsecfg.go:236 
+def g131 : List Access := [
+  A 0 131 true false [] false [(1, .pre), (2, .pre), (3, .pre), (4, .pre)]  -- init parsecfg.go:236 
 ]
 
 /-- var actorDefRe -/
-def g144 : List Access := [
-  A 0 144 true false [] false [(1, .pre), (2, .pre), (3, .pre), (4, .pre)]  -- init parsecfg.go:713 
+def g132 : List Access := [
+  A 0 132 true false [] false [(1, .pre), (2, .pre), (3, .pre), (4, .pre)]  -- init parsecfg.go:713 
 ]
 
 /-- var actorsRe -/
-def g145 : List Access := [
-  A 0 145 false false [] false [(1, .pre), (2, .pre), (3, .pre), (4, .pre)],  -- config.parseCfg parsecfg.go:25 
-  A 0 145 true false [] false [(1, .pre), (2, .pre), (3, .pre), (4, .pre)]  -- init parsecfg.go:712 
+def g133 : List Access := [
+  A 0 133 false false [] false [(1, .pre), (2, .pre), (3, .pre), (4, .pre)],  -- config.parseCfg parsecfg.go:25 
+  A 0 133 true false [] false [(1, .pre), (2, .pre), (3, .pre), (4, .pre)]  -- init parsecfg.go:712 
 ]
 
 /-- var adjList -/
-def g146 : List Access := [
-  A 0 146 false false [] false [(1, .post), (2, .mid), (3, .mid), (4, .mid)],  -- GenName namegen.go:12 
-  A 0 146 true false [] false [(1, .pre), (2, .pre), (3, .pre), (4, .pre)]  -- init words.go:1120 
+def g134 : List Access := [
+  A 0 134 false false [] false [(1, .post), (2, .mid), (3, .mid), (4, .mid)],  -- GenName namegen.go:12 
+  A 0 134 true false [] false [(1, .pre), (2, .pre), (3, .pre), (4, .pre)]  -- init words.go:1120 
 ]
 
 /-- var advList -/
-def g147 : List Access := [
-  A 0 147 false false [] false [(1, .post), (2, .mid), (3, .mid), (4, .mid)],  -- GenName namegen.go:13 
-  A 0 147 true false [] false [(1, .pre), (2, .pre), (3, .pre), (4, .pre)]  -- init words.go:3 
+def g135 : List Access := [
+  A 0 135 false false [] false [(1, .post), (2, .mid), (3, .mid), (4, .mid)],  -- GenName namegen.go:13 
+  A 0 135 true false [] false [(1, .pre), (2, .pre), (3, .pre), (4, .pre)]  -- init words.go:3 
 ]
 
 /-- var audienceRe -/
-def g148 : List Access := [
-  A 0 148 false false [] false [(1, .pre), (2, .pre), (3, .pre), (4, .pre)],  -- config.parseCfg parsecfg.go:27 
-  A 0 148 true false [] false [(1, .pre), (2, .pre), (3, .pre), (4, .pre)]  -- init parsecfg.go:232 
+def g136 : List Access := [
+  A 0 136 false false [] false [(1, .pre), (2, .pre), (3, .pre), (4, .pre)],  -- config.parseCfg parsecfg.go:27 
+  A 0 136 true false [] false [(1, .pre), (2, .pre), (3, .pre), (4, .pre)]  -- init parsecfg.go:232 
 ]
 
 /-- var automata -/
-def g149 : List Access := [
-  A 0 149 true false [] false [(1, .pre), (2, .pre), (3, .pre), (4, .pre)]  -- init pred_fsm.go:48 
+def g137 : List Access := [
+  A 0 137 true false [] false [(1, .pre), (2, .pre), (3, .pre), (4, .pre)]  -- init pred_fsm.go:48 
 ]
 
 /-- var cleanupDefRe -/
-def g150 : List Access := [
-  A 0 150 false false [] false [(1, .pre), (2, .pre), (3, .pre), (4, .pre)],  -- config.parseRole$1 parsecfg.go:603 
-  A 0 150 true false [] false [(1, .pre), (2, .pre), (3, .pre), (4, .pre)]  -- init parsecfg.go:557 
+def g138 : List Access := [
+  A 0 138 false false [] false [(1, .pre), (2, .pre), (3, .pre), (4, .pre)],  -- config.parseRole$1 parsecfg.go:603 
+  A 0 138 true false [] false [(1, .pre), (2, .pre), (3, .pre), (4, .pre)]  -- init parsecfg.go:557 
 ]
 
 /-- var collectFns -/
-def g151 : List Access := [
-  A 8 151 false false [] true [],  -- audition.processAssignments audit.go:505 
-  A 0 151 true false [] false [(1, .pre), (2, .pre), (3, .pre), (4, .pre)]  -- init functions.go:270 
+def g139 : List Access := [
+  A 8 139 false false [] true [],  -- audition.processAssignments audit.go:505 
+  A 0 139 true false [] false [(1, .pre), (2, .pre), (3, .pre), (4, .pre)]  -- init functions.go:270 
 ]
 
 /-- var collectsRe -/
-def g152 : List Access := [
-  A 0 152 true false [] false [(1, .pre), (2, .pre), (3, .pre), (4, .pre)]  -- init parsecfg.go:237 
+def g140 : List Access := [
+  A 0 140 true false [] false [(1, .pre), (2, .pre), (3, .pre), (4, .pre)]  -- init parsecfg.go:237 
 ]
 
 /-- var computesRe -/
-def g153 : List Access := [
-  A 0 153 true false [] false [(1, .pre), (2, .pre), (3, .pre), (4, .pre)]  -- init parsecfg.go:238 
+def g141 : List Access := [
+  A 0 141 true false [] false [(1, .pre), (2, .pre), (3, .pre), (4, .pre)]  -- init parsecfg.go:238 
 ]
 
 /-- var editRe -/
-def g154 : List Access := [
-  A 0 154 true false [] false [(1, .pre), (2, .pre), (3, .pre), (4, .pre)]  -- init parsecfg.go:823 
+def g142 : List Access := [
+  A 0 142 true false [] false [(1, .pre), (2, .pre), (3, .pre), (4, .pre)]  -- init parsecfg.go:823 
 ]
 
 /-- var entailsRe -/
-def g155 : List Access := [
-  A 0 155 true false [] false [(1, .pre), (2, .pre), (3, .pre), (4, .pre)]  -- init parsecfg.go:820 
+def g143 : List Access := [
+  A 0 143 true false [] false [(1, .pre), (2, .pre), (3, .pre), (4, .pre)]  -- init parsecfg.go:820 
 ]
 
 /-- var errAuditViolation -/
-def g156 : List Access := [
-  A 1 156 false false [] true [(5, .post), (6, .post), (7, .post), (8, .post)],  -- app.conduct$3 conductor.go:49 
-  A 7 156 false false [] true [],  -- collector.checkAuditViolations collector.go:260 
-  A 0 156 true false [] false [(1, .pre), (2, .pre), (3, .pre), (4, .pre)]  -- init collector.go:213 
+def g144 : List Access := [
+  A 1 144 false false [] true [(5, .post), (6, .post), (7, .post), (8, .post)],  -- app.conduct$3 conductor.go:49 
+  A 7 144 false false [] true [],  -- collector.checkAuditViolations collector.go:260 
+  A 0 144 true false [] false [(1, .pre), (2, .pre), (3, .pre), (4, .pre)]  -- init collector.go:213 
 ]
 
 /-- var errInterrupted -/
-def g157 : List Access := [
-  A 0 157 false false [] false [(1, .mid), (2, .pre), (3, .mid), (4, .mid)],  -- app.runConduct run.go:312 
-  A 0 157 false false [] false [(1, .post), (2, .mid), (3, .mid), (4, .mid)],  -- config.run$3 run.go:178 
-  A 0 157 true false [] false [(1, .pre), (2, .pre), (3, .pre), (4, .pre)]  -- init run.go:386 
+def g145 : List Access := [
+  A 0 145 false false [] false [(1, .mid), (2, .pre), (3, .mid), (4, .mid)],  -- app.runConduct run.go:316 
+  A 0 145 false false [] false [(1, .post), (2, .mid), (3, .mid), (4, .mid)],  -- config.run$3 run.go:178 
+  A 0 145 true false [] false [(1, .pre), (2, .pre), (3, .pre), (4, .pre)]  -- init run.go:390 
 ]
 
 /-- var evalFunctions -/
-def g158 : List Access := [
-  A 0 158 true false [] false [(1, .pre), (2, .pre), (3, .pre), (4, .pre)],  -- init functions.go:30 
-  A 0 158 false false [] false [(1, .pre), (2, .pre), (3, .pre), (4, .pre)]  -- init#1 functions.go:263 
+def g146 : List Access := [
+  A 0 146 true false [] false [(1, .pre), (2, .pre), (3, .pre), (4, .pre)],  -- init functions.go:30 
+  A 0 146 false false [] false [(1, .pre), (2, .pre), (3, .pre), (4, .pre)]  -- init#1 functions.go:263 
 ]
 
 /-- var evalFunctions[] -/
-def g159 : List Access := [
-  A 0 159 false false [] false [(1, .pre), (2, .pre), (3, .pre), (4, .pre)],  -- init#1 functions.go:263 
-  A 0 159 true false [] false [(1, .pre), (2, .pre), (3, .pre), (4, .pre)]  -- init#1 functions.go:263 
+def g147 : List Access := [
+  A 0 147 false false [] false [(1, .pre), (2, .pre), (3, .pre), (4, .pre)],  -- init#1 functions.go:263 
+  A 0 147 true false [] false [(1, .pre), (2, .pre), (3, .pre), (4, .pre)]  -- init#1 functions.go:263 
 ]
 
 /-- var expectsRe -/
-def g160 : List Access := [
-  A 0 160 true false [] false [(1, .pre), (2, .pre), (3, .pre), (4, .pre)]  -- init parsecfg.go:239 
+def g148 : List Access := [
+  A 0 148 true false [] false [(1, .pre), (2, .pre), (3, .pre), (4, .pre)]  -- init parsecfg.go:239 
 ]
 
 /-- var expectsSameRe -/
-def g161 : List Access := [
-  A 0 161 true false [] false [(1, .pre), (2, .pre), (3, .pre), (4, .pre)]  -- init parsecfg.go:240 
+def g149 : List Access := [
+  A 0 149 true false [] false [(1, .pre), (2, .pre), (3, .pre), (4, .pre)]  -- init parsecfg.go:240 
 ]
 
 /-- var foulRe -/
-def g162 : List Access := [
-  A 0 162 true false [] false [(1, .pre), (2, .pre), (3, .pre), (4, .pre)]  -- init parsecfg.go:169 
+def g150 : List Access := [
+  A 0 150 true false [] false [(1, .pre), (2, .pre), (3, .pre), (4, .pre)]  -- init parsecfg.go:169 
 ]
 
 /-- var identRe -/
-def g163 : List Access := [
-  A 0 163 false false [] false [(1, .pre), (2, .pre), (3, .pre), (4, .pre)],  -- checkIdent parsecfg.go:1072 
-  A 0 163 true false [] false [(1, .pre), (2, .pre), (3, .pre), (4, .pre)]  -- init parsecfg.go:1084 
+def g151 : List Access := [
+  A 0 151 false false [] false [(1, .pre), (2, .pre), (3, .pre), (4, .pre)],  -- checkIdent parsecfg.go:1072 
+  A 0 151 true false [] false [(1, .pre), (2, .pre), (3, .pre), (4, .pre)]  -- init parsecfg.go:1084 
 ]
 
 /-- var ignoreRe -/
-def g164 : List Access := [
-  A 0 164 true false [] false [(1, .pre), (2, .pre), (3, .pre), (4, .pre)]  -- init parsecfg.go:168 
+def g152 : List Access := [
+  A 0 152 true false [] false [(1, .pre), (2, .pre), (3, .pre), (4, .pre)]  -- init parsecfg.go:168 
 ]
 
 /-- var init$guard -/
-def g165 : List Access := [
-  A 0 165 false false [] false [(1, .pre), (2, .pre), (3, .pre), (4, .pre)],  -- init ? 
-  A 0 165 true false [] false [(1, .pre), (2, .pre), (3, .pre), (4, .pre)]  -- init ? 
+def g153 : List Access := [
+  A 0 153 false false [] false [(1, .pre), (2, .pre), (3, .pre), (4, .pre)],  -- init ? 
+  A 0 153 true false [] false [(1, .pre), (2, .pre), (3, .pre), (4, .pre)]  -- init ? 
 ]
 
 /-- var interpretationRe -/
-def g166 : List Access := [
-  A 0 166 false false [] false [(1, .pre), (2, .pre), (3, .pre), (4, .pre)],  -- config.parseCfg parsecfg.go:28 
-  A 0 166 true false [] false [(1, .pre), (2, .pre), (3, .pre), (4, .pre)]  -- init parsecfg.go:167 
+def g154 : List Access := [
+  A 0 154 false false [] false [(1, .pre), (2, .pre), (3, .pre), (4, .pre)],  -- config.parseCfg parsecfg.go:28 
+  A 0 154 true false [] false [(1, .pre), (2, .pre), (3, .pre), (4, .pre)]  -- init parsecfg.go:167 
 ]
 
 /-- var measuresRe -/
-def g167 : List Access := [
-  A 0 167 true false [] false [(1, .pre), (2, .pre), (3, .pre), (4, .pre)]  -- init parsecfg.go:235 
+def g155 : List Access := [
+  A 0 155 true false [] false [(1, .pre), (2, .pre), (3, .pre), (4, .pre)]  -- init parsecfg.go:235 
 ]
 
 /-- var moodChangeRe -/
-def g168 : List Access := [
-  A 0 168 true false [] false [(1, .pre), (2, .pre), (3, .pre), (4, .pre)]  -- init parsecfg.go:821 
+def g156 : List Access := [
+  A 0 156 true false [] false [(1, .pre), (2, .pre), (3, .pre), (4, .pre)]  -- init parsecfg.go:821 
 ]
 
 /-- var narratorCtx -/
-def g169 : List Access := [
-  A 7 169 false false [] true [],  -- app.narrate app.go:146 
-  A 0 169 false false [] false [(1, .mid), (2, .mid), (3, .mid), (4, .mid)],  -- app.narrate app.go:146 
-  A 0 169 true false [] false [(1, .pre), (2, .pre), (3, .pre), (4, .pre)],  -- init app.go:143 
-  A 10 169 false false [] true [(13, .mid), (14, .mid)],  -- app.narrate app.go:146 
-  A 5 169 false false [] true [(10, .mid)],  -- app.narrate app.go:146 
-  A 11 169 false false [] true [(14, .mid), (15, .post), (16, .mid)]  -- app.narrate app.go:146 
+def g157 : List Access := [
+  A 7 157 false false [] true [],  -- app.narrate app.go:146 
+  A 0 157 false false [] false [(1, .mid), (2, .mid), (3, .mid), (4, .mid)],  -- app.narrate app.go:146 
+  A 0 157 true false [] false [(1, .pre), (2, .pre), (3, .pre), (4, .pre)],  -- init app.go:143 
+  A 10 157 false false [] true [(13, .mid), (14, .mid)],  -- app.narrate app.go:146 
+  A 5 157 false false [] true [(10, .mid)],  -- app.narrate app.go:146 
+  A 11 157 false false [] true [(14, .mid), (15, .post), (16, .mid)]  -- app.narrate app.go:146 
 ]
 
 /-- var noPlotRe -/
-def g170 : List Access := [
-  A 0 170 true false [] false [(1, .pre), (2, .pre), (3, .pre), (4, .pre)]  -- init parsecfg.go:241 
+def g158 : List Access := [
+  A 0 158 true false [] false [(1, .pre), (2, .pre), (3, .pre), (4, .pre)]  -- init parsecfg.go:241 
 ]
 
 /-- var nounsList -/
-def g171 : List Access := [
-  A 0 171 false false [] false [(1, .post), (2, .mid), (3, .mid), (4, .mid)],  -- GenName namegen.go:11 
-  A 0 171 true false [] false [(1, .pre), (2, .pre), (3, .pre), (4, .pre)]  -- init words.go:119 
+def g159 : List Access := [
+  A 0 159 false false [] false [(1, .post), (2, .mid), (3, .mid), (4, .mid)],  -- GenName namegen.go:11 
+  A 0 159 true false [] false [(1, .pre), (2, .pre), (3, .pre), (4, .pre)]  -- init words.go:119 
 ]
 
 /-- var paramRe -/
-def g172 : List Access := [
-  A 0 172 false false [] false [(1, .pre), (2, .pre), (3, .pre), (4, .pre)],  -- config.parseCfg parsecfg.go:53 
-  A 0 172 true false [] false [(1, .pre), (2, .pre), (3, .pre), (4, .pre)]  -- init parsecfg.go:144 
+def g160 : List Access := [
+  A 0 160 false false [] false [(1, .pre), (2, .pre), (3, .pre), (4, .pre)],  -- config.parseCfg parsecfg.go:53 
+  A 0 160 true false [] false [(1, .pre), (2, .pre), (3, .pre), (4, .pre)]  -- init parsecfg.go:144 
 ]
 
 /-- var parseDefRe -/
-def g173 : List Access := [
-  A 0 173 false false [] false [(1, .pre), (2, .pre), (3, .pre), (4, .pre)],  -- config.parseRole$1 parsecfg.go:605 
-  A 0 173 true false [] false [(1, .pre), (2, .pre), (3, .pre), (4, .pre)]  -- init parsecfg.go:558 
+def g161 : List Access := [
+  A 0 161 false false [] false [(1, .pre), (2, .pre), (3, .pre), (4, .pre)],  -- config.parseRole$1 parsecfg.go:605 
+  A 0 161 true false [] false [(1, .pre), (2, .pre), (3, .pre), (4, .pre)]  -- init parsecfg.go:558 
 ]
 
 /-- var preprocRe -/
-def g174 : List Access := [
-  A 0 174 false false [] false [(1, .pre), (2, .pre), (3, .pre), (4, .pre)],  -- config.preprocReplace parsecfg.go:1144 
-  A 0 174 true false [] false [(1, .pre), (2, .pre), (3, .pre), (4, .pre)]  -- init parsecfg.go:1139 
+def g162 : List Access := [
+  A 0 162 false false [] false [(1, .pre), (2, .pre), (3, .pre), (4, .pre)],  -- config.preprocReplace parsecfg.go:1144 
+  A 0 162 true false [] false [(1, .pre), (2, .pre), (3, .pre), (4, .pre)]  -- init parsecfg.go:1139 
 ]
 
 /-- var registry -/
-def g175 : List Access := [
-  A 1 175 false false [] true [(5, .mid), (6, .mid), (7, .mid), (8, .mid), (9, .mid)],  -- runWorker workers.go:83 
-  A 1 175 false false [] false [],  -- runWorker$1 workers.go:89 
-  A 2 175 false false [] false [],  -- showRunning workers.go:68 
-  A 9 175 false false [] true [(12, .pre), (13, .pre), (14, .mid)],  -- runWorker workers.go:83 
-  A 9 175 false false [] false [(13, .mid), (14, .mid)],  -- runWorker$1 workers.go:89 
-  A 8 175 false false [] false [],  -- runWorker$1 workers.go:89 
-  A 7 175 false false [] false [],  -- runWorker$1 workers.go:89 
-  A 0 175 true false [] false [(1, .pre), (2, .pre), (3, .pre), (4, .pre)],  -- init workers.go:38 
-  A 0 175 false false [] false [(1, .mid), (2, .pre), (3, .pre), (4, .mid)],  -- runWorker workers.go:83 
-  A 0 175 false false [] false [(1, .mid), (2, .pre), (3, .mid), (4, .mid)],  -- showRunning workers.go:68 
-  A 10 175 false false [] true [(13, .mid), (14, .mid)],  -- runWorker workers.go:83 
-  A 5 175 false false [] false [],  -- runWorker$1 workers.go:89 
-  A 14 175 false false [] false [],  -- runWorker$1 workers.go:89 
-  A 11 175 false false [] true [(14, .mid), (15, .pre), (16, .pre)],  -- runWorker workers.go:83 
-  A 11 175 false false [] false [(14, .mid), (16, .mid)],  -- runWorker$1 workers.go:89 
-  A 6 175 false false [] true [(11, .mid)],  -- runWorker workers.go:83 
-  A 6 175 false false [] false []  -- runWorker$1 workers.go:89 
+def g163 : List Access := [
+  A 1 163 false false [] true [(5, .mid), (6, .mid), (7, .mid), (8, .mid), (9, .mid)],  -- runWorker workers.go:83 
+  A 1 163 false false [] false [],  -- runWorker$1 workers.go:89 
+  A 2 163 false false [] false [],  -- showRunning workers.go:68 
+  A 9 163 false false [] true [(12, .pre), (13, .pre), (14, .mid)],  -- runWorker workers.go:83 
+  A 9 163 false false [] false [(13, .mid), (14, .mid)],  -- runWorker$1 workers.go:89 
+  A 8 163 false false [] false [],  -- runWorker$1 workers.go:89 
+  A 7 163 false false [] false [],  -- runWorker$1 workers.go:89 
+  A 0 163 true false [] false [(1, .pre), (2, .pre), (3, .pre), (4, .pre)],  -- init workers.go:38 
+  A 0 163 false false [] false [(1, .mid), (2, .pre), (3, .pre), (4, .mid)],  -- runWorker workers.go:83 
+  A 0 163 false false [] false [(1, .mid), (2, .pre), (3, .mid), (4, .mid)],  -- showRunning workers.go:68 
+  A 10 163 false false [] true [(13, .mid), (14, .mid)],  -- runWorker workers.go:83 
+  A 5 163 false false [] false [],  -- runWorker$1 workers.go:89 
+  A 14 163 false false [] false [],  -- runWorker$1 workers.go:89 
+  A 11 163 false false [] true [(14, .mid), (15, .pre), (16, .pre)],  -- runWorker workers.go:83 
+  A 11 163 false false [] false [(14, .mid), (16, .mid)],  -- runWorker$1 workers.go:89 
+  A 6 163 false false [] true [(11, .mid)],  -- runWorker workers.go:83 
+  A 6 163 false false [] false []  -- runWorker$1 workers.go:89 
 ]
 
 /-- var repeatAlwaysRe -/
-def g176 : List Access := [
-  A 0 176 true false [] false [(1, .pre), (2, .pre), (3, .pre), (4, .pre)]  -- init parsecfg.go:816 
+def g164 : List Access := [
+  A 0 164 true false [] false [(1, .pre), (2, .pre), (3, .pre), (4, .pre)]  -- init parsecfg.go:816 
 ]
 
 /-- var repeatCountRe -/
-def g177 : List Access := [
-  A 0 177 true false [] false [(1, .pre), (2, .pre), (3, .pre), (4, .pre)]  -- init parsecfg.go:815 
+def g165 : List Access := [
+  A 0 165 true false [] false [(1, .pre), (2, .pre), (3, .pre), (4, .pre)]  -- init parsecfg.go:815 
 ]
 
 /-- var repeatRe -/
-def g178 : List Access := [
-  A 0 178 true false [] false [(1, .pre), (2, .pre), (3, .pre), (4, .pre)]  -- init parsecfg.go:824 
+def g166 : List Access := [
+  A 0 166 true false [] false [(1, .pre), (2, .pre), (3, .pre), (4, .pre)]  -- init parsecfg.go:824 
 ]
 
 /-- var repeatTimeoutRe -/
-def g179 : List Access := [
-  A 0 179 true false [] false [(1, .pre), (2, .pre), (3, .pre), (4, .pre)]  -- init parsecfg.go:817 
+def g167 : List Access := [
+  A 0 167 true false [] false [(1, .pre), (2, .pre), (3, .pre), (4, .pre)]  -- init parsecfg.go:817 
 ]
 
 /-- var roleRe -/
-def g180 : List Access := [
-  A 0 180 false false [] false [(1, .pre), (2, .pre), (3, .pre), (4, .pre)],  -- config.parseCfg parsecfg.go:63 
-  A 0 180 true false [] false [(1, .pre), (2, .pre), (3, .pre), (4, .pre)]  -- init parsecfg.go:554 
+def g168 : List Access := [
+  A 0 168 false false [] false [(1, .pre), (2, .pre), (3, .pre), (4, .pre)],  -- config.parseCfg parsecfg.go:63 
+  A 0 168 true false [] false [(1, .pre), (2, .pre), (3, .pre), (4, .pre)]  -- init parsecfg.go:554 
 ]
 
 /-- var scriptRe -/
-def g181 : List Access := [
-  A 0 181 false false [] false [(1, .pre), (2, .pre), (3, .pre), (4, .pre)],  -- config.parseCfg parsecfg.go:26 
-  A 0 181 true false [] false [(1, .pre), (2, .pre), (3, .pre), (4, .pre)]  -- init parsecfg.go:813 
+def g169 : List Access := [
+  A 0 169 false false [] false [(1, .pre), (2, .pre), (3, .pre), (4, .pre)],  -- config.parseCfg parsecfg.go:26 
+  A 0 169 true false [] false [(1, .pre), (2, .pre), (3, .pre), (4, .pre)]  -- init parsecfg.go:813 
 ]
 
 /-- var spotlightDefRe -/
-def g182 : List Access := [
-  A 0 182 false false [] false [(1, .pre), (2, .pre), (3, .pre), (4, .pre)],  -- config.parseRole$1 parsecfg.go:601 
-  A 0 182 true false [] false [(1, .pre), (2, .pre), (3, .pre), (4, .pre)]  -- init parsecfg.go:556 
+def g170 : List Access := [
+  A 0 170 false false [] false [(1, .pre), (2, .pre), (3, .pre), (4, .pre)],  -- config.parseRole$1 parsecfg.go:601 
+  A 0 170 true false [] false [(1, .pre), (2, .pre), (3, .pre), (4, .pre)]  -- init parsecfg.go:556 
 ]
 
 /-- var storyLineRe -/
-def g183 : List Access := [
-  A 0 183 true false [] false [(1, .pre), (2, .pre), (3, .pre), (4, .pre)]  -- init parsecfg.go:822 
+def g171 : List Access := [
+  A 0 171 true false [] false [(1, .pre), (2, .pre), (3, .pre), (4, .pre)]  -- init parsecfg.go:822 
 ]
 
 /-- var tempoRe -/
-def g184 : List Access := [
-  A 0 184 true false [] false [(1, .pre), (2, .pre), (3, .pre), (4, .pre)]  -- init parsecfg.go:814 
+def g172 : List Access := [
+  A 0 172 true false [] false [(1, .pre), (2, .pre), (3, .pre), (4, .pre)]  -- init parsecfg.go:814 
 ]
 
 /-- var watchRe -/
-def g185 : List Access := [
-  A 0 185 true false [] false [(1, .pre), (2, .pre), (3, .pre), (4, .pre)]  -- init parsecfg.go:233 
+def g173 : List Access := [
+  A 0 173 true false [] false [(1, .pre), (2, .pre), (3, .pre), (4, .pre)]  -- init parsecfg.go:233 
 ]
 
 /-- var watchVarRe -/
-def g186 : List Access := [
-  A 0 186 true false [] false [(1, .pre), (2, .pre), (3, .pre), (4, .pre)]  -- init parsecfg.go:234 
+def g174 : List Access := [
+  A 0 174 true false [] false [(1, .pre), (2, .pre), (3, .pre), (4, .pre)]  -- init parsecfg.go:234 
 ]
 
 /-- variable.watcherNames -/
-def g187 : List Access := [
-  A 7 187 false false [] true [],  -- collector.collectObservation collector.go:302 
-  A 0 187 false false [] false [(2, .mid), (3, .mid), (4, .mid)],  -- config.printCfg config.go:462 
-  A 0 187 false false [] false [(1, .pre), (2, .pre), (3, .pre), (4, .pre)],  -- variable.maybeAddWatcher config.go:1067 
-  A 0 187 true false [] false [(1, .pre), (2, .pre), (3, .pre), (4, .pre)]  -- variable.maybeAddWatcher config.go:1067 
+def g175 : List Access := [
+  A 7 175 false false [] true [],  -- collector.collectObservation collector.go:302 
+  A 0 175 false false [] false [(2, .mid), (3, .mid), (4, .mid)],  -- config.printCfg config.go:462 
+  A 0 175 false false [] false [(1, .pre), (2, .pre), (3, .pre), (4, .pre)],  -- variable.maybeAddWatcher config.go:1067 
+  A 0 175 true false [] false [(1, .pre), (2, .pre), (3, .pre), (4, .pre)]  -- variable.maybeAddWatcher config.go:1067 
 ]
 
 /-- variable.watcherNames[] -/
-def g188 : List Access := [
-  A 7 188 false false [] true [],  -- collector.collectObservation ? 
-  A 0 188 false false [] false [(2, .mid), (3, .mid), (4, .mid)],  -- config.printCfg ? 
-  A 0 188 true false [] false [(1, .pre), (2, .pre), (3, .pre), (4, .pre)]  -- variable.maybeAddWatcher config.go:1067 
+def g176 : List Access := [
+  A 7 176 false false [] true [],  -- collector.collectObservation ? 
+  A 0 176 false false [] false [(2, .mid), (3, .mid), (4, .mid)],  -- config.printCfg ? 
+  A 0 176 true false [] false [(1, .pre), (2, .pre), (3, .pre), (4, .pre)]  -- variable.maybeAddWatcher config.go:1067 
 ]
 
 /-- variable.watchers[] -/
-def g189 : List Access := [
-  A 8 189 false false [] true [],  -- audition.setAndActivateVar audit.go:641 
-  A 7 189 false false [] true [],  -- collector.collectObservation collector.go:303 
-  A 0 189 false false [] false [(1, .pre), (2, .pre), (3, .pre), (4, .pre)],  -- variable.maybeAddWatcher config.go:1063 
-  A 0 189 true false [] false [(1, .pre), (2, .pre), (3, .pre), (4, .pre)]  -- variable.maybeAddWatcher config.go:1066 
+def g177 : List Access := [
+  A 8 177 false false [] true [],  -- audition.setAndActivateVar audit.go:641 
+  A 7 177 false false [] true [],  -- collector.collectObservation collector.go:303 
+  A 0 177 false false [] false [(1, .pre), (2, .pre), (3, .pre), (4, .pre)],  -- variable.maybeAddWatcher config.go:1063 
+  A 0 177 true false [] false [(1, .pre), (2, .pre), (3, .pre), (4, .pre)]  -- variable.maybeAddWatcher config.go:1066 
 ]
 
 /-- workerRegistry.mu.numWorkers -/
-def g190 : List Access := [
-  A 1 190 false false [0] true [(5, .mid), (6, .mid), (7, .mid), (8, .mid), (9, .mid)],  -- workerRegistry.addWorker workers.go:28 
-  A 1 190 true false [0] true [(5, .mid), (6, .mid), (7, .mid), (8, .mid), (9, .mid)],  -- workerRegistry.addWorker workers.go:28 
-  A 1 190 false false [0] false [],  -- workerRegistry.delWorker workers.go:35 
-  A 1 190 true false [0] false [],  -- workerRegistry.delWorker workers.go:35 
-  A 2 190 false false [0] false [],  -- workerRegistry.String workers.go:48 
-  A 9 190 false false [0] true [(12, .pre), (13, .pre), (14, .mid)],  -- workerRegistry.addWorker workers.go:28 
-  A 9 190 true false [0] true [(12, .pre), (13, .pre), (14, .mid)],  -- workerRegistry.addWorker workers.go:28 
-  A 9 190 false false [0] false [(13, .mid), (14, .mid)],  -- workerRegistry.delWorker workers.go:35 
-  A 9 190 true false [0] false [(13, .mid), (14, .mid)],  -- workerRegistry.delWorker workers.go:35 
-  A 8 190 false false [0] false [],  -- workerRegistry.delWorker workers.go:35 
-  A 8 190 true false [0] false [],  -- workerRegistry.delWorker workers.go:35 
-  A 7 190 false false [0] false [],  -- workerRegistry.delWorker workers.go:35 
-  A 7 190 true false [0] false [],  -- workerRegistry.delWorker workers.go:35 
-  A 0 190 false false [0] false [(1, .mid), (2, .pre), (3, .mid), (4, .mid)],  -- workerRegistry.String workers.go:48 
-  A 0 190 false false [0] false [(1, .mid), (2, .pre), (3, .pre), (4, .mid)],  -- workerRegistry.addWorker workers.go:28 
-  A 0 190 true false [0] false [(1, .mid), (2, .pre), (3, .pre), (4, .mid)],  -- workerRegistry.addWorker workers.go:28 
-  A 10 190 false false [0] true [(13, .mid), (14, .mid)],  -- workerRegistry.addWorker workers.go:28 
-  A 10 190 true false [0] true [(13, .mid), (14, .mid)],  -- workerRegistry.addWorker workers.go:28 
-  A 5 190 false false [0] false [],  -- workerRegistry.delWorker workers.go:35 
-  A 5 190 true false [0] false [],  -- workerRegistry.delWorker workers.go:35 
-  A 14 190 false false [0] false [],  -- workerRegistry.delWorker workers.go:35 
-  A 14 190 true false [0] false [],  -- workerRegistry.delWorker workers.go:35 
-  A 11 190 false false [0] true [(14, .mid), (15, .pre), (16, .pre)],  -- workerRegistry.addWorker workers.go:28 
-  A 11 190 true false [0] true [(14, .mid), (15, .pre), (16, .pre)],  -- workerRegistry.addWorker workers.go:28 
-  A 11 190 false false [0] false [(14, .mid), (16, .mid)],  -- workerRegistry.delWorker workers.go:35 
-  A 11 190 true false [0] false [(14, .mid), (16, .mid)],  -- workerRegistry.delWorker workers.go:35 
-  A 6 190 false false [0] true [(11, .mid)],  -- workerRegistry.addWorker workers.go:28 
-  A 6 190 true false [0] true [(11, .mid)],  -- workerRegistry.addWorker workers.go:28 
-  A 6 190 false false [0] false [],  -- workerRegistry.delWorker workers.go:35 
-  A 6 190 true false [0] false []  -- workerRegistry.delWorker workers.go:35 
+def g178 : List Access := [
+  A 1 178 false false [0] true [(5, .mid), (6, .mid), (7, .mid), (8, .mid), (9, .mid)],  -- workerRegistry.addWorker workers.go:28 
+  A 1 178 true false [0] true [(5, .mid), (6, .mid), (7, .mid), (8, .mid), (9, .mid)],  -- workerRegistry.addWorker workers.go:28 
+  A 1 178 false false [0] false [],  -- workerRegistry.delWorker workers.go:35 
+  A 1 178 true false [0] false [],  -- workerRegistry.delWorker workers.go:35 
+  A 2 178 false false [0] false [],  -- workerRegistry.String workers.go:48 
+  A 9 178 false false [0] true [(12, .pre), (13, .pre), (14, .mid)],  -- workerRegistry.addWorker workers.go:28 
+  A 9 178 true false [0] true [(12, .pre), (13, .pre), (14, .mid)],  -- workerRegistry.addWorker workers.go:28 
+  A 9 178 false false [0] false [(13, .mid), (14, .mid)],  -- workerRegistry.delWorker workers.go:35 
+  A 9 178 true false [0] false [(13, .mid), (14, .mid)],  -- workerRegistry.delWorker workers.go:35 
+  A 8 178 false false [0] false [],  -- workerRegistry.delWorker workers.go:35 
+  A 8 178 true false [0] false [],  -- workerRegistry.delWorker workers.go:35 
+  A 7 178 false false [0] false [],  -- workerRegistry.delWorker workers.go:35 
+  A 7 178 true false [0] false [],  -- workerRegistry.delWorker workers.go:35 
+  A 0 178 false false [0] false [(1, .mid), (2, .pre), (3, .mid), (4, .mid)],  -- workerRegistry.String workers.go:48 
+  A 0 178 false false [0] false [(1, .mid), (2, .pre), (3, .pre), (4, .mid)],  -- workerRegistry.addWorker workers.go:28 
+  A 0 178 true false [0] false [(1, .mid), (2, .pre), (3, .pre), (4, .mid)],  -- workerRegistry.addWorker workers.go:28 
+  A 10 178 false false [0] true [(13, .mid), (14, .mid)],  -- workerRegistry.addWorker workers.go:28 
+  A 10 178 true false [0] true [(13, .mid), (14, .mid)],  -- workerRegistry.addWorker workers.go:28 
+  A 5 178 false false [0] false [],  -- workerRegistry.delWorker workers.go:35 
+  A 5 178 true false [0] false [],  -- workerRegistry.delWorker workers.go:35 
+  A 14 178 false false [0] false [],  -- workerRegistry.delWorker workers.go:35 
+  A 14 178 true false [0] false [],  -- workerRegistry.delWorker workers.go:35 
+  A 11 178 false false [0] true [(14, .mid), (15, .pre), (16, .pre)],  -- workerRegistry.addWorker workers.go:28 
+  A 11 178 true false [0] true [(14, .mid), (15, .pre), (16, .pre)],  -- workerRegistry.addWorker workers.go:28 
+  A 11 178 false false [0] false [(14, .mid), (16, .mid)],  -- workerRegistry.delWorker workers.go:35 
+  A 11 178 true false [0] false [(14, .mid), (16, .mid)],  -- workerRegistry.delWorker workers.go:35 
+  A 6 178 false false [0] true [(11, .mid)],  -- workerRegistry.addWorker workers.go:28 
+  A 6 178 true false [0] true [(11, .mid)],  -- workerRegistry.addWorker workers.go:28 
+  A 6 178 false false [0] false [],  -- workerRegistry.delWorker workers.go:35 
+  A 6 178 true false [0] false []  -- workerRegistry.delWorker workers.go:35 
 ]
 
 /-- workerRegistry.mu.workers[] -/
-def g191 : List Access := [
-  A 1 191 false false [0] true [(5, .mid), (6, .mid), (7, .mid), (8, .mid), (9, .mid)],  -- workerRegistry.addWorker workers.go:27 
-  A 1 191 true false [0] true [(5, .mid), (6, .mid), (7, .mid), (8, .mid), (9, .mid)],  -- workerRegistry.addWorker workers.go:27 
-  A 1 191 false false [0] false [],  -- workerRegistry.delWorker workers.go:34 
-  A 1 191 true false [0] false [],  -- workerRegistry.delWorker workers.go:34 
-  A 2 191 false false [0] false [],  -- workerRegistry.String workers.go:53 
-  A 9 191 false false [0] true [(12, .pre), (13, .pre), (14, .mid)],  -- workerRegistry.addWorker workers.go:27 
-  A 9 191 true false [0] true [(12, .pre), (13, .pre), (14, .mid)],  -- workerRegistry.addWorker workers.go:27 
-  A 9 191 false false [0] false [(13, .mid), (14, .mid)],  -- workerRegistry.delWorker workers.go:34 
-  A 9 191 true false [0] false [(13, .mid), (14, .mid)],  -- workerRegistry.delWorker workers.go:34 
-  A 8 191 false false [0] false [],  -- workerRegistry.delWorker workers.go:34 
-  A 8 191 true false [0] false [],  -- workerRegistry.delWorker workers.go:34 
-  A 7 191 false false [0] false [],  -- workerRegistry.delWorker workers.go:34 
-  A 7 191 true false [0] false [],  -- workerRegistry.delWorker workers.go:34 
-  A 0 191 false false [0] false [(1, .mid), (2, .pre), (3, .mid), (4, .mid)],  -- workerRegistry.String workers.go:53 
-  A 0 191 false false [0] false [(1, .mid), (2, .pre), (3, .pre), (4, .mid)],  -- workerRegistry.addWorker workers.go:27 
-  A 0 191 true false [0] false [(1, .mid), (2, .pre), (3, .pre), (4, .mid)],  -- workerRegistry.addWorker workers.go:27 
-  A 10 191 false false [0] true [(13, .mid), (14, .mid)],  -- workerRegistry.addWorker workers.go:27 
-  A 10 191 true false [0] true [(13, .mid), (14, .mid)],  -- workerRegistry.addWorker workers.go:27 
-  A 5 191 false false [0] false [],  -- workerRegistry.delWorker workers.go:34 
-  A 5 191 true false [0] false [],  -- workerRegistry.delWorker workers.go:34 
-  A 14 191 false false [0] false [],  -- workerRegistry.delWorker workers.go:34 
-  A 14 191 true false [0] false [],  -- workerRegistry.delWorker workers.go:34 
-  A 11 191 false false [0] true [(14, .mid), (15, .pre), (16, .pre)],  -- workerRegistry.addWorker workers.go:27 
-  A 11 191 true false [0] true [(14, .mid), (15, .pre), (16, .pre)],  -- workerRegistry.addWorker workers.go:27 
-  A 11 191 false false [0] false [(14, .mid), (16, .mid)],  -- workerRegistry.delWorker workers.go:34 
-  A 11 191 true false [0] false [(14, .mid), (16, .mid)],  -- workerRegistry.delWorker workers.go:34 
-  A 6 191 false false [0] true [(11, .mid)],  -- workerRegistry.addWorker workers.go:27 
-  A 6 191 true false [0] true [(11, .mid)],  -- workerRegistry.addWorker workers.go:27 
-  A 6 191 false false [0] false [],  -- workerRegistry.delWorker workers.go:34 
-  A 6 191 true false [0] false []  -- workerRegistry.delWorker workers.go:34 
+def g179 : List Access := [
+  A 1 179 false false [0] true [(5, .mid), (6, .mid), (7, .mid), (8, .mid), (9, .mid)],  -- workerRegistry.addWorker workers.go:27 
+  A 1 179 true false [0] true [(5, .mid), (6, .mid), (7, .mid), (8, .mid), (9, .mid)],  -- workerRegistry.addWorker workers.go:27 
+  A 1 179 false false [0] false [],  -- workerRegistry.delWorker workers.go:34 
+  A 1 179 true false [0] false [],  -- workerRegistry.delWorker workers.go:34 
+  A 2 179 false false [0] false [],  -- workerRegistry.String workers.go:53 
+  A 9 179 false false [0] true [(12, .pre), (13, .pre), (14, .mid)],  -- workerRegistry.addWorker workers.go:27 
+  A 9 179 true false [0] true [(12, .pre), (13, .pre), (14, .mid)],  -- workerRegistry.addWorker workers.go:27 
+  A 9 179 false false [0] false [(13, .mid), (14, .mid)],  -- workerRegistry.delWorker workers.go:34 
+  A 9 179 true false [0] false [(13, .mid), (14, .mid)],  -- workerRegistry.delWorker workers.go:34 
+  A 8 179 false false [0] false [],  -- workerRegistry.delWorker workers.go:34 
+  A 8 179 true false [0] false [],  -- workerRegistry.delWorker workers.go:34 
+  A 7 179 false false [0] false [],  -- workerRegistry.delWorker workers.go:34 
+  A 7 179 true false [0] false [],  -- workerRegistry.delWorker workers.go:34 
+  A 0 179 false false [0] false [(1, .mid), (2, .pre), (3, .mid), (4, .mid)],  -- workerRegistry.String workers.go:53 
+  A 0 179 false false [0] false [(1, .mid), (2, .pre), (3, .pre), (4, .mid)],  -- workerRegistry.addWorker workers.go:27 
+  A 0 179 true false [0] false [(1, .mid), (2, .pre), (3, .pre), (4, .mid)],  -- workerRegistry.addWorker workers.go:27 
+  A 10 179 false false [0] true [(13, .mid), (14, .mid)],  -- workerRegistry.addWorker workers.go:27 
+  A 10 179 true false [0] true [(13, .mid), (14, .mid)],  -- workerRegistry.addWorker workers.go:27 
+  A 5 179 false false [0] false [],  -- workerRegistry.delWorker workers.go:34 
+  A 5 179 true false [0] false [],  -- workerRegistry.delWorker workers.go:34 
+  A 14 179 false false [0] false [],  -- workerRegistry.delWorker workers.go:34 
+  A 14 179 true false [0] false [],  -- workerRegistry.delWorker workers.go:34 
+  A 11 179 false false [0] true [(14, .mid), (15, .pre), (16, .pre)],  -- workerRegistry.addWorker workers.go:27 
+  A 11 179 true false [0] true [(14, .mid), (15, .pre), (16, .pre)],  -- workerRegistry.addWorker workers.go:27 
+  A 11 179 false false [0] false [(14, .mid), (16, .mid)],  -- workerRegistry.delWorker workers.go:34 
+  A 11 179 true false [0] false [(14, .mid), (16, .mid)],  -- workerRegistry.delWorker workers.go:34 
+  A 6 179 false false [0] true [(11, .mid)],  -- workerRegistry.addWorker workers.go:27 
+  A 6 179 true false [0] true [(11, .mid)],  -- workerRegistry.addWorker workers.go:27 
+  A 6 179 false false [0] false [],  -- workerRegistry.delWorker workers.go:34 
+  A 6 179 true false [0] false []  -- workerRegistry.delWorker workers.go:34 
 ]
 
 def groups : List (List Access) := [
@@ -2118,7 +1981,7 @@ def groups : List (List Access) := [
   g128, g129, g130, g131, g132, g133, g134, g135, g136, g137, g138, g139, g140, g141, g142, g143, 
   g144, g145, g146, g147, g148, g149, g150, g151, g152, g153, g154, g155, g156, g157, g158, g159, 
   g160, g161, g162, g163, g164, g165, g166, g167, g168, g169, g170, g171, g172, g173, g174, g175, 
-  g176, g177, g178, g179, g180, g181, g182, g183, g184, g185, g186, g187, g188, g189, g190, g191]
+  g176, g177, g178, g179]
 
 /-- locations written, in some function, after a pointer to the object was sent on a channel there -/
 def sentThenWritten : List Nat := []
